@@ -13,7 +13,13 @@ Part 5: facts for EVERY sink (C19): `Evolves`/`Grows` (what a call may change), 
 Part 6: the image rule of the specification (`specImgOk`) and a back-end that meets the `Codec`
         contract (`scanCodec_ok`, via `decode_encode_scanlines` = C03).
 Part 7: concrete model runs decided by the kernel (witnesses of the recorded defects, non-vacuity).
-Part 8: the stream writer on a still picture (`CWInv`, `ZInv`, `SWInv`, `stream_still_valid`).
+Part 8: the stream writer in general, on a sink that never fails.  A complete stream image leaves the
+        `Writer` in exactly the state `write_image_data` would leave it in with the same zlib stream cut the
+        same way (`HeaderRel.sim`; chunk writer `CWC`/`CWI`, encoder `ZI`, rows `Inside`/`Completed`);
+        `JW` (what is known of the `Writer` at any point of a program over both APIs), `SessInv` (a
+        session between / inside images), `session_spec`, `prog_spec`; the theorems
+        `stream_skeleton_valid` (C12), `stream_clean`, `stream_validation` (C19); a streaming back-end
+        that meets the `ZCodec` contract (`scanZ_ok`); concrete programs and what stays false (N10).
 -/
 namespace Png.Enc
 open Png Png.Val
@@ -482,36 +488,32 @@ theorem inLen_pos {color depth w : Nat} (hc : colorOk color = true) (hd : depthO
 
 /-! ### what the automaton does on the chunk groups the writer emits -/
 
-theorem idatChunks_eq (z : Bytes) (hz : z ≠ []) :
-    ∃ p ps, chunksOf maxIdatChunkLen z = p :: ps ∧ p ++ ps.flatten = z := by
-  have hne := chunksOf_ne_nil maxIdatChunkLen z hz
-  have hfl := chunksOf_flatten maxIdatChunkLen (by decide) z
-  cases h : chunksOf maxIdatChunkLen z with
-  | nil => exact absurd h hne
-  | cons p ps => exact ⟨p, ps, rfl, by rw [h] at hfl; simpa using hfl⟩
-
-/-- IDAT chunks of a first image that has no fcTL -/
-theorem run_idats_pre (imgOk : ImgRule) (s : WState) (seq fctls : Nat) (z : Bytes) (hz : z ≠ [])
+/-- IDAT chunks of a first image that has no fcTL (any split of the stream into non-zero many chunks) -/
+theorem run_idats_pre (imgOk : ImgRule) (s : WState) (seq fctls : Nat) (parts : List Bytes) (hne : parts ≠ [])
     (hp : ¬ (s.color = 3 ∧ s.hasPalette = false)) :
-    skRunR imgOk (absSk s seq fctls .pre) (idatChunks z) = .ok (absSk s seq fctls (.idat z)) := by
-  obtain ⟨p, ps, h1, h2⟩ := idatChunks_eq z hz
-  simp only [idatChunks, h1, List.map_cons, skRunR, summarize_idat, skStep, stepIdat, absSk]
-  simp only [reduceCtorEq, if_false, hp]
-  rw [skRunR_idats imgOk ps _ p rfl]
-  simp [h2]
+    skRunR imgOk (absSk s seq fctls .pre) (parts.map mkIdat) = .ok (absSk s seq fctls (.idat parts.flatten)) := by
+  cases parts with
+  | nil => exact absurd rfl hne
+  | cons p ps =>
+    simp only [List.map_cons, skRunR, summarize_idat, skStep, stepIdat, absSk]
+    simp only [reduceCtorEq, if_false, hp]
+    rw [skRunR_idats imgOk ps _ p rfl]
+    simp
 
 /-- IDAT chunks of a first image announced by an fcTL that covers the canvas -/
-theorem run_idats_pending (imgOk : ImgRule) (s : WState) (seq fctls : Nat) (z : Bytes) (hz : z ≠ [])
+theorem run_idats_pending (imgOk : ImgRule) (s : WState) (seq fctls : Nat) (parts : List Bytes) (hne : parts ≠ [])
     (hp : ¬ (s.color = 3 ∧ s.hasPalette = false)) (f : FC)
     (hc : f.x = 0 ∧ f.y = 0 ∧ f.w = s.width ∧ f.h = s.height) :
-    skRunR imgOk { absSk s seq fctls .pre with pending := some f.toFctl } (idatChunks z)
-      = .ok (absSk s seq fctls (.idat z)) := by
-  obtain ⟨p, ps, h1, h2⟩ := idatChunks_eq z hz
+    skRunR imgOk { absSk s seq fctls .pre with pending := some f.toFctl } (parts.map mkIdat)
+      = .ok (absSk s seq fctls (.idat parts.flatten)) := by
   obtain ⟨c1, c2, c3, c4⟩ := hc
-  simp only [idatChunks, h1, List.map_cons, skRunR, summarize_idat, skStep, stepIdat, absSk]
-  simp only [reduceCtorEq, if_false, hp, coversCanvas, FC.toFctl, c1, c2, c3, c4, beq_self_eq_true, Bool.and_self, if_true]
-  rw [skRunR_idats imgOk ps _ p rfl]
-  simp [h2]
+  cases parts with
+  | nil => exact absurd rfl hne
+  | cons p ps =>
+    simp only [List.map_cons, skRunR, summarize_idat, skStep, stepIdat, absSk]
+    simp only [reduceCtorEq, if_false, hp, coversCanvas, FC.toFctl, c1, c2, c3, c4, beq_self_eq_true, Bool.and_self, if_true]
+    rw [skRunR_idats imgOk ps _ p rfl]
+    simp
 
 /-- an fcTL: closes the current run of data chunks, becomes the pending frame control -/
 theorem run_fctl (imgOk : ImgRule) (s : WState) (seq fctls : Nat) (ph : Phase) (f : FC)
@@ -535,28 +537,21 @@ theorem run_fctl (imgOk : ImgRule) (s : WState) (seq fctls : Nat) (ph : Phase) (
   simp only [skRunR, summarize_fctl f hr, skStep, hnd, if_false, stepFctl, closeRun_abs hI hF, hfo]
   simp [absSk, hfr, FC.toFctl, hs]
 
-/-- the fdAT chunks of a frame whose fcTL is pending -/
-theorem run_fdats (imgOk : ImgRule) (s : WState) (seq fctls : Nat) (f : FC) (z : Bytes) (hz : z ≠ [])
+/-- the fdAT chunks of a frame whose fcTL is pending (any split into non-zero many chunks) -/
+theorem run_fdats (imgOk : ImgRule) (s : WState) (seq fctls : Nat) (f : FC) (parts : List Bytes) (hne : parts ≠ [])
     (ha : s.actl ≠ none) (hseq : seq < 2 ^ 32) :
-    skRunR imgOk { absSk s seq fctls .mid with pending := some f.toFctl }
-        (fdatChunks seq (chunksOf maxFdatChunkLen z)).1 =
-      .ok (absSk s (seqAfter seq (chunksOf maxFdatChunkLen z).length) fctls (.fdat f.w f.h z)) := by
-  have hne := chunksOf_ne_nil maxFdatChunkLen z hz
-  have hfl := chunksOf_flatten maxFdatChunkLen (by decide) z
+    skRunR imgOk { absSk s seq fctls .mid with pending := some f.toFctl } (fdatChunks seq parts).1 =
+      .ok (absSk s (seqAfter seq parts.length) fctls (.fdat f.w f.h parts.flatten)) := by
   have hfr : (s.actl.map (·.1)) ≠ none := by cases h : s.actl <;> simp_all
-  cases h : chunksOf maxFdatChunkLen z with
-  | nil => exact absurd h hne
+  cases parts with
+  | nil => exact absurd rfl hne
   | cons p ps =>
-    rw [h] at hfl
     simp only [fdatChunks, skRunR, summarize_fdat _ _ hseq, skStep, stepFdat, absSk, closeRun]
     simp only [reduceCtorEq, if_false, hfr, ne_eq, not_true_eq_false]
     rw [skRunR_fdats imgOk ps _ f.toFctl.width f.toFctl.height p ((seq + 1) % 2 ^ 32) rfl hfr rfl (Nat.mod_lt _ (by decide))]
     simp only [FC.toFctl, seqAfter, List.length_cons]
-    have : p ++ ps.flatten = z := by simpa using hfl
-    simp [this]
+    simp
     omega
-
-
 
 /-- the fields that never change after `write_header` -/
 def StaticEq (s s' : WState) : Prop :=
@@ -706,19 +701,19 @@ theorem opt_cases {α : Type} (o : Option α) : o = none ∨ ∃ a, o = some a :
 
 /-- the IDAT image of a writer that has written nothing yet -/
 theorem Inv.idatImage {imgOk : ImgRule} {s : WState} {seq fctls : Nat}
-    (inv : Inv imgOk s seq fctls .pre) (z : Bytes) (hz : z ≠ [])
-    (hp : ¬ (s.color = 3 ∧ s.hasPalette = false)) (hok : imgOk s.width s.height z = .ok ())
+    (inv : Inv imgOk s seq fctls .pre) (parts : List Bytes) (hz : parts ≠ [])
+    (hp : ¬ (s.color = 3 ∧ s.hasPalette = false)) (hok : imgOk s.width s.height parts.flatten = .ok ())
     (hskip : ∀ f, s.fctl = some f → s.sepDefImg = true) (hlt : s.imagesWritten < declared s) :
-    (emitIdatImage s z).2 = .ok ∧ Inv imgOk (emitIdatImage s z).1 seq fctls (.idat z) := by
-  obtain ⟨k, hk, hkg, hkc⟩ := WState.emit_good' inv.good (idatChunks z)
+    (emitIdatImage s parts).2 = .ok ∧ Inv imgOk (emitIdatImage s parts).1 seq fctls (.idat parts.flatten) := by
+  obtain ⟨k, hk, hkg, hkc⟩ := WState.emit_good' inv.good (parts.map mkIdat)
   have h0 : s.imagesWritten = 0 := inv.phPre.mpr rfl
   simp only [emitIdatImage, hk]
   refine ⟨trivial, ?_⟩
-  have hrun := run_idats_pre imgOk s seq fctls z hz hp
+  have hrun := run_idats_pre imgOk s seq fctls parts hz hp
   rcases opt_cases s.actl with ha | ⟨⟨n, p⟩, ha⟩
   · rw [incr_none (s := { s with sink := k }) ha]
     have hfn := inv.noActl ha
-    refine inv.extend _ seq fctls (.idat z) (StaticEq.refl s) hkg inv.iend _ hkc hrun ?_ (by simp) ?_ (by simp) ?_ ?_ ?_ ?_
+    refine inv.extend _ seq fctls (.idat parts.flatten) (StaticEq.refl s) hkg inv.iend _ hkc hrun ?_ (by simp) ?_ (by simp) ?_ ?_ ?_ ?_
     · simp [h0]
     · intro acc h; cases h; exact hok
     · intro _; exact hfn
@@ -737,7 +732,7 @@ theorem Inv.idatImage {imgOk : ImgRule} {s : WState} {seq fctls : Nat}
       have hnle : ¬ n ≤ s.animWritten := by omega
       simp only [hnle, if_false]
       have haw : s.animWritten = 0 := by simp [h0] at h6; omega
-      refine inv.extend _ seq fctls (.idat z) (StaticEq.refl s) hkg inv.iend _ hkc hrun ?_ (by simp) ?_ (by simp) ?_ ?_ ?_ ?_
+      refine inv.extend _ seq fctls (.idat parts.flatten) (StaticEq.refl s) hkg inv.iend _ hkc hrun ?_ (by simp) ?_ (by simp) ?_ ?_ ?_ ?_
       · simp [h0]
       · intro acc h; cases h; exact hok
       · intro h; simp [ha] at h
@@ -755,11 +750,13 @@ theorem closed_of_written {ph : Phase} (h1 : ph ≠ .pre) (h2 : ph ≠ .done) : 
 
 /-- an animation frame: fcTL, then IDAT (first image) or fdAT chunks -/
 theorem Inv.frame {imgOk : ImgRule} {s : WState} {seq fctls : Nat} {ph : Phase}
-    (inv : Inv imgOk s seq fctls ph) (f : FC) (hf : s.fctl = some f) (z : Bytes) (hz : z ≠ [])
-    (hp : ¬ (s.color = 3 ∧ s.hasPalette = false)) (hok : imgOk f.w f.h z = .ok ())
+    (inv : Inv imgOk s seq fctls ph) (f : FC) (hf : s.fctl = some f) (pi pf : List Bytes)
+    (hzi : pi ≠ []) (hzf : pf ≠ [])
+    (hp : ¬ (s.color = 3 ∧ s.hasPalette = false))
+    (hoki : imgOk f.w f.h pi.flatten = .ok ()) (hokf : imgOk f.w f.h pf.flatten = .ok ())
     (hns : skipFctlOnDefault s = false)
     (h7 : s.imagesWritten = 0 → f.x = 0 ∧ f.y = 0 ∧ f.w = s.width ∧ f.h = s.height) :
-    ∃ seq' fctls' ph', (emitFrame s f z).2 = .ok ∧ Inv imgOk (emitFrame s f z).1 seq' fctls' ph' := by
+    ∃ seq' fctls' ph', (emitFrame s f pi pf).2 = .ok ∧ Inv imgOk (emitFrame s f pi pf).1 seq' fctls' ph' := by
   obtain ⟨h1, h2, h3, h4, ⟨n, p, ha, hlt⟩, h6⟩ := inv.fc f hf
   subst h2
   have hn32 := inv.actlR n p ha
@@ -780,21 +777,21 @@ theorem Inv.frame {imgOk : ImgRule} {s : WState} {seq fctls : Nat} {ph : Phase}
     have hph : ph = .pre := inv.phPre.mp h0
     subst hph
     rw [if_pos (show _ = 0 from h0)]
-    obtain ⟨k2, hk2, hk2g, hk2c⟩ := WState.emit_good' (s := { s with sink := k, fctl := some { f with seq := (f.seq + 1) % 2 ^ 32 }, animWritten := s.animWritten + 1 }) hkg (idatChunks z)
+    obtain ⟨k2, hk2, hk2g, hk2c⟩ := WState.emit_good' (s := { s with sink := k, fctl := some { f with seq := (f.seq + 1) % 2 ^ 32 }, animWritten := s.animWritten + 1 }) hkg (pi.map mkIdat)
     simp only [emitIdatImage, hk2]
-    have hri := run_idats_pending imgOk s ((f.seq + 1) % 2 ^ 32) (fctls + 1) z hz hp f (h7 h0)
-    have hrun : skRunR imgOk (absSk s f.seq fctls .pre) ([mkFctl f] ++ idatChunks z) =
-        .ok (absSk s ((f.seq + 1) % 2 ^ 32) (fctls + 1) (.idat z)) := skRunR_append_ok hrf hri
-    have hchunks : k2.chunks = s.sink.chunks ++ ([mkFctl f] ++ idatChunks z) := by
+    have hri := run_idats_pending imgOk s ((f.seq + 1) % 2 ^ 32) (fctls + 1) pi hzi hp f (h7 h0)
+    have hrun : skRunR imgOk (absSk s f.seq fctls .pre) ([mkFctl f] ++ pi.map mkIdat) =
+        .ok (absSk s ((f.seq + 1) % 2 ^ 32) (fctls + 1) (.idat pi.flatten)) := skRunR_append_ok hrf hri
+    have hchunks : k2.chunks = s.sink.chunks ++ ([mkFctl f] ++ pi.map mkIdat) := by
       rw [hk2c]; simp only; rw [hkc]; simp
     obtain ⟨c1, c2, c3, c4⟩ := h7 h0
-    refine ⟨(f.seq + 1) % 2 ^ 32, fctls + 1, .idat z, trivial, ?_⟩
+    refine ⟨(f.seq + 1) % 2 ^ 32, fctls + 1, .idat pi.flatten, trivial, ?_⟩
     rw [incr_some (s := { s with sink := k2, fctl := some { f with seq := (f.seq + 1) % 2 ^ 32 }, animWritten := s.animWritten + 1 }) ha]
     by_cases hle : n ≤ s.animWritten + 1
     · simp only [hle, if_true]
       refine inv.extend _ _ _ _ (StaticEq.refl s) hk2g inv.iend _ hchunks hrun ?_ (by simp) ?_ (by simp) ?_ ?_ ?_ ?_
       · simp [h0]
-      · intro acc h; cases h; rw [← c3, ← c4]; exact hok
+      · intro acc h; cases h; rw [← c3, ← c4]; exact hoki
       · intro h; rfl
       · simp [h0, declared, ha]; omega
       · intro g hg; simp at hg
@@ -807,7 +804,7 @@ theorem Inv.frame {imgOk : ImgRule} {s : WState} {seq fctls : Nat} {ph : Phase}
     · simp only [hle, if_false]
       refine inv.extend _ _ _ _ (StaticEq.refl s) hk2g inv.iend _ hchunks hrun ?_ (by simp) ?_ (by simp) ?_ ?_ ?_ ?_
       · simp [h0]
-      · intro acc h; cases h; rw [← c3, ← c4]; exact hok
+      · intro acc h; cases h; rw [← c3, ← c4]; exact hoki
       · intro h; simp [ha] at h
       · simp [h0, declared, ha]; omega
       · intro g hg
@@ -817,26 +814,26 @@ theorem Inv.frame {imgOk : ImgRule} {s : WState} {seq fctls : Nat} {ph : Phase}
   · -- later image: fdAT
     rw [if_neg (show ¬ _ = 0 from h0)]
     have hphm : closed ph = .mid := closed_of_written (fun h => h0 (inv.phPre.mpr h)) inv.phDone
-    obtain ⟨k2, hk2, hk2g, hk2c⟩ := WState.emit_good' (s := { s with sink := k, fctl := some { f with seq := (f.seq + 1) % 2 ^ 32 }, animWritten := s.animWritten + 1 }) hkg (fdatChunks ((f.seq + 1) % 2 ^ 32) (chunksOf maxFdatChunkLen z)).1
+    obtain ⟨k2, hk2, hk2g, hk2c⟩ := WState.emit_good' (s := { s with sink := k, fctl := some { f with seq := (f.seq + 1) % 2 ^ 32 }, animWritten := s.animWritten + 1 }) hkg (fdatChunks ((f.seq + 1) % 2 ^ 32) pf).1
     simp only [emitFdatImage, hk2]
     rw [hphm] at hrf
-    have hrd := run_fdats imgOk s ((f.seq + 1) % 2 ^ 32) (fctls + 1) f z hz hane (Nat.mod_lt _ (by decide))
+    have hrd := run_fdats imgOk s ((f.seq + 1) % 2 ^ 32) (fctls + 1) f pf hzf hane (Nat.mod_lt _ (by decide))
     have hrun := skRunR_append_ok hrf hrd
-    have hchunks : k2.chunks = s.sink.chunks ++ ([mkFctl f] ++ (fdatChunks ((f.seq + 1) % 2 ^ 32) (chunksOf maxFdatChunkLen z)).1) := by
+    have hchunks : k2.chunks = s.sink.chunks ++ ([mkFctl f] ++ (fdatChunks ((f.seq + 1) % 2 ^ 32) pf).1) := by
       rw [hk2c]; simp only; rw [hkc]; simp
     have hdl := declared_le s inv.actlR
     have hcnt := inv.cnt
     have hmin : min (s.imagesWritten + 1) (2 ^ 64 - 1) = s.imagesWritten + 1 := by omega
-    refine ⟨seqAfter ((f.seq + 1) % 2 ^ 32) (chunksOf maxFdatChunkLen z).length, fctls + 1, .fdat f.w f.h z, trivial, ?_⟩
-    rw [incr_some (s := { s with sink := k2, fctl := some { f with seq := seqAfter ((f.seq + 1) % 2 ^ 32) (chunksOf maxFdatChunkLen z).length }, animWritten := s.animWritten + 1 }) ha]
-    have hsa : seqAfter ((f.seq + 1) % 2 ^ 32) (chunksOf maxFdatChunkLen z).length < 2 ^ 32 := Nat.mod_lt _ (by decide)
+    refine ⟨seqAfter ((f.seq + 1) % 2 ^ 32) pf.length, fctls + 1, .fdat f.w f.h pf.flatten, trivial, ?_⟩
+    rw [incr_some (s := { s with sink := k2, fctl := some { f with seq := seqAfter ((f.seq + 1) % 2 ^ 32) pf.length }, animWritten := s.animWritten + 1 }) ha]
+    have hsa : seqAfter ((f.seq + 1) % 2 ^ 32) pf.length < 2 ^ 32 := Nat.mod_lt _ (by decide)
     have h6' : s.imagesWritten = s.animWritten + (if s.sepDefImg = true then 1 else 0) := by
       simpa [h0] using h6
     by_cases hle : n ≤ s.animWritten + 1
     · simp only [hle, if_true]
       refine inv.extend _ _ _ _ (StaticEq.refl s) hk2g inv.iend _ hchunks hrun ?_ (by simp) (by simp) ?_ ?_ ?_ ?_ ?_
       · simp [hmin]
-      · intro w h acc hh; cases hh; exact hok
+      · intro w h acc hh; cases hh; exact hokf
       · intro h; rfl
       · simp only [hmin, declared, ha]; cases hs : s.sepDefImg <;> simp [hs] at h6' hcnt ⊢ <;> omega
       · intro g hg; simp at hg
@@ -849,7 +846,7 @@ theorem Inv.frame {imgOk : ImgRule} {s : WState} {seq fctls : Nat} {ph : Phase}
     · simp only [hle, if_false]
       refine inv.extend _ _ _ _ (StaticEq.refl s) hk2g inv.iend _ hchunks hrun ?_ (by simp) (by simp) ?_ ?_ ?_ ?_ ?_
       · simp [hmin]
-      · intro w h acc hh; cases hh; exact hok
+      · intro w h acc hh; cases hh; exact hokf
       · intro h; simp [ha] at h
       · simp only [hmin, declared, ha]; cases hs : s.sepDefImg <;> simp [hs] at h6' hcnt ⊢ <;> omega
       · intro g hg
@@ -868,6 +865,67 @@ theorem nextDims_pos {imgOk : ImgRule} {s : WState} {seq fctls : Nat} {ph : Phas
   rcases opt_cases s.fctl with hf | ⟨f, hf⟩
   · simp only [hf]; exact inLen_pos v3 v4 v1
   · simp only [hf]; exact inLen_pos v3 v4 (inv.fc f hf).2.2.1.1
+
+/-- the emission part of `write_image_data` — fcTL if any, then the image's zlib stream cut into data
+    chunks in ANY way (`pi`: as IDAT payloads, `pf`: as fdAT payloads), then the image counter — keeps the
+    invariant, provided the image is within the declared number -/
+theorem Inv.emitImage {imgOk : ImgRule} {s : WState} {seq fctls : Nat} {ph : Phase}
+    (inv : Inv imgOk s seq fctls ph) (pi pf : List Bytes) (hzi : pi ≠ []) (hzf : pf ≠ [])
+    (hp : ¬ (s.color = 3 ∧ s.hasPalette = false))
+    (hoki : imgOk (nextDims s).1 (nextDims s).2 pi.flatten = .ok ())
+    (hokf : imgOk (nextDims s).1 (nextDims s).2 pf.flatten = .ok ())
+    (h7 : ∀ f, s.fctl = some f → s.imagesWritten = 0 → f.x = 0 ∧ f.y = 0 ∧ f.w = s.width ∧ f.h = s.height)
+    (hdom : s.imagesWritten < declared s ∨ (Enc.emitImage s pi pf).2 ≠ .ok) :
+    ∃ seq' fctls' ph', Inv imgOk (Enc.emitImage s pi pf).1 seq' fctls' ph' ∧ (Enc.emitImage s pi pf).2 = .ok := by
+  unfold Enc.emitImage at hdom ⊢
+  rcases opt_cases s.fctl with hf | ⟨f, hf⟩
+  · -- no frame control: the single image of a still picture
+    simp only [hf] at hdom ⊢
+    have hnd : nextDims s = (s.width, s.height) := by simp [nextDims, hf]
+    rw [hnd] at hoki
+    have hph : ph = .pre → (emitIdatImage s pi).2 = .ok ∧ Inv imgOk (emitIdatImage s pi).1 seq fctls (.idat pi.flatten) := by
+      intro h; subst h
+      refine inv.idatImage pi hzi hp hoki (by intro f h; simp [hf] at h) ?_
+      have h0 : s.imagesWritten = 0 := inv.phPre.mpr rfl
+      rcases opt_cases s.actl with ha | ⟨⟨n, p⟩, ha⟩
+      · simp [declared, ha, h0]
+      · have := inv.actlP n p ha; have := (inv.fin hf n p ha).2; simp only [declared, ha] at this; omega
+    -- the domain condition forces "nothing written yet"
+    have hlt : s.imagesWritten < declared s := by
+      rcases hdom with h | h
+      · exact h
+      · exfalso
+        by_cases hpre : ph = .pre
+        · exact h (hph hpre).1
+        · -- something was written: the declared number is reached, but then a good sink still says ok
+          obtain ⟨k, hk, _, _⟩ := WState.emit_good' inv.good (pi.map mkIdat)
+          simp only [emitIdatImage, hk] at h; exact h rfl
+    have hpre : ph = .pre := by
+      apply inv.phPre.mp
+      rcases opt_cases s.actl with ha | ⟨⟨n, p⟩, ha⟩
+      · simp only [declared, ha] at hlt; omega
+      · have := (inv.fin hf n p ha).2; omega
+    obtain ⟨r1, r2⟩ := hph hpre
+    exact ⟨seq, fctls, .idat pi.flatten, r2, r1⟩
+  · simp only [hf] at hdom ⊢
+    have hnd : nextDims s = (f.w, f.h) := by simp [nextDims, hf]
+    rw [hnd] at hoki hokf
+    obtain ⟨h1, h2, h3, h4, ⟨n, p, ha, hltn⟩, h6⟩ := inv.fc f hf
+    by_cases hsk : skipFctlOnDefault s = true
+    · simp only [hsk, if_true] at hdom ⊢
+      simp only [skipFctlOnDefault, Bool.and_eq_true, beq_iff_eq] at hsk
+      obtain ⟨hsep, h0⟩ := hsk
+      have hpre : ph = .pre := inv.phPre.mp h0
+      subst hpre
+      obtain ⟨_, _, c3, c4⟩ := h7 f hf h0
+      rw [c3, c4] at hoki
+      have hlt : s.imagesWritten < declared s := by simp [declared, ha, hsep, h0]
+      obtain ⟨r1, r2⟩ := inv.idatImage pi hzi hp hoki (fun _ _ => hsep) hlt
+      exact ⟨seq, fctls, .idat pi.flatten, r2, r1⟩
+    · have hsk' : skipFctlOnDefault s = false := by simpa using hsk
+      simp only [hsk', Bool.false_eq_true, if_false] at hdom ⊢
+      obtain ⟨seq', fctls', ph', r1, r2⟩ := inv.frame f hf pi pf hzi hzf hp hoki hokf hsk' (h7 f hf)
+      exact ⟨seq', fctls', ph', r2, r1⟩
 
 /-- `write_image_data` keeps the invariant, provided it is not used for more images than declared -/
 theorem Inv.image {imgOk : ImgRule} {E : Codec} {s : WState} {seq fctls : Nat} {ph : Phase}
@@ -888,64 +946,17 @@ theorem Inv.image {imgOk : ImgRule} {E : Codec} {s : WState} {seq fctls : Nat} {
         imgOk (nextDims s).1 (nextDims s).2 (E.encode (bytesPerPixel s.color s.depth) (inLenOf s (nextDims s).1) (nextDims s).2 d) = .ok () :=
       hE (nextDims s).1 (nextDims s).2 d hlen
     generalize E.encode (bytesPerPixel s.color s.depth) (inLenOf s (nextDims s).1) (nextDims s).2 d = z at hz hok hdom ⊢
-    unfold emitImage at hdom ⊢
-    rcases opt_cases s.fctl with hf | ⟨f, hf⟩
-    · -- no frame control: the single image of a still picture
-      simp only [hf] at hdom ⊢
-      have hnd : nextDims s = (s.width, s.height) := by simp [nextDims, hf]
-      rw [hnd] at hok
-      have hph : ph = .pre → (emitIdatImage s z).2 = .ok ∧ Inv imgOk (emitIdatImage s z).1 seq fctls (.idat z) := by
-        intro h; subst h
-        refine inv.idatImage z hz hp hok (by intro f h; simp [hf] at h) ?_
-        have h0 : s.imagesWritten = 0 := inv.phPre.mpr rfl
-        rcases opt_cases s.actl with ha | ⟨⟨n, p⟩, ha⟩
-        · simp [declared, ha, h0]
-        · have := inv.actlP n p ha; have := (inv.fin hf n p ha).2; simp only [declared, ha] at this; omega
-      -- the domain condition forces "nothing written yet"
-      have hlt : s.imagesWritten < declared s := by
-        rcases hdom with h | h
-        · exact h
-        · exfalso
-          by_cases hpre : ph = .pre
-          · exact h (hph hpre).1
-          · -- something was written: the declared number is reached, but then a good sink still says ok
-            obtain ⟨k, hk, _, _⟩ := WState.emit_good' inv.good (idatChunks z)
-            simp only [emitIdatImage, hk] at h; exact h rfl
-      have hpre : ph = .pre := by
-        apply inv.phPre.mp
-        rcases opt_cases s.actl with ha | ⟨⟨n, p⟩, ha⟩
-        · simp only [declared, ha] at hlt; omega
-        · have := (inv.fin hf n p ha).2; omega
-      obtain ⟨r1, r2⟩ := hph hpre
-      exact ⟨seq, fctls, .idat z, r2, by rw [r1]; rfl⟩
-    · simp only [hf] at hdom ⊢
-      have hnd : nextDims s = (f.w, f.h) := by simp [nextDims, hf]
-      rw [hnd] at hok
-      obtain ⟨h1, h2, h3, h4, ⟨n, p, ha, hltn⟩, h6⟩ := inv.fc f hf
-      -- `validate_first_image_rect` passed: a first image covers the canvas
-      have h7 : s.imagesWritten = 0 → f.x = 0 ∧ f.y = 0 ∧ f.w = s.width ∧ f.h = s.height := by
-        intro h0
-        simp only [validateFirstImageRect, hf, h0, true_and] at hv2
-        by_cases hc' : f.x = 0 ∧ f.y = 0 ∧ f.w = s.width ∧ f.h = s.height
-        · exact hc'
-        · simp [hc'] at hv2
-      by_cases hsk : skipFctlOnDefault s = true
-      · simp only [hsk, if_true] at hdom ⊢
-        simp only [skipFctlOnDefault, Bool.and_eq_true, beq_iff_eq] at hsk
-        obtain ⟨hsep, h0⟩ := hsk
-        have hpre : ph = .pre := inv.phPre.mp h0
-        subst hpre
-        obtain ⟨_, _, c3, c4⟩ := h7 h0
-        rw [c3, c4] at hok
-        have hlt : s.imagesWritten < declared s := by simp [declared, ha, hsep, h0]
-        obtain ⟨r1, r2⟩ := inv.idatImage z hz hp hok (fun _ _ => hsep) hlt
-        exact ⟨seq, fctls, .idat z, r2, by rw [r1]; rfl⟩
-      · have hsk' : skipFctlOnDefault s = false := by simpa using hsk
-        simp only [hsk', Bool.false_eq_true, if_false] at hdom ⊢
-        obtain ⟨seq', fctls', ph', r1, r2⟩ := inv.frame f hf z hz hp hok hsk' h7
-        exact ⟨seq', fctls', ph', r2, by rw [r1]; rfl⟩
-
-
+    -- `validate_first_image_rect` passed: a first image covers the canvas
+    have h7 : ∀ f, s.fctl = some f → s.imagesWritten = 0 → f.x = 0 ∧ f.y = 0 ∧ f.w = s.width ∧ f.h = s.height := by
+      intro f hf h0
+      simp only [validateFirstImageRect, hf, h0, true_and] at hv2
+      by_cases hc' : f.x = 0 ∧ f.y = 0 ∧ f.w = s.width ∧ f.h = s.height
+      · exact hc'
+      · simp [hc'] at hv2
+    obtain ⟨seq', fctls', ph', r1, r2⟩ := inv.emitImage (chunksOf maxIdatChunkLen z) (chunksOf maxFdatChunkLen z)
+      (chunksOf_ne_nil _ z hz) (chunksOf_ne_nil _ z hz) hp
+      (by rw [chunksOf_flatten _ (by decide)]; exact hok) (by rw [chunksOf_flatten _ (by decide)]; exact hok) h7 hdom
+    exact ⟨seq', fctls', ph', r1, by rw [r2]; rfl⟩
 
 /-- a chunk the automaton passes over without any rule -/
 def PlainAncillary (c : RChunk) : Prop :=
@@ -1216,27 +1227,27 @@ theorem incr_static (s : WState) : StaticEq s (incrementImagesWritten s) := by
   | none => simp [StaticEq, ha]
   | some a => obtain ⟨n, p⟩ := a; simp only; split <;> simp [StaticEq, ha]
 
-theorem emitIdatImage_static (s : WState) (z : Bytes) : StaticEq s (emitIdatImage s z).1 := by
+theorem emitIdatImage_static (s : WState) (z : List Bytes) : StaticEq s (emitIdatImage s z).1 := by
   unfold emitIdatImage
-  have h := emit_static s (idatChunks z)
-  cases hh : s.emit (idatChunks z) with
+  have h := emit_static s (z.map mkIdat)
+  cases hh : s.emit (z.map mkIdat) with
   | mk s' ok =>
     rw [hh] at h
     cases ok with
     | false => exact h
     | true => exact h.trans (incr_static s')
 
-theorem emitFdatImage_static (s : WState) (f : FC) (q : Nat) (z : Bytes) : StaticEq s (emitFdatImage s f q z).1 := by
+theorem emitFdatImage_static (s : WState) (f : FC) (q : Nat) (z : List Bytes) : StaticEq s (emitFdatImage s f q z).1 := by
   simp only [emitFdatImage]
-  have h := emit_static s (fdatChunks q (chunksOf maxFdatChunkLen z)).1
-  cases hh : s.emit (fdatChunks q (chunksOf maxFdatChunkLen z)).1 with
+  have h := emit_static s (fdatChunks q z).1
+  cases hh : s.emit (fdatChunks q z).1 with
   | mk s' ok =>
     rw [hh] at h
     cases ok with
     | false => exact StaticEq.trans (b := s') h (by simp [StaticEq])
-    | true => exact StaticEq.trans (b := { s' with fctl := some { f with seq := seqAfter q (chunksOf maxFdatChunkLen z).length } }) h (incr_static _)
+    | true => exact StaticEq.trans (b := { s' with fctl := some { f with seq := seqAfter q z.length } }) h (incr_static _)
 
-theorem emitFrame_static (s : WState) (f : FC) (z : Bytes) : StaticEq s (emitFrame s f z).1 := by
+theorem emitFrame_static (s : WState) (f : FC) (pi pf : List Bytes) : StaticEq s (emitFrame s f pi pf).1 := by
   simp only [emitFrame]
   have h := emit_static s [mkFctl f]
   cases hh : s.emit [mkFctl f] with
@@ -1249,20 +1260,20 @@ theorem emitFrame_static (s : WState) (f : FC) (z : Bytes) : StaticEq s (emitFra
       split
       · exact h
       · split
-        · exact StaticEq.trans (b := { s' with fctl := some { f with seq := (f.seq + 1) % 2 ^ 32 }, animWritten := s'.animWritten + 1 }) h (emitIdatImage_static _ z)
-        · exact StaticEq.trans (b := { s' with fctl := some { f with seq := (f.seq + 1) % 2 ^ 32 }, animWritten := s'.animWritten + 1 }) h (emitFdatImage_static _ f _ z)
+        · exact StaticEq.trans (b := { s' with fctl := some { f with seq := (f.seq + 1) % 2 ^ 32 }, animWritten := s'.animWritten + 1 }) h (emitIdatImage_static _ pi)
+        · exact StaticEq.trans (b := { s' with fctl := some { f with seq := (f.seq + 1) % 2 ^ 32 }, animWritten := s'.animWritten + 1 }) h (emitFdatImage_static _ f _ pf)
 
-theorem emitImage_static (s : WState) (z : Bytes) : StaticEq s (emitImage s z).1 := by
+theorem emitImage_static (s : WState) (pi pf : List Bytes) : StaticEq s (emitImage s pi pf).1 := by
   unfold emitImage
   cases hf : s.fctl with
-  | none => exact emitIdatImage_static s z
-  | some f => simp only; split; exact emitIdatImage_static s z; exact emitFrame_static s f z
+  | none => exact emitIdatImage_static s pi
+  | some f => simp only; split; exact emitIdatImage_static s pi; exact emitFrame_static s f pi pf
 
 theorem writeImageData_static (E : Codec) (s : WState) (d : Bytes) : StaticEq s (writeImageData E s d).1 := by
   unfold writeImageData
   cases imageChecks s d with
   | error r => exact StaticEq.refl s
-  | ok a => exact emitImage_static s _
+  | ok a => exact emitImage_static s _ _
 
 theorem withFctl_static (s : WState) (k : FC → WState × Res) (hk : ∀ f, StaticEq s (k f).1) : StaticEq s (withFctl s k).1 := by
   unfold withFctl
@@ -1641,8 +1652,8 @@ theorem Evolves.setSeq (s : WState) (g : FC) (hg : s.fctl = some g) (f' : FC)
       obtain ⟨e1, e2, e3, e4⟩ := hsame
       rw [e1, e2, e3, e4]; exact this, ha.1, ha.2⟩
 
-theorem idat_not_iend : ∀ c ∈ idatChunks z, c.ty ≠ tyIEND := by
-  intro c hc; simp only [idatChunks, List.mem_map] at hc; obtain ⟨p, _, rfl⟩ := hc; show tyIDAT ≠ tyIEND; decide
+theorem idat_not_iend {z : List Bytes} : ∀ c ∈ z.map mkIdat, c.ty ≠ tyIEND := by
+  intro c hc; simp only [List.mem_map] at hc; obtain ⟨p, _, rfl⟩ := hc; show tyIDAT ≠ tyIEND; decide
 
 theorem fdat_not_iend (parts : List Bytes) : ∀ q, ∀ c ∈ (fdatChunks q parts).1, c.ty ≠ tyIEND := by
   induction parts with
@@ -1660,10 +1671,10 @@ theorem incr_anim (s : WState) : (incrementImagesWritten s).animWritten = s.anim
   | none => rfl
   | some a => obtain ⟨n, p⟩ := a; simp only; split <;> rfl
 
-theorem Evolves.idatImage (s : WState) (z : Bytes) : Evolves s (emitIdatImage s z).1 := by
+theorem Evolves.idatImage (s : WState) (z : List Bytes) : Evolves s (emitIdatImage s z).1 := by
   unfold emitIdatImage
-  have h := Evolves.emit s (idatChunks z) idat_not_iend
-  cases hh : s.emit (idatChunks z) with
+  have h := Evolves.emit s (z.map mkIdat) idat_not_iend
+  cases hh : s.emit (z.map mkIdat) with
   | mk s' ok =>
     rw [hh] at h
     cases ok with
@@ -1674,9 +1685,9 @@ theorem Evolves.idatImage (s : WState) (z : Bytes) : Evolves s (emitIdatImage s 
       simp only [incr_anim] at this ⊢
       exact this
 
-theorem idatImage_anim (s : WState) (z : Bytes) : (emitIdatImage s z).1.animWritten = s.animWritten := by
+theorem idatImage_anim (s : WState) (z : List Bytes) : (emitIdatImage s z).1.animWritten = s.animWritten := by
   unfold emitIdatImage
-  cases hh : s.emit (idatChunks z) with
+  cases hh : s.emit (z.map mkIdat) with
   | mk s' ok =>
     have : s'.animWritten = s.animWritten := by
       have := congrArg (fun x => x.1.animWritten) hh; simpa [WState.emit] using this.symm
@@ -1693,13 +1704,13 @@ theorem emit_fctl (s : WState) (cs : List RChunk) : (s.emit cs).1.fctl = s.fctl 
   simp [WState.emit]
 
 theorem Evolves.fdatImage (s : WState) (g f : FC) (hf : s.fctl = some g)
-    (hsame : f.w = g.w ∧ f.h = g.h ∧ f.x = g.x ∧ f.y = g.y) (q : Nat) (z : Bytes) :
+    (hsame : f.w = g.w ∧ f.h = g.h ∧ f.x = g.x ∧ f.y = g.y) (q : Nat) (z : List Bytes) :
     Evolves s (emitFdatImage s f q z).1 ∧ (emitFdatImage s f q z).1.animWritten = s.animWritten := by
   simp only [emitFdatImage]
-  have h := Evolves.emit s (fdatChunks q (chunksOf maxFdatChunkLen z)).1 (fdat_not_iend _ q)
-  have ha := emit_anim s (fdatChunks q (chunksOf maxFdatChunkLen z)).1
-  have hfc := emit_fctl s (fdatChunks q (chunksOf maxFdatChunkLen z)).1
-  cases hh : s.emit (fdatChunks q (chunksOf maxFdatChunkLen z)).1 with
+  have h := Evolves.emit s (fdatChunks q z).1 (fdat_not_iend _ q)
+  have ha := emit_anim s (fdatChunks q z).1
+  have hfc := emit_fctl s (fdatChunks q z).1
+  cases hh : s.emit (fdatChunks q z).1 with
   | mk s' ok =>
     rw [hh] at h ha hfc
     simp only at h ha hfc
@@ -1710,13 +1721,13 @@ theorem Evolves.fdatImage (s : WState) (g f : FC) (hf : s.fctl = some g)
       · simp only; omega
       · exact ha
     | true =>
-      have h2 := Evolves.setSeq s' g hf' { f with seq := seqAfter q (chunksOf maxFdatChunkLen z).length } hsame s'.animWritten ⟨Nat.le_refl _, Nat.le_succ _⟩
+      have h2 := Evolves.setSeq s' g hf' { f with seq := seqAfter q z.length } hsame s'.animWritten ⟨Nat.le_refl _, Nat.le_succ _⟩
       refine ⟨(h.trans' h2 (by simp only; omega)).trans' (Evolves.incr _) ?_, ?_⟩
       · simp only [incr_anim]; omega
       · simp only [incr_anim]; exact ha
 
-theorem Evolves.frame (s : WState) (f : FC) (hf : s.fctl = some f) (z : Bytes) :
-    Evolves s (emitFrame s f z).1 := by
+theorem Evolves.frame (s : WState) (f : FC) (hf : s.fctl = some f) (pi pf : List Bytes) :
+    Evolves s (emitFrame s f pi pf).1 := by
   simp only [emitFrame]
   have h := Evolves.emit s [mkFctl f] (by intro c hc; simp only [List.mem_singleton] at hc; subst hc; show tyFCTL ≠ tyIEND; decide)
   have ha := emit_anim s [mkFctl f]
@@ -1735,23 +1746,23 @@ theorem Evolves.frame (s : WState) (f : FC) (hf : s.fctl = some f) (z : Bytes) :
       · have h2 := Evolves.setSeq s' f hf' { f with seq := (f.seq + 1) % 2 ^ 32 } ⟨rfl, rfl, rfl, rfl⟩ (s'.animWritten + 1) ⟨Nat.le_succ _, Nat.le_refl _⟩
         have h12 := h.trans' h2 (by simp only; omega)
         split
-        · refine h12.trans' (Evolves.idatImage _ z) ?_
+        · refine h12.trans' (Evolves.idatImage _ pi) ?_
           rw [idatImage_anim]; simp only; omega
-        · obtain ⟨h3, h4⟩ := Evolves.fdatImage { s' with fctl := some { f with seq := (f.seq + 1) % 2 ^ 32 }, animWritten := s'.animWritten + 1 } { f with seq := (f.seq + 1) % 2 ^ 32 } f rfl ⟨rfl, rfl, rfl, rfl⟩ ((f.seq + 1) % 2 ^ 32) z
+        · obtain ⟨h3, h4⟩ := Evolves.fdatImage { s' with fctl := some { f with seq := (f.seq + 1) % 2 ^ 32 }, animWritten := s'.animWritten + 1 } { f with seq := (f.seq + 1) % 2 ^ 32 } f rfl ⟨rfl, rfl, rfl, rfl⟩ ((f.seq + 1) % 2 ^ 32) pf
           refine h12.trans' h3 ?_
           rw [h4]; simp only; omega
 
-theorem Evolves.image (s : WState) (z : Bytes) : Evolves s (emitImage s z).1 := by
+theorem Evolves.image (s : WState) (pi pf : List Bytes) : Evolves s (emitImage s pi pf).1 := by
   unfold emitImage
   cases hf : s.fctl with
-  | none => exact Evolves.idatImage s z
-  | some f => simp only; split; exact Evolves.idatImage s z; exact Evolves.frame s f hf z
+  | none => exact Evolves.idatImage s pi
+  | some f => simp only; split; exact Evolves.idatImage s pi; exact Evolves.frame s f hf pi pf
 
 theorem Evolves.writeImageData (E : Codec) (s : WState) (d : Bytes) : Evolves s (writeImageData E s d).1 := by
   unfold Enc.writeImageData
   cases imageChecks s d with
   | error r => exact Evolves.refl s
-  | ok a => exact Evolves.image s _
+  | ok a => exact Evolves.image s _ _
 
 
 
@@ -1855,18 +1866,18 @@ theorem Safe.nextDims_pos {s : WState} (h : Safe s) : 0 < inLenOf s (nextDims s)
   · simp only [hf]; exact inLen_pos v3 v4 v1
   · simp only [hf]; exact inLen_pos v3 v4 (h.rect f hf).1
 
-theorem emitIdatImage_no_panic (s : WState) (z : Bytes) : (emitIdatImage s z).2.isPanic = false := by
+theorem emitIdatImage_no_panic (s : WState) (z : List Bytes) : (emitIdatImage s z).2.isPanic = false := by
   unfold emitIdatImage
-  cases hh : s.emit (idatChunks z) with
+  cases hh : s.emit (z.map mkIdat) with
   | mk s' ok => cases ok <;> rfl
 
-theorem emitFdatImage_no_panic (s : WState) (f : FC) (q : Nat) (z : Bytes) : (emitFdatImage s f q z).2.isPanic = false := by
+theorem emitFdatImage_no_panic (s : WState) (f : FC) (q : Nat) (z : List Bytes) : (emitFdatImage s f q z).2.isPanic = false := by
   simp only [emitFdatImage]
-  cases hh : s.emit (fdatChunks q (chunksOf maxFdatChunkLen z)).1 with
+  cases hh : s.emit (fdatChunks q z).1 with
   | mk s' ok => cases ok <;> rfl
 
-theorem emitFrame_no_panic (s : WState) (f : FC) (z : Bytes) (ha : s.animWritten + 1 < 2 ^ 32) :
-    (emitFrame s f z).2.isPanic = false := by
+theorem emitFrame_no_panic (s : WState) (f : FC) (pi pf : List Bytes) (ha : s.animWritten + 1 < 2 ^ 32) :
+    (emitFrame s f pi pf).2.isPanic = false := by
   simp only [emitFrame]
   have han := emit_anim s [mkFctl f]
   cases hh : s.emit [mkFctl f] with
@@ -1878,25 +1889,27 @@ theorem emitFrame_no_panic (s : WState) (f : FC) (z : Bytes) (ha : s.animWritten
       have : ¬ (s'.animWritten + 1 ≥ 2 ^ 32) := by omega
       simp only [this, if_false]
       split
-      · exact emitIdatImage_no_panic _ z
-      · exact emitFdatImage_no_panic _ f _ z
+      · exact emitIdatImage_no_panic _ pi
+      · exact emitFdatImage_no_panic _ f _ pf
 
-theorem emitImage_no_panic (s : WState) (z : Bytes) (ha : s.animWritten + 1 < 2 ^ 32) :
-    (emitImage s z).2.isPanic = false := by
+theorem emitImage_no_panic (s : WState) (pi pf : List Bytes)
+    (ha : ∀ f, s.fctl = some f → s.animWritten + 1 < 2 ^ 32) :
+    (emitImage s pi pf).2.isPanic = false := by
   unfold emitImage
   cases hf : s.fctl with
-  | none => exact emitIdatImage_no_panic s z
-  | some f => simp only; split; exact emitIdatImage_no_panic s z; exact emitFrame_no_panic s f z ha
+  | none => exact emitIdatImage_no_panic s pi
+  | some f => simp only; split; exact emitIdatImage_no_panic s pi; exact emitFrame_no_panic s f pi pf (ha f hf)
 
 /-- no operation of the whole-image API panics in a safe state (any sink, any arguments) -/
-theorem step_no_panic (E : Codec) {s : WState} (hs : Safe s) (ha : s.animWritten + 1 < 2 ^ 32) (op : Op) :
+theorem step_no_panic (E : Codec) {s : WState} (hs : Safe s)
+    (ha : ∀ f, s.fctl = some f → s.animWritten + 1 < 2 ^ 32) (op : Op) :
     (writerStep E s op).2.isPanic = false := by
   cases op with
   | image d =>
     simp only [writerStep, Enc.writeImageData]
     cases hc : imageChecks s d with
     | error r => exact imageChecks_error hc hs.nextDims_pos
-    | ok a => exact emitImage_no_panic s _ ha
+    | ok a => exact emitImage_no_panic s _ _ ha
   | chunk t d =>
     simp only [writerStep, writeChunk]
     split
@@ -1972,7 +1985,7 @@ theorem runOps_no_panic (E : Codec) (ops : List Op) :
   | cons op ops ih =>
     intro s hs hn hlen
     simp only [List.length_cons] at hlen
-    have hnp := step_no_panic E hs (by omega) op
+    have hnp := step_no_panic E hs (fun _ _ => by omega) op
     have hev := Evolves.step E s op (hn op (by simp))
     have hs1 := hs.evolves hev
     obtain ⟨r1, r2, r3⟩ := ih hs1 (fun o ho => hn o (by simp [ho])) (by have := hev.animHi; omega)
@@ -2221,47 +2234,6 @@ theorem writer_clean (E : Codec) (c : Cfg) (beh : SinkBehaviour) (ops : List Op)
           · simp only [finalStep, Option.some.injEq] at h; subst h; exact f1
           · simp only [finalStep, Option.some.injEq] at h
             exact (f4 h).2
-
-
-
-/-- on a sink that never fails `emitImage` succeeds; its effect on the counters -/
-theorem emitImage_good (s : WState) (z : Bytes) (hg : s.sink.good)
-    (ha : ∀ f, s.fctl = some f → s.animWritten + 1 < 2 ^ 32) :
-    ∃ s1, emitImage s z = (incrementImagesWritten s1, .ok) ∧ StaticEq s s1 ∧ s1.sink.good ∧
-      s1.imagesWritten = s.imagesWritten ∧ s1.iendWritten = s.iendWritten ∧
-      ((s.fctl = none ∧ s1.fctl = none ∧ s1.animWritten = s.animWritten) ∨
-       (∃ f, s.fctl = some f ∧ skipFctlOnDefault s = true ∧ s1.fctl = some f ∧ s1.animWritten = s.animWritten) ∨
-       (∃ f f', s.fctl = some f ∧ skipFctlOnDefault s = false ∧ s1.fctl = some f' ∧
-          s1.animWritten = s.animWritten + 1)) := by
-  have hidat : ∀ t : WState, t.sink.good →
-      ∃ k, emitIdatImage t z = (incrementImagesWritten { t with sink := k }, .ok) ∧ k.good := by
-    intro t ht
-    obtain ⟨k, hk, hkg, _⟩ := WState.emit_good' ht (idatChunks z)
-    exact ⟨k, by simp only [emitIdatImage, hk], hkg⟩
-  unfold emitImage
-  rcases opt_cases s.fctl with hf | ⟨f, hf⟩
-  · simp only [hf]
-    obtain ⟨k, hk, hkg⟩ := hidat s hg
-    exact ⟨{ s with sink := k }, hk, ⟨rfl, rfl, rfl, rfl, rfl, rfl, rfl, rfl⟩, hkg, rfl, rfl, by simp [hf]⟩
-  · simp only [hf]
-    cases hsk : skipFctlOnDefault s with
-    | true =>
-      simp only [if_true]
-      obtain ⟨k, hk, hkg⟩ := hidat s hg
-      exact ⟨{ s with sink := k }, hk, ⟨rfl, rfl, rfl, rfl, rfl, rfl, rfl, rfl⟩, hkg, rfl, rfl, by simp [hf]⟩
-    | false =>
-      simp only [Bool.false_eq_true, if_false, emitFrame]
-      obtain ⟨k, hk, hkg, _⟩ := WState.emit_good' hg [mkFctl f]
-      have hov : ¬ (s.animWritten + 1 ≥ 2 ^ 32) := by have := ha f hf; omega
-      simp only [hk, hov, if_false]
-      by_cases h0 : s.imagesWritten = 0
-      · rw [if_pos (show _ = 0 from h0)]
-        obtain ⟨k2, hk2, hk2g⟩ := hidat { s with sink := k, fctl := some { f with seq := (f.seq + 1) % 2 ^ 32 }, animWritten := s.animWritten + 1 } hkg
-        exact ⟨_, hk2, ⟨rfl, rfl, rfl, rfl, rfl, rfl, rfl, rfl⟩, hk2g, rfl, rfl, by simp⟩
-      · rw [if_neg (show ¬ _ = 0 from h0)]
-        obtain ⟨k2, hk2, hk2g, _⟩ := WState.emit_good' (s := { s with sink := k, fctl := some { f with seq := (f.seq + 1) % 2 ^ 32 }, animWritten := s.animWritten + 1 }) hkg (fdatChunks ((f.seq + 1) % 2 ^ 32) (chunksOf maxFdatChunkLen z)).1
-        simp only [emitFdatImage, hk2]
-        exact ⟨_, rfl, ⟨rfl, rfl, rfl, rfl, rfl, rfl, rfl, rfl⟩, hk2g, rfl, rfl, by simp⟩
 
 
 
@@ -2525,30 +2497,34 @@ def cfgIndexed : Cfg := { width := 1, height := 1, color := 3 }
 /-- repaired N5: a frame setter before the first image; the image is refused until the frame covers the canvas again -/
 def runSubframe : Run :=
   runWriter toyCodec cfgAnim22 {} [.setDim 1 1, .image [7], .resetDim, .image [1, 2, 3, 4]] .finish
-/-- D13: two frames through an owned stream writer -/
+/-- repaired D13: two frames through an owned stream writer -/
 def runD13 : ProgRun := runProg toyCodec toyZ (cfgAnim 2) {} [] (.intoStream 64 [.write [7], .write [9]] .finish)
-/-- D14: owned stream writer, the sink accepts 40 bytes (signature, IHDR, 7 bytes of the IDAT chunk) -/
+/-- repaired D14: owned stream writer, the sink accepts 40 bytes (signature, IHDR, 7 bytes of the IDAT chunk) -/
 def runD14 : ProgRun := runProg toyCodec toyZ cfgStill { writeFailAt := some 40 } [] (.intoStream 64 [.write [7]] .finish)
-/-- D14: 1 of 3 declared frames, validation on, stream `finish` -/
+/-- repaired D14: 1 of 3 declared frames, validation on, stream `finish` -/
 def runD14v : ProgRun :=
   runProg toyCodec toyZ { cfgAnim 3 with validate := true } {} [] (.intoStream 64 [.write [7]] .finish)
-/-- N8: the declared image written through a borrowed stream writer, validation on -/
+/-- repaired N8: the declared image written through a borrowed stream writer, validation on -/
 def runN8 : ProgRun :=
   runProg toyCodec toyZ { cfgStill with validate := true } {} [.stream 64 [.write [7]] .finish] .finish
-/-- N1: animation and a chunk buffer shorter than a sequence number -/
+/-- repaired N1: animation and a requested chunk buffer of one byte -/
 def runN1 : ProgRun := runProg toyCodec toyZ (cfgAnim 2) {} [] (.intoStream 1 [.write [7]] .finish)
-/-- N2: the sink fails (once) while the second frame's fcTL is written; the next complete row panics -/
+/-- repaired N2: the sink fails (once) while the second frame's fcTL is written; the writer stays between frames -/
 def runN2 : ProgRun :=
   runProg toyCodec toyZ (cfgAnim 2) { writeFailAt := some 130, writeOnce := true } []
     (.intoStream 64 [.write [7], .write [8], .write [8]] .drop)
-/-- N9: `write_image_data` fails (once) between fcTL and IDAT; three stream images later `set_fctl` panics -/
+/-- repaired N9: `write_image_data` fails (once) between fcTL and IDAT; three stream images later: no panic -/
 def runN9 : ProgRun :=
   runProg toyCodec toyZ (cfgAnim 1) { writeFailAt := some 100, writeOnce := true }
     [.op (.image [7]), .stream 64 [.write [7], .write [8], .write [9]] .finish] .finish
 /-- repaired N6: indexed image without palette through the stream writer: refused before anything is written -/
 def runN6 : ProgRun := runProg toyCodec toyZ cfgIndexed {} [] (.intoStream 64 [.write [0]] .finish)
-/-- N10: a stream writer opened and dropped, then the image through `write_image_data` -/
+/-- N10 (open): a stream writer opened and dropped, then the image through `write_image_data` -/
 def runN10 : ProgRun := runProg toyCodec toyZ cfgStill {} [.stream 64 [] .drop, .op (.image [7])] .finish
+/-- N10 (open), animated: frame 1, an abandoned session (it leaves an fcTL and an fdAT behind and counts as
+    a frame in `animation_written`), frame 2 -/
+def runN10a : ProgRun :=
+  runProg toyCodec toyZ (cfgAnim 2) {} [.op (.image [7]), .stream 64 [] .drop, .op (.image [9])] .finish
 /-- repaired N4: `next_frame_info` on a huge canvas -/
 def cfgHuge : Cfg := { width := 4294967295, height := 4294967295, color := 6, depth := 16 }
 def runN4 : ProgRun := runProg toyCodec toyZ cfgHuge {} [] (.intoStream 64 [] .drop)
@@ -2574,39 +2550,48 @@ theorem runSubframe_facts :
     cfgAnim22.WellFormed ∧ runSubframe.results = [.ok, .err .outOfBounds, .ok, .ok] ∧
     runSubframe.final = some .ok ∧ runSkeletonOk cfgAnim22 runSubframe.state = true := by decide
 
+
+/-- repaired D13: IDAT for the first frame, fdAT for the second, sequence numbers 0,1,2, valid skeleton -/
 theorem runD13_facts :
     runD13.final = [.ok, .ok, .ok, .ok] ∧
-    runD13.state.sink.chunks.map (·.ty) = [tyIHDR, tyACTL, tyFCTL, tyIDAT, tyFCTL, tyIDAT, tyIEND] ∧
-    (runD13.state.sink.chunks.map (·.data.take 4)).drop 3 = [[0, 0, 0, 1], [0, 0, 0, 2], [0, 0, 0, 3], []] ∧
-    runSkeletonOk (cfgAnim 2) runD13.state = false := by decide
+    runD13.state.sink.chunks.map (·.ty) = [tyIHDR, tyACTL, tyFCTL, tyIDAT, tyFCTL, tyFDAT, tyIEND] ∧
+    runSkeletonOk (cfgAnim 2) runD13.state = true := by decide
 
+/-- repaired D14: the failure is reported by the `write` that ends the image and by `finish`; one IEND attempt -/
 theorem runD14_facts :
-    runD14.final = [.ok, .ok, .ok] ∧ runD14.state.sink.chunks.map (·.ty) = [tyIHDR] ∧
-    runD14.state.sink.count = 40 ∧ runD14.state.sink.fired = true := by decide
+    runD14.final = [.ok, .err .io, .err .io] ∧ runD14.state.sink.chunks.map (·.ty) = [tyIHDR] ∧
+    runD14.state.sink.iendAttempts = 1 := by decide
 
+/-- repaired D14: `finish` of the stream writer runs the sequence validation -/
 theorem runD14v_facts :
-    runD14v.final = [.ok, .ok, .ok] ∧
-    runD14v.state.sink.chunks.map (·.ty) = [tyIHDR, tyACTL, tyFCTL, tyIDAT, tyIEND] := by decide
+    runD14v.final = [.ok, .ok, .err .missingFrames] ∧ runD14v.state.sink.iendAttempts = 1 := by decide
 
+/-- repaired N8: the stream-written image is counted -/
 theorem runN8_facts :
-    runN8.results = [[.ok, .ok, .ok]] ∧ runN8.final = [.err .missingFrames] ∧
+    runN8.results = [[.ok, .ok, .ok]] ∧ runN8.final = [.ok] ∧
     runN8.state.sink.chunks.map (·.ty) = [tyIHDR, tyIDAT, tyIEND] := by decide
 
-theorem runN1_facts : runN1.final.contains (.panic .chunkBufferIndex) = true := by decide
-theorem runN2_facts : runN2.final.contains (.panic .unreachableWrapper) = true ∧ runN2.final.take 3 = [.ok, .ok, .err .io] := by decide
-theorem runN9_facts : runN9.results = [[.err .io], [.ok, .ok, .ok, .panic .setFctlNotAnimated]] := by decide
+theorem runN1_facts : runN1.final = [.ok, .ok, .ok] := by decide
+theorem runN2_facts : anyPanic runN2.final = false ∧ runN2.final.take 3 = [.ok, .ok, .err .io] := by decide
+theorem runN9_facts : runN9.results.any anyPanic = false ∧ runN9.final = [.ok] := by decide
 /-- repaired N6 -/
 theorem runN6_facts :
     runN6.final = [.err .noPalette] ∧ runN6.state.sink.chunks.map (·.ty) = [tyIHDR, tyIEND] := by decide
 theorem runN10_facts :
     runN10.results = [[.ok, .ok], [.ok]] ∧ runN10.final = [.ok] ∧
     runN10.state.sink.chunks.map (·.ty) = [tyIHDR, tyIDAT, tyIDAT, tyIEND] := by decide
+theorem runN10a_facts :
+    runN10a.results = [[.ok], [.ok, .ok], [.ok]] ∧ runN10a.final = [.ok] ∧ runN10a.state.imagesWritten = 2 ∧
+    runN10a.state.sink.chunks.map (·.ty) = [tyIHDR, tyACTL, tyFCTL, tyIDAT, tyFCTL, tyFDAT, tyFCTL, tyFDAT, tyIEND] ∧
+    runSkeletonOk (cfgAnim 2) runN10a.state = false := by decide
 /-- repaired N4 -/
 theorem runN4_facts : runN4.final = [.ok, .ok] ∧ cfgHuge.inRange := by decide
 
 
 
-/-! ## Part 8: the stream writer on a still image (C12, partial) -/
+
+
+/-! ## Part 8: the stream writer (C12 / C19 for `StreamWriter`) -/
 
 /-- everything the compressor has produced after the operations `h` -/
 def outsAux (Z : ZCodec) : List ZOp → List ZOp → Bytes
@@ -2623,118 +2608,244 @@ theorem outsAux_snoc (Z : ZCodec) (h : List ZOp) (o : ZOp) :
 theorem outs_snoc (Z : ZCodec) (h : List ZOp) (o : ZOp) : outs Z (h ++ [o]) = outs Z h ++ Z.out h o := by
   simp [outs, outsAux_snoc]
 
-/-- a chunk writer inside a still-image session: `w0` = the writer before the session, `out` = all
-    bytes handed to the chunk writer so far; they sit, in order, in IDAT chunks and in the buffer -/
-structure CWInv (w0 : WState) (c : CW) (out : Bytes) : Prop where
-  /-- only the sink of the writer changes during the session -/
-  same : { c.w with sink := w0.sink } = w0
-  fctl : c.w.fctl = none
-  img0 : c.w.imagesWritten = 0
-  good : c.w.sink.good
-  curr : c.curr = tyIDAT
-  cap : 0 < c.cap
-  room : c.buf.length < c.cap
-  chunks : ∃ ds : List Bytes, c.w.sink.chunks = w0.sink.chunks ++ ds.map mkIdat ∧ ds.flatten ++ c.buf = out ∧ ∀ d ∈ ds, d ≠ []
+/-- chunks one after the other on a sink that never fails -/
+theorem Sink.emitChunks_append_good (a b : List RChunk) :
+    ∀ {k : Sink}, k.good → (k.emitChunks (a ++ b)).1 = ((k.emitChunks a).1.emitChunks b).1 := by
+  induction a with
+  | nil => intro k _; simp [Sink.emitChunks]
+  | cons c cs ih =>
+    intro k h
+    simp only [List.cons_append, Sink.emitChunks, Sink.emit_good h]
+    exact ih (k := { k with log := k.log ++ [⟨.chunk c, (Piece.chunk c).size⟩], count := k.count + (Piece.chunk c).size }) h
 
-theorem CWInv.flushInner {w0 : WState} {c : CW} {out : Bytes} (h : CWInv w0 c out) :
-    ∃ c', c.flushInner = (c', .ok) ∧ CWInv w0 c' out ∧ c'.buf = [] ∧ c'.cap = c.cap := by
+theorem fdatChunks_snoc (ds : List Bytes) (p : Bytes) :
+    ∀ seq, seq < 2 ^ 32 →
+      (fdatChunks seq (ds ++ [p])).1 = (fdatChunks seq ds).1 ++ [mkFdat (seqAfter seq ds.length) p] := by
+  induction ds with
+  | nil => intro seq h; simp [fdatChunks, seqAfter, Nat.mod_eq_of_lt h]
+  | cons d ds ih =>
+    intro seq h
+    simp only [List.cons_append, fdatChunks, ih ((seq + 1) % 2 ^ 32) (Nat.mod_lt _ (by decide)), List.length_cons, seqAfter]
+    have : ((seq + 1) % 2 ^ 32 + ds.length) % 2 ^ 32 = (seq + (ds.length + 1)) % 2 ^ 32 := by omega
+    rw [this]
+
+theorem seqAfter_succ (seq n : Nat) : (seqAfter seq n + 1) % 2 ^ 32 = seqAfter seq (n + 1) := by
+  simp only [seqAfter]; omega
+
+theorem seqAfter_lt (seq n : Nat) : seqAfter seq n < 2 ^ 32 := Nat.mod_lt _ (by decide)
+
+/-- the data chunks of one image: `fd` = they are fdAT chunks numbered from `seq0` -/
+def dataChunks (fd : Bool) (seq0 : Nat) (ds : List Bytes) : List RChunk :=
+  if fd then (fdatChunks seq0 ds).1 else ds.map mkIdat
+
+theorem dataChunks_snoc (fd : Bool) (seq0 : Nat) (h : seq0 < 2 ^ 32) (ds : List Bytes) (p : Bytes) :
+    dataChunks fd seq0 (ds ++ [p]) = dataChunks fd seq0 ds ++
+      [⟨if fd then tyFDAT else tyIDAT, (if fd then be32Bytes (seqAfter seq0 ds.length) else []) ++ p⟩] := by
+  cases fd with
+  | true => simp [dataChunks, fdatChunks_snoc ds p seq0 h, mkFdat]
+  | false => simp [dataChunks, mkIdat]
+
+/-- the sequence number of the frame control advanced by `n` -/
+def bumpSeq (w : WState) (n : Nat) : WState :=
+  match w.fctl with
+  | some f => { w with fctl := some { f with seq := seqAfter f.seq n } }
+  | none => w
+
+def seq0Of (w : WState) : Nat := match w.fctl with | some f => f.seq | none => 0
+
+/-- the chunk writer in the middle of an image.  `wH`: the writer right after the frame header;
+    `fd`: the image goes into fdAT chunks; `out`: all bytes of the zlib stream handed over so far.
+    They sit, in order, in `ds` complete data chunks and in the buffer (`part`, behind the sequence
+    number of the chunk being filled); nothing else of the writer changed, except the sequence number. -/
+structure CWC (wH : WState) (fd : Bool) (c : CW) (out : Bytes) : Prop where
+  cap : 5 ≤ c.cap
+  curr : c.curr = if fd then tyFDAT else tyIDAT
+  fdf : fd = true → ∃ f, wH.fctl = some f ∧ f.seq < 2 ^ 32
+  good : wH.sink.good
+  st : ∃ (ds : List Bytes) (part : Bytes),
+    (∀ d ∈ ds, d ≠ []) ∧ out = ds.flatten ++ part ∧
+    c.buf = (if part = [] then [] else (if fd then be32Bytes (seqAfter (seq0Of wH) ds.length) else []) ++ part) ∧
+    c.w = { (if fd then bumpSeq wH (ds.length + (if part = [] then 0 else 1)) else wH) with
+            sink := (wH.sink.emitChunks (dataChunks fd (seq0Of wH) ds)).1 }
+
+/-- `CWC` with room left in the buffer (what holds between two calls) -/
+structure CWI (wH : WState) (fd : Bool) (c : CW) (out : Bytes) : Prop where
+  core : CWC wH fd c out
+  room : c.buf.length < c.cap
+
+theorem WState.emit_good_eq {s : WState} (h : s.sink.good) (cs : List RChunk) :
+    s.emit cs = ({ s with sink := (s.sink.emitChunks cs).1 }, true) ∧ (s.sink.emitChunks cs).1.good := by
+  obtain ⟨h1, h2, _, _⟩ := Sink.emitChunks_good cs h
+  refine ⟨?_, h2⟩
+  simp only [WState.emit]
+  cases hh : s.sink.emitChunks cs with
+  | mk k ok => rw [hh] at h1; simp only at h1; subst h1; rfl
+
+theorem emitChunks_good_good {k : Sink} (h : k.good) (cs : List RChunk) : (k.emitChunks cs).1.good :=
+  (Sink.emitChunks_good cs h).2.1
+
+theorem CWC.flushInner {wH : WState} {fd : Bool} {c : CW} {out : Bytes} (h : CWC wH fd c out) :
+    ∃ c', c.flushInner = (c', .ok) ∧ CWI wH fd c' out ∧ c'.buf = [] ∧ c'.cap = c.cap ∧ c'.curr = c.curr := by
+  obtain ⟨ds, part, h1, h2, h3, h5⟩ := h.st
   unfold CW.flushInner
-  by_cases hb : c.buf.length > 0
-  · rw [if_pos hb]
-    obtain ⟨k, hk, hkg, hkc⟩ := WState.emit_good' h.good [⟨c.curr, c.buf⟩]
-    rw [hk]
-    obtain ⟨ds, h1, h2, h3⟩ := h.chunks
-    refine ⟨_, rfl, ⟨by simpa using h.same, h.fctl, h.img0, hkg, h.curr, h.cap, by simp [h.cap], ?_⟩, rfl, rfl⟩
-    refine ⟨ds ++ [c.buf], ?_, by simpa using h2, ?_⟩
-    · show k.chunks = _
-      rw [hkc, h1, h.curr]; simp [mkIdat]
+  by_cases hp : part = []
+  · have hb : c.buf = [] := by rw [h3, if_pos hp]
+    have : ¬ c.buf.length > 0 := by simp [hb]
+    rw [if_neg this]
+    exact ⟨c, rfl, ⟨h, by rw [hb]; have := h.cap; simp; omega⟩, hb, rfl, rfl⟩
+  · have hb : c.buf = (if fd then be32Bytes (seqAfter (seq0Of wH) ds.length) else []) ++ part := by rw [h3, if_neg hp]
+    have hpl : 0 < part.length := List.length_pos_iff.mpr hp
+    have hlen : c.buf.length > 0 := by rw [hb, List.length_append]; omega
+    rw [if_pos hlen]
+    have hgk : (wH.sink.emitChunks (dataChunks fd (seq0Of wH) ds)).1.good := emitChunks_good_good h.good _
+    have hcwg : c.w.sink.good := by rw [h5]; exact hgk
+    obtain ⟨e1, e2⟩ := WState.emit_good_eq hcwg [⟨c.curr, c.buf⟩]
+    rw [e1]
+    refine ⟨_, rfl, ?_, rfl, rfl, rfl⟩
+    have hseq : seq0Of wH < 2 ^ 32 ∨ fd = false := by
+      cases fd with
+      | false => exact Or.inr rfl
+      | true => obtain ⟨f, hf, hlt⟩ := h.fdf rfl; left; simp [seq0Of, hf, hlt]
+    refine ⟨⟨h.cap, h.curr, h.fdf, h.good, ds ++ [part], [], ?_, by simp [h2], by simp, ?_⟩, by simp; have := h.cap; omega⟩
     · intro d hd
       simp only [List.mem_append, List.mem_singleton] at hd
       rcases hd with hd | hd
-      · exact h3 d hd
-      · subst hd; intro he; rw [he] at hb; simp at hb
-  · rw [if_neg hb]
-    have : c.buf = [] := List.length_eq_zero_iff.mp (by omega)
-    exact ⟨c, rfl, h, this, rfl⟩
+      · exact h1 d hd
+      · subst hd; exact hp
+    · -- the writer: same fields, the sink got one more chunk
+      have hch : (⟨c.curr, c.buf⟩ : RChunk) = ⟨if fd then tyFDAT else tyIDAT, (if fd then be32Bytes (seqAfter (seq0Of wH) ds.length) else []) ++ part⟩ := by
+        rw [h.curr, hb]
+      have hsnoc : dataChunks fd (seq0Of wH) (ds ++ [part]) = dataChunks fd (seq0Of wH) ds ++ [⟨c.curr, c.buf⟩] := by
+        rw [hch]
+        rcases hseq with hs | hs
+        · exact dataChunks_snoc fd _ hs ds part
+        · subst hs; simp [dataChunks, mkIdat]
+      simp only [hsnoc, Sink.emitChunks_append_good _ _ h.good, h5, if_neg hp, List.length_append, List.length_singleton]
+      simp
+
+theorem CWI.flushInner {wH : WState} {fd : Bool} {c : CW} {out : Bytes} (h : CWI wH fd c out) :
+    ∃ c', c.flushInner = (c', .ok) ∧ CWI wH fd c' out ∧ c'.buf = [] ∧ c'.cap = c.cap ∧ c'.curr = c.curr :=
+  h.core.flushInner
+
+theorem bumpSeq_fctl {w : WState} {f : FC} (h : w.fctl = some f) (n : Nat) :
+    bumpSeq w n = { w with fctl := some { f with seq := seqAfter f.seq n } } := by
+  simp [bumpSeq, h]
+
+/-- what `startChunk` leaves: the buffer is `pre ++ part` with the sequence number of the chunk in
+    `pre` (fdAT) and the writer already counts that number as used -/
+theorem CWI.startChunk {wH : WState} {fd : Bool} {c : CW} {out : Bytes} (h : CWI wH fd c out) :
+    ∃ (ds : List Bytes) (part : Bytes),
+      (∀ d ∈ ds, d ≠ []) ∧ out = ds.flatten ++ part ∧
+      c.startChunk.buf = (if fd then be32Bytes (seqAfter (seq0Of wH) ds.length) else []) ++ part ∧
+      c.startChunk.buf.length < c.cap ∧ c.startChunk.cap = c.cap ∧ c.startChunk.curr = c.curr ∧
+      c.startChunk.w = { (if fd then bumpSeq wH (ds.length + 1) else wH) with
+            sink := (wH.sink.emitChunks (dataChunks fd (seq0Of wH) ds)).1 } := by
+  obtain ⟨ds, part, h1, h2, h3, h5⟩ := h.core.st
+  have hroom := h.room
+  have hcap := h.core.cap
+  refine ⟨ds, part, h1, h2, ?_⟩
+  unfold CW.startChunk
+  by_cases hp : part = []
+  · have hb : c.buf = [] := by rw [h3, if_pos hp]
+    cases fd with
+    | false =>
+      have : ¬ (c.buf.length = 0 ∧ c.curr = tyFDAT) := by
+        rw [h.core.curr]; intro hh; exact absurd hh.2 (by decide)
+      rw [if_neg this]
+      simp only [hb, hp, Bool.false_eq_true, if_false, List.append_nil, List.length_nil]
+      refine ⟨trivial, by omega, trivial, trivial, ?_⟩
+      simpa [hp] using h5
+    | true =>
+      obtain ⟨f, hf, hlt⟩ := h.core.fdf rfl
+      have hc : c.buf.length = 0 ∧ c.curr = tyFDAT := by rw [hb, h.core.curr]; simp
+      rw [if_pos hc]
+      have hwf : c.w.fctl = some { f with seq := seqAfter f.seq ds.length } := by
+        rw [h5]; simp [hp, bumpSeq_fctl hf]
+      simp only [hwf]
+      have hs0 : seq0Of wH = f.seq := by simp [seq0Of, hf]
+      refine ⟨by simp [hp, hs0], by simp [be32Bytes]; omega, trivial, trivial, ?_⟩
+      rw [h5]
+      simp only [if_true, hp, bumpSeq_fctl hf, seqAfter_succ, Nat.add_zero]
+  · have hb : c.buf = (if fd then be32Bytes (seqAfter (seq0Of wH) ds.length) else []) ++ part := by rw [h3, if_neg hp]
+    have hpl : 0 < part.length := List.length_pos_iff.mpr hp
+    have : ¬ (c.buf.length = 0 ∧ c.curr = tyFDAT) := by
+      rw [hb, List.length_append]; omega
+    rw [if_neg this]
+    refine ⟨hb, hroom, rfl, rfl, ?_⟩
+    simpa [hp] using h5
 
 /-- `ChunkWriter::write` accepts a non-empty prefix and loses nothing -/
-theorem CWInv.write {w0 : WState} {c : CW} {out : Bytes} (h : CWInv w0 c out) (data : Bytes)
+theorem CWI.write {wH : WState} {fd : Bool} {c : CW} {out : Bytes} (h : CWI wH fd c out) (data : Bytes)
     (hd : data ≠ []) :
-    ∃ c' n, c.write data = (c', .ok n) ∧ 0 < n ∧ n ≤ data.length ∧ CWInv w0 c' (out ++ data.take n) ∧
-      c'.cap = c.cap := by
+    ∃ c' n, c.write data = (c', .ok n) ∧ 0 < n ∧ n ≤ data.length ∧ CWI wH fd c' (out ++ data.take n) ∧
+      c'.cap = c.cap ∧ c'.curr = c.curr := by
   have hlen : 0 < data.length := List.length_pos_iff.mpr hd
-  have hstart : c.startChunk = (c, none) := by
-    unfold CW.startChunk; simp only [h.fctl]; split <;> rfl
+  obtain ⟨ds, part, h1, h2, h3, h4, h5, h6, h7⟩ := h.startChunk
   unfold CW.write
-  rw [if_neg hd, hstart]
+  rw [if_neg hd]
+  generalize c.startChunk = c1 at h3 h4 h5 h6 h7
   simp only [CW.append]
-  have hroom := h.room
-  obtain ⟨ds, h1, h2, h3⟩ := h.chunks
-  have hn : 0 < min data.length (c.cap - c.buf.length) := by omega
-  have htl : (data.take (min data.length (c.cap - c.buf.length))).length = min data.length (c.cap - c.buf.length) := by
-    simp only [List.length_take]; omega
-  by_cases hfull : (c.buf ++ data.take (min data.length (c.cap - c.buf.length))).length = c.cap
+  have hn : 0 < min data.length (c1.cap - c1.buf.length) := by omega
+  -- the state with the data appended (possibly a full buffer)
+  have hcore : CWC wH fd { c1 with buf := c1.buf ++ data.take (min data.length (c1.cap - c1.buf.length)) }
+      (out ++ data.take (min data.length (c1.cap - c1.buf.length))) := by
+    have htne : data.take (min data.length (c1.cap - c1.buf.length)) ≠ [] := by
+      intro he
+      have := congrArg List.length he
+      simp only [List.length_take, List.length_nil] at this; omega
+    have hpne : part ++ data.take (min data.length (c1.cap - c1.buf.length)) ≠ [] := by simp [htne]
+    refine ⟨by rw [h5]; exact h.core.cap, by rw [h6]; exact h.core.curr, h.core.fdf, h.core.good, ds,
+      part ++ data.take (min data.length (c1.cap - c1.buf.length)), h1, by simp [h2, List.append_assoc], ?_, ?_⟩
+    · show c1.buf ++ _ = _
+      rw [if_neg hpne, h3, List.append_assoc]
+    · show c1.w = _
+      rw [if_neg hpne, h7]
+  by_cases hfull : (c1.buf ++ data.take (min data.length (c1.cap - c1.buf.length))).length = c1.cap
   · rw [if_pos hfull]
-    -- the chunk is full: it is written out
-    have hne : 0 < (c.buf ++ data.take (min data.length (c.cap - c.buf.length))).length := by rw [hfull]; exact h.cap
-    unfold CW.flushInner
-    rw [if_pos hne]
-    obtain ⟨k, hk, hkg, hkc⟩ := WState.emit_good' h.good [⟨c.curr, c.buf ++ data.take (min data.length (c.cap - c.buf.length))⟩]
-    simp only [hk]
-    refine ⟨_, _, rfl, hn, by omega, ⟨by simpa using h.same, h.fctl, h.img0, hkg, h.curr, h.cap, by simp [h.cap], ?_⟩, rfl⟩
-    refine ⟨ds ++ [c.buf ++ data.take (min data.length (c.cap - c.buf.length))], ?_, ?_, ?_⟩
-    · show k.chunks = _
-      rw [hkc, h1, h.curr]; simp [mkIdat]
-    · simp only [List.flatten_append, List.flatten_cons, List.flatten_nil, List.append_nil, ← h2, List.append_assoc]
-    · intro d hd'
-      simp only [List.mem_append, List.mem_singleton] at hd'
-      rcases hd' with hd' | hd'
-      · exact h3 d hd'
-      · subst hd'; intro he; rw [he] at hne; simp at hne
+    obtain ⟨c', f1, f2, f3, f4, f5⟩ := hcore.flushInner
+    rw [f1]
+    exact ⟨c', _, rfl, hn, by omega, f2, by rw [f4]; exact h5, by rw [f5]; exact h6⟩
   · rw [if_neg hfull]
-    refine ⟨_, _, rfl, hn, by omega, ⟨h.same, h.fctl, h.img0, h.good, h.curr, h.cap, ?_, ⟨ds, h1, by simp only [← h2, List.append_assoc], h3⟩⟩, rfl⟩
-    simp only [List.length_append, htl] at hfull ⊢
+    refine ⟨_, _, rfl, hn, by omega, ⟨hcore, ?_⟩, h5, h6⟩
+    simp only [List.length_append, List.length_take] at hfull ⊢
     omega
-
-
 
 /-- the zlib encoder on top of the chunk writer: what the chunk writer got plus what flate2 still
     holds back is exactly what the compressor has produced -/
-structure ZInv (w0 : WState) (Z : ZCodec) (z : ZEnc) (cap : Nat) : Prop where
-  cw : ∃ out, CWInv w0 z.cw out ∧ out ++ z.pending = outs Z z.hist
-  cap : z.cw.cap = cap
+def ZI (wH : WState) (fd : Bool) (Z : ZCodec) (z : ZEnc) : Prop :=
+  ∃ out, CWI wH fd z.cw out ∧ out ++ z.pending = outs Z z.hist
 
 /-- `dump` forwards everything -/
-theorem dumpAux_spec {w0 : WState} (fuel : Nat) :
-    ∀ (z : ZEnc) (out : Bytes), CWInv w0 z.cw out → z.pending.length < fuel →
+theorem dumpAux_spec {wH : WState} {fd : Bool} (fuel : Nat) :
+    ∀ (z : ZEnc) (out : Bytes), CWI wH fd z.cw out → z.pending.length < fuel →
       ∃ z', ZEnc.dumpAux fuel z = (z', .ok) ∧ z'.pending = [] ∧ z'.hist = z.hist ∧
-        CWInv w0 z'.cw (out ++ z.pending) ∧ z'.cw.cap = z.cw.cap := by
+        CWI wH fd z'.cw (out ++ z.pending) ∧ z'.cw.cap = z.cw.cap ∧ z'.cw.curr = z.cw.curr := by
   induction fuel with
   | zero => intro z out _ h; omega
   | succ k ih =>
     intro z out hc hlt
     simp only [ZEnc.dumpAux]
     by_cases hp : z.pending = []
-    · rw [if_pos hp]; exact ⟨z, rfl, hp, rfl, by rw [hp, List.append_nil]; exact hc, rfl⟩
+    · rw [if_pos hp]; exact ⟨z, rfl, hp, rfl, by rw [hp, List.append_nil]; exact hc, rfl, rfl⟩
     · rw [if_neg hp]
-      obtain ⟨c', n, hw, hn0, hnl, hc', hcap⟩ := hc.write z.pending hp
+      obtain ⟨c', n, hw, hn0, hnl, hc', hcap, hcur⟩ := hc.write z.pending hp
       rw [hw]
       simp only
       have hn : ¬ n = 0 := by omega
       rw [if_neg hn]
-      obtain ⟨z', h1, h2, h3, h4, h5⟩ := ih { z with cw := c', pending := z.pending.drop n } (out ++ z.pending.take n) hc'
+      obtain ⟨z', h1, h2, h3, h4, h5, h6⟩ := ih { z with cw := c', pending := z.pending.drop n } (out ++ z.pending.take n) hc'
         (by simp only [List.length_drop]; omega)
-      refine ⟨z', h1, h2, h3, ?_, by rw [h5]; exact hcap⟩
+      refine ⟨z', h1, h2, h3, ?_, by rw [h5]; exact hcap, by rw [h6]; exact hcur⟩
       simpa [List.append_assoc] using h4
 
-theorem ZInv.dump {w0 : WState} {Z : ZCodec} {z : ZEnc} {cap : Nat} (h : ZInv w0 Z z cap) :
-    ∃ z', z.dump = (z', .ok) ∧ z'.pending = [] ∧ z'.hist = z.hist ∧ ZInv w0 Z z' cap := by
-  obtain ⟨out, hc, ho⟩ := h.cw
-  obtain ⟨z', h1, h2, h3, h4, h5⟩ := dumpAux_spec (z.pending.length + 1) z out hc (Nat.lt_succ_self _)
-  exact ⟨z', h1, h2, h3, ⟨⟨out ++ z.pending, h4, by rw [h2, h3, List.append_nil]; exact ho⟩, by rw [h5]; exact h.cap⟩⟩
+theorem ZI.dump {wH : WState} {fd : Bool} {Z : ZCodec} {z : ZEnc} (h : ZI wH fd Z z) :
+    ∃ z', z.dump = (z', .ok) ∧ z'.pending = [] ∧ z'.hist = z.hist ∧ ZI wH fd Z z' := by
+  obtain ⟨out, hc, ho⟩ := h
+  obtain ⟨z', h1, h2, h3, h4, _, _⟩ := dumpAux_spec (z.pending.length + 1) z out hc (Nat.lt_succ_self _)
+  exact ⟨z', h1, h2, h3, ⟨out ++ z.pending, h4, by rw [h2, h3, List.append_nil]; exact ho⟩⟩
 
-theorem ZInv.writeAll {w0 : WState} {Z : ZCodec} {z : ZEnc} {cap : Nat} (h : ZInv w0 Z z cap) (d : Bytes) :
-    ∃ z', z.writeAll Z d = (z', .ok) ∧ ZInv w0 Z z' cap ∧
+theorem ZI.writeAll {wH : WState} {fd : Bool} {Z : ZCodec} {z : ZEnc} (h : ZI wH fd Z z) (d : Bytes) :
+    ∃ z', z.writeAll Z d = (z', .ok) ∧ ZI wH fd Z z' ∧
       z'.hist = (if d = [] then z.hist else z.hist ++ [.write d]) := by
   unfold ZEnc.writeAll
   by_cases hd : d = []
@@ -2743,114 +2854,269 @@ theorem ZInv.writeAll {w0 : WState} {Z : ZCodec} {z : ZEnc} {cap : Nat} (h : ZIn
     obtain ⟨z', h1, h2, h3, h4⟩ := h.dump
     rw [h1]
     simp only
-    obtain ⟨out, hc, ho⟩ := h4.cw
-    refine ⟨_, rfl, ⟨⟨out, hc, ?_⟩, h4.cap⟩, by simp [h3]⟩
+    obtain ⟨out, hc, ho⟩ := h4
+    refine ⟨_, rfl, ⟨out, hc, ?_⟩, by simp [h3]⟩
     simp only [outs_snoc, ← ho, h2, List.append_nil, List.nil_append]
 
-theorem ZInv.flush {w0 : WState} {Z : ZCodec} {z : ZEnc} {cap : Nat} (h : ZInv w0 Z z cap) :
-    ∃ z', z.flush Z = (z', .ok) ∧ ZInv w0 Z z' cap ∧ z'.hist = z.hist ++ [ZOp.flush] ∧ z'.pending = [] := by
+theorem ZI.flush {wH : WState} {fd : Bool} {Z : ZCodec} {z : ZEnc} (h : ZI wH fd Z z) :
+    ∃ z', z.flush Z = (z', .ok) ∧ ZI wH fd Z z' ∧ z'.hist = z.hist ++ [ZOp.flush] ∧ z'.pending = [] := by
   unfold ZEnc.flush
-  obtain ⟨out, hc, ho⟩ := h.cw
-  have h0 : ZInv w0 Z { z with pending := z.pending ++ Z.out z.hist ZOp.flush, hist := z.hist ++ [ZOp.flush] } cap :=
-    ⟨⟨out, hc, by simp only [outs_snoc, ← ho, List.append_assoc]⟩, h.cap⟩
+  obtain ⟨out, hc, ho⟩ := h
+  have h0 : ZI wH fd Z { z with pending := z.pending ++ Z.out z.hist ZOp.flush, hist := z.hist ++ [ZOp.flush] } :=
+    ⟨out, hc, by simp only [outs_snoc, ← ho, List.append_assoc]⟩
   obtain ⟨z', h1, h2, h3, h4⟩ := h0.dump
   simp only [h1]
-  obtain ⟨out', hc', ho'⟩ := h4.cw
-  obtain ⟨c', f1, f2, f3, f4⟩ := hc'.flushInner
+  obtain ⟨out', hc', ho'⟩ := h4
+  obtain ⟨c', f1, f2, f3, f4, _⟩ := hc'.flushInner
   rw [f1]
-  exact ⟨_, rfl, ⟨⟨out', f2, by simpa using ho'⟩, by simp only; rw [f4]; exact h4.cap⟩, h3, h2⟩
+  exact ⟨_, rfl, ⟨out', f2, by simpa using ho'⟩, h3, h2⟩
 
-theorem ZInv.finish {w0 : WState} {Z : ZCodec} {z : ZEnc} {cap : Nat} (h : ZInv w0 Z z cap)
+/-- `finish`: the whole stream is in the chunk writer -/
+theorem ZI.finish {wH : WState} {fd : Bool} {Z : ZCodec} {z : ZEnc} (h : ZI wH fd Z z)
     (hnf : z.finished = false) :
-    ∃ z', z.finish Z = (z', .ok) ∧ ZInv w0 Z z' cap ∧ z'.hist = z.hist ++ [ZOp.finish] ∧ z'.pending = [] := by
+    ∃ z', z.finish Z = (z', .ok) ∧ z'.hist = z.hist ++ [ZOp.finish] ∧ z'.pending = [] ∧
+      CWI wH fd z'.cw (outs Z (z.hist ++ [ZOp.finish])) := by
   unfold ZEnc.finish
   obtain ⟨z1, h1, h2, h3, h4⟩ := h.dump
   simp only [h1]
   have hf1 : z1.finished = false := by simp only [ZEnc.finished, h3]; exact hnf
   simp only [hf1, Bool.false_eq_true, if_false]
-  obtain ⟨out, hc, ho⟩ := h4.cw
-  have h0 : ZInv w0 Z { z1 with pending := z1.pending ++ Z.out z1.hist ZOp.finish, hist := z1.hist ++ [ZOp.finish] } cap :=
-    ⟨⟨out, hc, by simp only [outs_snoc, ← ho, List.append_assoc]⟩, h4.cap⟩
-  obtain ⟨z2, g1, g2, g3, g4⟩ := h0.dump
-  exact ⟨z2, g1, g4, by rw [g3, h3], g2⟩
-
-/-- dropping the encoder: everything the compressor produced (including the final block) is in IDAT
-    chunks after the chunks of `w0`; nothing else of the writer changed -/
-theorem ZInv.drop {w0 : WState} {Z : ZCodec} {z : ZEnc} {cap : Nat} (h : ZInv w0 Z z cap)
-    (hnf : z.finished = false) :
-    ∃ k, z.drop Z false = ({ w0 with sink := k }, .ok) ∧ k.good ∧
-      ∃ ds : List Bytes, k.chunks = w0.sink.chunks ++ ds.map mkIdat ∧
-        ds.flatten = outs Z (z.hist ++ [ZOp.finish]) ∧ ∀ d ∈ ds, d ≠ [] := by
-  obtain ⟨z', h1, h2, h3, h4⟩ := h.finish hnf
-  unfold ZEnc.drop
-  rw [h1]
-  simp only [CW.drop]
-  obtain ⟨out, hc, ho⟩ := h2.cw
-  obtain ⟨c', f1, f2, f3, _⟩ := hc.flushInner
-  rw [f1]
-  simp only [Bool.false_eq_true, if_false]
-  obtain ⟨ds, g1, g2, g3⟩ := f2.chunks
-  refine ⟨c'.w.sink, ?_, f2.good, ds, g1, ?_, g3⟩
-  · have := f2.same
-    rw [← this]
-  · rw [f3, List.append_nil] at g2
-    rw [g2, ← h3, ← ho, h4, List.append_nil]
-
-
-
-/-- a stream writer in the middle of the single image of a still picture -/
-structure SWInv (w0 : WState) (Z : ZCodec) (s : SW) (cap : Nat) : Prop where
-  wr : ∃ z, s.wr = .zlib z ∧ ZInv w0 Z z cap ∧ z.finished = false
-  cur : s.curBuf.length = s.lineLen
-  prev : s.prevBuf.length = s.lineLen
-  pos : 0 < s.lineLen
-  idx : s.index < s.lineLen
-  mult : (s.toWrite + s.index) % s.lineLen = 0
-  fctl : s.fctl = none
-  owned : s.owned = false
-  released : s.released = none
+  obtain ⟨out, hc, ho⟩ := h4
+  have h0 : ZI wH fd Z { z1 with pending := z1.pending ++ Z.out z1.hist ZOp.finish, hist := z1.hist ++ [ZOp.finish] } :=
+    ⟨out, hc, by simp only [outs_snoc, ← ho, List.append_assoc]⟩
+  obtain ⟨z2, g1, g2, g3, out2, hc2, ho2⟩ := h0.dump
+  refine ⟨z2, g1, by rw [g3, h3], g2, ?_⟩
+  rw [g2, List.append_nil, g3] at ho2
+  rw [← h3, ← ho2]; exact hc2
 
 theorem finished_snoc {h : List ZOp} {o : ZOp} (hf : h.contains ZOp.finish = false) (ho : o ≠ ZOp.finish) :
     (h ++ [o]).contains ZOp.finish = false := by
   simp only [List.contains_eq_mem, List.mem_append, List.mem_singleton, decide_eq_false_iff_not, not_or] at hf ⊢
   exact ⟨hf, fun h => ho h.symm⟩
 
+/-- the writer right after `write_header` (`wH`), relative to the writer before it (`wpre`): however
+    the zlib stream is cut into chunks `ds`, the header plus those data chunks plus the image counter
+    is exactly what `write_image_data` does with the same stream and the same cut -/
+structure HeaderRel (wpre wH : WState) (fd : Bool) : Prop where
+  good : wH.sink.good
+  fdf : fd = true → ∃ f, wH.fctl = some f ∧ f.seq < 2 ^ 32
+  static : StaticEq wpre wH
+  sim : ∀ ds : List Bytes,
+    emitImage wpre ds ds =
+      (incrementImagesWritten { (if fd then bumpSeq wH ds.length else wH) with
+          sink := (wH.sink.emitChunks (dataChunks fd (seq0Of wH) ds)).1 }, .ok)
+
+theorem emitIdatImage_good_eq {w : WState} (h : w.sink.good) (ds : List Bytes) :
+    emitIdatImage w ds = (incrementImagesWritten { w with sink := (w.sink.emitChunks (ds.map mkIdat)).1 }, .ok) := by
+  simp only [emitIdatImage, (WState.emit_good_eq h _).1]
+
+/-- `ChunkWriter::write_header` on a sink that never fails -/
+theorem writeHeader_rel {wpre : WState} (cap : Nat) (curr : Ty) (hg : wpre.sink.good)
+    (ha : ∀ f, wpre.fctl = some f → wpre.animWritten + 1 < 2 ^ 32) :
+    ∃ wH, CW.writeHeader ⟨wpre, cap, [], curr⟩ = (⟨wH, cap, [], chunkKind wpre⟩, .ok) ∧
+      HeaderRel wpre wH (chunkKind wpre == tyFDAT) ∧ StaticEq wpre wH ∧
+      wH.imagesWritten = wpre.imagesWritten ∧ wH.iendWritten = wpre.iendWritten := by
+  unfold CW.writeHeader
+  simp only [List.length_nil, ne_eq, not_true_eq_false, if_false]
+  rcases opt_cases wpre.fctl with hf | ⟨f, hf⟩
+  · -- no frame control
+    have hk : chunkKind wpre = tyIDAT := by simp [chunkKind, hf]
+    simp only [hf]
+    refine ⟨wpre, rfl, ⟨hg, (by rw [hk]; intro h; cases h), StaticEq.refl _, ?_⟩, StaticEq.refl _, rfl, rfl⟩
+    intro ds
+    simp only [hk, show (tyIDAT == tyFDAT) = false from by decide, Bool.false_eq_true, if_false, dataChunks]
+    unfold emitImage; simp only [hf]
+    rw [emitIdatImage_good_eq hg ds]; simp [hf]
+  · simp only [hf]
+    cases hsk : skipFctlOnDefault wpre with
+    | true =>
+      have h0 : wpre.imagesWritten = 0 := by
+        simp only [skipFctlOnDefault, Bool.and_eq_true, beq_iff_eq] at hsk; exact hsk.2
+      have hk : chunkKind wpre = tyIDAT := by simp [chunkKind, h0]
+      simp only [if_true]
+      refine ⟨wpre, rfl, ⟨hg, (by rw [hk]; intro h; cases h), StaticEq.refl _, ?_⟩, StaticEq.refl _, rfl, rfl⟩
+      intro ds
+      simp only [hk, show (tyIDAT == tyFDAT) = false from by decide, Bool.false_eq_true, if_false, dataChunks]
+      unfold emitImage; simp only [hf, hsk, if_true]
+      rw [emitIdatImage_good_eq hg ds]; simp [hf]
+    | false =>
+      simp only [Bool.false_eq_true, if_false]
+      obtain ⟨e1, e2⟩ := WState.emit_good_eq hg [mkFctl f]
+      rw [e1]
+      have hov : ¬ (wpre.animWritten + 1 ≥ 2 ^ 32) := by have := ha f hf; omega
+      simp only [hov, if_false]
+      refine ⟨_, rfl, ⟨e2, ?_, ⟨rfl, rfl, rfl, rfl, rfl, rfl, rfl, rfl⟩, ?_⟩, ⟨rfl, rfl, rfl, rfl, rfl, rfl, rfl, rfl⟩, rfl, rfl⟩
+      · intro _; exact ⟨_, rfl, Nat.mod_lt _ (by decide)⟩
+      · intro ds
+        unfold emitImage; simp only [hf, hsk, Bool.false_eq_true, if_false, emitFrame, e1, hov]
+        by_cases h0 : wpre.imagesWritten = 0
+        · have hk : chunkKind wpre = tyIDAT := by simp [chunkKind, h0]
+          rw [if_pos (show _ = 0 from h0)]
+          simp only [hk, show (tyIDAT == tyFDAT) = false from by decide, Bool.false_eq_true, if_false, dataChunks]
+          exact emitIdatImage_good_eq e2 ds
+        · have hk : chunkKind wpre = tyFDAT := by simp [chunkKind, h0, hf]
+          rw [if_neg (show ¬ _ = 0 from h0)]
+          simp only [hk, beq_self_eq_true, if_true, dataChunks, emitFdatImage, seq0Of]
+          rw [(WState.emit_good_eq (s := { wpre with sink := (wpre.sink.emitChunks [mkFctl f]).1, fctl := some { f with seq := (f.seq + 1) % 2 ^ 32 }, animWritten := wpre.animWritten + 1 }) e2 _).1]
+          simp [bumpSeq]
+
+/-- the bytes handed to the compressor -/
+def writtenOf (hist : List ZOp) : Bytes :=
+  (hist.map fun o => match o with | .write d => d | _ => []).flatten
+
+theorem writtenOf_snoc_write (h : List ZOp) (d : Bytes) : writtenOf (h ++ [.write d]) = writtenOf h ++ d := by
+  simp [writtenOf]
+
+/-- the rows as the stream writer hands them to the compressor: each filtered against its predecessor -/
+def fedRows (Z : ZCodec) (bpp : Nat) : Bytes → List Bytes → List Bytes
+  | _, [] => []
+  | prev, c :: cs => Z.row bpp prev c :: fedRows Z bpp c cs
+
+theorem fedRows_snoc (Z : ZCodec) (bpp : Nat) (cs : List Bytes) (c : Bytes) :
+    ∀ prev, fedRows Z bpp prev (cs ++ [c]) = fedRows Z bpp prev cs ++ [Z.row bpp ((cs.getLast?).getD prev) c] := by
+  induction cs with
+  | nil => intro prev; simp [fedRows]
+  | cons x xs ih =>
+    intro prev
+    simp only [List.cons_append, fedRows, ih x]
+    congr 2
+    cases xs with
+    | nil => simp
+    | cons y ys =>
+      have h1 : (y :: ys).getLast? = some ((y :: ys).getLast (by simp)) := List.getLast?_eq_some_getLast (by simp)
+      have h2 : (x :: y :: ys).getLast? = (y :: ys).getLast? := List.getLast?_cons_cons
+      rw [h2, h1]; simp
+
+/-- contract of the streaming compressor for one colour type / depth: after exactly the `h` rows of a
+    `w`-wide image, handed over the way the stream writer does it, with any flushes in between, the
+    finished stream is not empty and satisfies the image rule -/
+def ZCodec.Ok (imgOk : ImgRule) (Z : ZCodec) (color depth : Nat) : Prop :=
+  ∀ (w h : Nat) (hist : List ZOp) (curs : List Bytes),
+    hist.contains ZOp.finish = false → curs.length = h →
+    (∀ c ∈ curs, c.length = rawRowLengthFromWidth color depth w - 1) →
+    writtenOf hist = (fedRows Z (bytesPerPixel color depth)
+      (List.replicate (rawRowLengthFromWidth color depth w - 1) 0) curs).flatten →
+    outs Z (hist ++ [ZOp.finish]) ≠ [] ∧ imgOk w h (outs Z (hist ++ [ZOp.finish])) = .ok ()
+
+theorem row_room {L k fh idx tw : Nat} (h : k * L + idx + tw = L * fh) (hidx : idx < L) (htw : 0 < tw) :
+    L - idx ≤ tw := by
+  have hk : k < fh := by
+    apply Nat.lt_of_not_le
+    intro hle
+    have : L * fh ≤ k * L := by rw [Nat.mul_comm k L]; exact Nat.mul_le_mul_left L hle
+    omega
+  have : (k + 1) * L ≤ L * fh := by rw [Nat.mul_comm (k + 1) L]; exact Nat.mul_le_mul_left L hk
+  rw [Nat.add_mul, Nat.one_mul] at this
+  omega
+
 theorem overwrite_length (buf : Bytes) (i : Nat) (d : Bytes) (h : i + d.length ≤ buf.length) :
     (overwrite buf i d).length = buf.length := by
   simp only [overwrite, List.length_append, List.length_take, List.length_drop]; omega
 
-/-- one `write` call inside the image: a non-empty prefix is taken, nothing panics, nothing fails -/
-theorem SWInv.write {w0 : WState} {Z : ZCodec} {s : SW} {cap : Nat} (h : SWInv w0 Z s cap) (data : Bytes)
-    (hd : data ≠ []) (hle : data.length ≤ s.toWrite) :
-    ∃ s' n, s.write Z data = (s', .ok n) ∧ 0 < n ∧ n ≤ data.length ∧ SWInv w0 Z s' cap ∧
-      s'.toWrite = s.toWrite - n := by
-  obtain ⟨z, hz, hzi, hzf⟩ := h.wr
+/-- a stream writer in the middle of an image of `fh` rows (`wH`, `fd` as in `CWI`) -/
+structure Inside (Z : ZCodec) (wH : WState) (fd : Bool) (fh : Nat) (s : SW) : Prop where
+  st : ∃ z curs, s.wr = .zlib z ∧ ZI wH fd Z z ∧ z.finished = false ∧
+    curs.length * s.lineLen + s.index + s.toWrite = s.lineLen * fh ∧ (∀ c ∈ curs, c.length = s.lineLen) ∧
+    writtenOf z.hist = (fedRows Z s.bpp (List.replicate s.lineLen 0) curs).flatten ∧
+    s.prevBuf = (curs.getLast?).getD (List.replicate s.lineLen 0)
+  cur : s.curBuf.length = s.lineLen
+  pos : 0 < s.lineLen
+  idx : s.index < s.lineLen
+  tw : 0 < s.toWrite
+  released : s.released = none
+
+/-- an image just completed by `finish_image`: the chunk writer is empty, the writer is what the header
+    state `wH` became through the data chunks `ds` and the image counter -/
+structure Completed (Z : ZCodec) (wH : WState) (fd : Bool) (fh : Nat) (s0 s : SW) : Prop where
+  st : ∃ cap curr ds hist curs, 5 ≤ cap ∧
+    s.wr = .chunk ⟨incrementImagesWritten { (if fd then bumpSeq wH ds.length else wH) with
+        sink := (wH.sink.emitChunks (dataChunks fd (seq0Of wH) ds)).1 }, cap, [], curr⟩ ∧
+    (∀ d ∈ ds, d ≠ []) ∧ ds.flatten = outs Z (hist ++ [ZOp.finish]) ∧
+    hist.contains ZOp.finish = false ∧ curs.length = fh ∧ (∀ c ∈ curs, c.length = s0.lineLen) ∧
+    writtenOf hist = (fedRows Z s0.bpp (List.replicate s0.lineLen 0) curs).flatten
+  tw : s.toWrite = 0
+  idx : s.index = 0
+  released : s.released = none
+  same : s.owned = s0.owned ∧ s.fctl = s0.fctl ∧ s.width = s0.width ∧ s.height = s0.height ∧ s.bpp = s0.bpp ∧
+    s.lineLen = s0.lineLen
+
+theorem getLastD_length {curs : List Bytes} {z : Bytes} {L : Nat} (h : ∀ c ∈ curs, c.length = L) (hz : z.length = L) :
+    ((curs.getLast?).getD z).length = L := by
+  cases hl : curs.getLast? with
+  | none => simpa using hz
+  | some c => simp only [Option.getD_some]; exact h c (List.mem_of_getLast? hl)
+
+theorem finished_writeAll {hist : List ZOp} {d : Bytes} (hf : hist.contains ZOp.finish = false) :
+    (if d = [] then hist else hist ++ [ZOp.write d]).contains ZOp.finish = false := by
+  split
+  · exact hf
+  · exact finished_snoc hf (by simp)
+
+theorem writtenOf_writeAll (hist : List ZOp) (d : Bytes) :
+    writtenOf (if d = [] then hist else hist ++ [ZOp.write d]) = writtenOf hist ++ d := by
+  split
+  · rename_i h; simp [h]
+  · exact writtenOf_snoc_write hist d
+
+/-- the end of an image: `finish_image` on a sink that never fails -/
+theorem finishImage_spec {Z : ZCodec} {wH : WState} {fd : Bool} {s : SW} {z : ZEnc}
+    (hz : s.wr = .zlib z) (hzi : ZI wH fd Z z) (hnf : z.finished = false) :
+    ∃ cap curr ds, 5 ≤ cap ∧ s.finishImage Z =
+      ({ s with wr := .chunk ⟨incrementImagesWritten { (if fd then bumpSeq wH ds.length else wH) with
+          sink := (wH.sink.emitChunks (dataChunks fd (seq0Of wH) ds)).1 }, cap, [], curr⟩ }, .ok) ∧
+      (∀ d ∈ ds, d ≠ []) ∧ ds.flatten = outs Z (z.hist ++ [ZOp.finish]) := by
+  obtain ⟨z', f1, f2, f3, f4⟩ := hzi.finish hnf
+  obtain ⟨c', g1, g2, g3, g4, g5⟩ := f4.flushInner
+  obtain ⟨ds, part, h1, h2, h3, h5⟩ := g2.core.st
+  have hp : part = [] := by
+    by_cases hp : part = []
+    · exact hp
+    · rw [g3, if_neg hp] at h3
+      have := congrArg List.length h3
+      have hpl : 0 < part.length := List.length_pos_iff.mpr hp
+      simp only [List.length_nil, List.length_append] at this; omega
+  refine ⟨c'.cap, c'.curr, ds, g2.core.cap, ?_, h1, by rw [h2, hp, List.append_nil]⟩
+  simp only [SW.finishImage, SW.endZlib, hz, f1, g1]
+  have hw : c'.w = { (if fd then bumpSeq wH ds.length else wH) with
+      sink := (wH.sink.emitChunks (dataChunks fd (seq0Of wH) ds)).1 } := by
+    rw [h5, hp]; simp
+  rw [← hw]
+  cases c' with
+  | mk w cap buf curr => simp only at g3; subst g3; rfl
+
+/-- one `write` call inside an image on a sink that never fails: a non-empty prefix is taken; the writer
+    stays inside the image, or the image is complete -/
+theorem Inside.write {Z : ZCodec} {wH : WState} {fd : Bool} {fh : Nat} {s : SW} (h : Inside Z wH fd fh s)
+    (data : Bytes) (hd : data ≠ []) :
+    ∃ s' n, s.write Z data = (s', .ok n) ∧ 0 < n ∧ n ≤ data.length ∧
+      (Inside Z wH fd fh s' ∨ Completed Z wH fd fh s s') ∧
+      s'.owned = s.owned ∧ s'.fctl = s.fctl ∧ s'.width = s.width ∧ s'.height = s.height ∧ s'.bpp = s.bpp ∧
+      s'.lineLen = s.lineLen := by
+  obtain ⟨z, curs, hz, hzi, hzf, heq, hcl, hwr, hprev⟩ := h.st
   have hlen : 0 < data.length := List.length_pos_iff.mpr hd
-  have htw : ¬ s.toWrite = 0 := by omega
+  have hidx := h.idx
+  have hpos := h.pos
+  have htw := h.tw
+  have hroom := row_room heq hidx htw
   unfold SW.write
   have hnu : ¬ s.wr = .unrecoverable := by rw [hz]; simp
   rw [if_neg hnu, if_neg hd]
-  simp only [htw, if_false]
-  have hrs : ¬ s.lineLen > s.curBuf.length := by rw [h.cur]; omega
+  have hb : s.beginIfDone Z = (s, .ok) := by
+    unfold SW.beginIfDone; rw [if_neg (by omega)]
+  rw [hb]
+  simp only
+  have hrs : ¬ (s.lineLen > s.curBuf.length ∨ s.index > s.lineLen) := by rw [h.cur]; omega
   rw [if_neg hrs]
-  have hidx := h.idx
-  have hmult := h.mult
-  have hpos := h.pos
-  -- the row is not longer than what is still to be written
-  have hge : s.lineLen - s.index ≤ s.toWrite := by
-    have h1 : s.lineLen ≤ s.toWrite + s.index := by
-      have : 0 < s.toWrite + s.index := by omega
-      exact Nat.le_of_dvd this (Nat.dvd_of_mod_eq_zero hmult)
-    omega
   have hwt : ¬ min data.length (s.lineLen - s.index) > s.toWrite := by omega
   rw [if_neg hwt]
   have hn0 : 0 < min data.length (s.lineLen - s.index) := by omega
-  have hcl : (overwrite s.curBuf s.index (data.take (min data.length (s.lineLen - s.index)))).length = s.lineLen := by
+  have hcl2 : (overwrite s.curBuf s.index (data.take (min data.length (s.lineLen - s.index)))).length = s.lineLen := by
     rw [overwrite_length, h.cur]
     simp only [List.length_take, h.cur]; omega
   by_cases hfull : s.index + min data.length (s.lineLen - s.index) = s.lineLen
   · rw [if_pos hfull]
-    simp only [hz]
+    -- the row is complete
+    simp only [SW.rowDone, hz]
     obtain ⟨z1, a1, a2, a3⟩ := hzi.writeAll ((Z.row s.bpp s.prevBuf (overwrite s.curBuf s.index (data.take (min data.length (s.lineLen - s.index))))).take 1)
     rw [a1]
     simp only
@@ -2859,317 +3125,1642 @@ theorem SWInv.write {w0 : WState} {Z : ZCodec} {s : SW} {cap : Nat} (h : SWInv w
     simp only
     have hzf2 : z2.finished = false := by
       simp only [ZEnc.finished] at hzf ⊢
-      rw [b3, a3]
-      split <;> split <;> first | exact hzf | (apply finished_snoc _ (by simp); first | exact hzf | (apply finished_snoc hzf (by simp)))
-    refine ⟨_, _, rfl, hn0, by omega, ⟨⟨z2, rfl, b2, hzf2⟩, h.prev, hcl, hpos, hpos, ?_, h.fctl, h.owned, h.released⟩, rfl⟩
-    simp only [Nat.add_zero]
-    have h1 : s.lineLen ∣ s.toWrite + s.index := Nat.dvd_of_mod_eq_zero hmult
-    obtain ⟨q, hq⟩ := h1
-    have : s.toWrite - min data.length (s.lineLen - s.index) = s.lineLen * (q - 1) := by
-      have hq1 : 1 ≤ q := by
-        rcases q with _ | q
-        · simp at hq; omega
-        · omega
-      rw [Nat.mul_sub, Nat.mul_one, ← hq]; omega
-    rw [this]; exact Nat.mul_mod_right _ _
+      rw [b3, a3]; exact finished_writeAll (finished_writeAll hzf)
+    have hplen : s.prevBuf.length = s.lineLen := by
+      rw [hprev]; exact getLastD_length hcl (by simp)
+    -- the rows handed over so far
+    have hcl' : ∀ c ∈ curs ++ [overwrite s.curBuf s.index (data.take (min data.length (s.lineLen - s.index)))], c.length = s.lineLen := by
+      intro c hc
+      simp only [List.mem_append, List.mem_singleton] at hc
+      rcases hc with hc | hc
+      · exact hcl c hc
+      · rw [hc]; exact hcl2
+    have hwr' : writtenOf z2.hist = (fedRows Z s.bpp (List.replicate s.lineLen 0)
+        (curs ++ [overwrite s.curBuf s.index (data.take (min data.length (s.lineLen - s.index)))])).flatten := by
+      rw [b3, a3, writtenOf_writeAll, writtenOf_writeAll, hwr, fedRows_snoc, ← hprev]
+      simp only [List.flatten_append, List.flatten_cons, List.flatten_nil, List.append_nil, List.append_assoc,
+        List.take_append_drop]
+    have heq' : (curs ++ [overwrite s.curBuf s.index (data.take (min data.length (s.lineLen - s.index)))]).length * s.lineLen + 0
+        + (s.toWrite - min data.length (s.lineLen - s.index)) = s.lineLen * fh := by
+      simp only [List.length_append, List.length_singleton, Nat.add_mul, Nat.one_mul]; omega
+    by_cases hdone : s.toWrite - min data.length (s.lineLen - s.index) = 0
+    · rw [if_pos hdone]
+      obtain ⟨cap, curr, ds, hcap, hfi, hds1, hds2⟩ := finishImage_spec (Z := Z) (wH := wH) (fd := fd)
+        (s := { s with curBuf := s.prevBuf, index := 0, toWrite := s.toWrite - min data.length (s.lineLen - s.index),
+                       wr := .zlib z2, prevBuf := overwrite s.curBuf s.index (data.take (min data.length (s.lineLen - s.index))) })
+        rfl b2 hzf2
+      rw [hfi]
+      refine ⟨_, _, rfl, hn0, by omega, Or.inr ?_, rfl, rfl, rfl, rfl, rfl, rfl⟩
+      refine ⟨⟨cap, curr, ds, z2.hist, _, hcap, rfl, hds1, hds2, hzf2, ?_, hcl', hwr'⟩, hdone, rfl, h.released, rfl, rfl, rfl, rfl, rfl, rfl⟩
+      -- all `fh` rows are there
+      rw [hdone] at heq'
+      have : ((curs ++ [overwrite s.curBuf s.index (data.take (min data.length (s.lineLen - s.index)))]).length) * s.lineLen = fh * s.lineLen := by
+        rw [Nat.mul_comm fh]; omega
+      exact Nat.eq_of_mul_eq_mul_right hpos this
+    · rw [if_neg hdone]
+      refine ⟨_, _, rfl, hn0, by omega, Or.inl ?_, rfl, rfl, rfl, rfl, rfl, rfl⟩
+      refine ⟨⟨z2, _, rfl, b2, hzf2, heq', hcl', hwr', ?_⟩, hplen, hpos, hpos, by simp only; omega, h.released⟩
+      simp
   · rw [if_neg hfull]
-    refine ⟨_, _, rfl, hn0, by omega, ⟨⟨z, hz, hzi, hzf⟩, hcl, h.prev, hpos, by simp only; omega, ?_, h.fctl, h.owned, h.released⟩, rfl⟩
+    refine ⟨_, _, rfl, hn0, by omega, Or.inl ?_, rfl, rfl, rfl, rfl, rfl, rfl⟩
+    refine ⟨⟨z, curs, hz, hzi, hzf, ?_, hcl, hwr, hprev⟩, hcl2, hpos, by simp only; omega, by simp only; omega, h.released⟩
+    simp only; omega
+
+
+
+/-! ### counters of the whole-image API, any sink -/
+
+theorem incr_count (s : WState) : (incrementImagesWritten s).imagesWritten = min (s.imagesWritten + 1) (2 ^ 64 - 1) := by
+  unfold incrementImagesWritten
+  cases s.actl with
+  | none => rfl
+  | some a => obtain ⟨n, p⟩ := a; simp only; split <;> rfl
+
+theorem incr_fctl_none {s : WState} (h : s.fctl = none) : (incrementImagesWritten s).fctl = none := by
+  unfold incrementImagesWritten
+  cases s.actl with
+  | none => exact h
+  | some a => obtain ⟨n, p⟩ := a; simp only; split <;> simp [h]
+
+theorem emit_count (s : WState) (cs : List RChunk) : (s.emit cs).1.imagesWritten = s.imagesWritten := by
+  simp [WState.emit]
+
+theorem emitIdatImage_count (s : WState) (ds : List Bytes) :
+    ((emitIdatImage s ds).2 = .ok → (emitIdatImage s ds).1.imagesWritten = min (s.imagesWritten + 1) (2 ^ 64 - 1)) ∧
+    ((emitIdatImage s ds).2 ≠ .ok → (emitIdatImage s ds).1.imagesWritten = s.imagesWritten) ∧
+    (s.fctl = none → (emitIdatImage s ds).1.fctl = none) := by
+  unfold emitIdatImage
+  have h1 := emit_count s (ds.map mkIdat)
+  have h2 := emit_fctl s (ds.map mkIdat)
+  cases hh : s.emit (ds.map mkIdat) with
+  | mk s' ok =>
+    rw [hh] at h1 h2; simp only at h1 h2
+    cases ok with
+    | false => exact ⟨(fun h => by cases h), fun _ => h1, fun h => by rw [h2]; exact h⟩
+    | true => exact ⟨fun _ => by rw [incr_count, h1], fun h => absurd rfl h, fun h => incr_fctl_none (by rw [h2]; exact h)⟩
+
+theorem emitFdatImage_count (s : WState) (f : FC) (q : Nat) (ds : List Bytes) :
+    ((emitFdatImage s f q ds).2 = .ok → (emitFdatImage s f q ds).1.imagesWritten = min (s.imagesWritten + 1) (2 ^ 64 - 1)) ∧
+    ((emitFdatImage s f q ds).2 ≠ .ok → (emitFdatImage s f q ds).1.imagesWritten = s.imagesWritten) := by
+  simp only [emitFdatImage]
+  have h1 := emit_count s (fdatChunks q ds).1
+  cases hh : s.emit (fdatChunks q ds).1 with
+  | mk s' ok =>
+    rw [hh] at h1; simp only at h1
+    cases ok with
+    | false => exact ⟨(fun h => by cases h), fun _ => h1⟩
+    | true => exact ⟨fun _ => by rw [incr_count]; simp only; rw [h1], fun h => absurd rfl h⟩
+
+/-- a successful image emission counts exactly one image; a failed one none -/
+theorem emitImage_count (s : WState) (pi pf : List Bytes) :
+    ((emitImage s pi pf).2 = .ok → (emitImage s pi pf).1.imagesWritten = min (s.imagesWritten + 1) (2 ^ 64 - 1)) ∧
+    ((emitImage s pi pf).2 ≠ .ok → (emitImage s pi pf).1.imagesWritten = s.imagesWritten) ∧
+    (s.fctl = none → (emitImage s pi pf).1.fctl = none) := by
+  unfold emitImage
+  rcases opt_cases s.fctl with hf | ⟨f, hf⟩
+  · simp only [hf]
+    obtain ⟨a1, a2, a3⟩ := emitIdatImage_count s pi
+    exact ⟨a1, a2, fun _ => a3 hf⟩
+  · simp only [hf]
+    split
+    · obtain ⟨a1, a2, _⟩ := emitIdatImage_count s pi
+      exact ⟨a1, a2, (fun h => by cases h)⟩
+    · simp only [emitFrame]
+      have h1 := emit_count s [mkFctl f]
+      cases hh : s.emit [mkFctl f] with
+      | mk s' ok =>
+        rw [hh] at h1; simp only at h1
+        cases ok with
+        | false => exact ⟨(fun h => by cases h), fun _ => h1, (fun h => by cases h)⟩
+        | true =>
+          simp only
+          split
+          · exact ⟨(fun h => by cases h), fun _ => h1, (fun h => by cases h)⟩
+          · split
+            · obtain ⟨a1, a2, _⟩ := emitIdatImage_count { s' with fctl := some { f with seq := (f.seq + 1) % 2 ^ 32 }, animWritten := s'.animWritten + 1 } pi
+              exact ⟨fun h => by rw [a1 h]; simp only; rw [h1], fun h => by rw [a2 h]; exact h1, (fun h => by cases h)⟩
+            · obtain ⟨a1, a2⟩ := emitFdatImage_count { s' with fctl := some { f with seq := (f.seq + 1) % 2 ^ 32 }, animWritten := s'.animWritten + 1 } f ((f.seq + 1) % 2 ^ 32) pf
+              exact ⟨fun h => by rw [a1 h]; simp only; rw [h1], fun h => by rw [a2 h]; exact h1, (fun h => by cases h)⟩
+
+theorem withFctl_count (s : WState) (k : FC → WState × Res)
+    (hk : ∀ f, s.fctl = some f → (k f).1.imagesWritten = s.imagesWritten) :
+    (withFctl s k).1.imagesWritten = s.imagesWritten ∧ (s.fctl = none → (withFctl s k).1.fctl = none) := by
+  unfold withFctl
+  cases hf : s.fctl with
+  | none => exact ⟨rfl, fun _ => hf⟩
+  | some f => exact ⟨hk f hf, (fun h => by cases h)⟩
+
+/-- the image counter under any operation of the whole-image API: one more after a successful
+    `write_image_data`, unchanged otherwise; and a dropped frame control never comes back -/
+theorem writerStep_count' (E : Codec) (s : WState) (op : Op) :
+    ((writerStep E s op).1.imagesWritten = s.imagesWritten ∧ ¬ (op.isImage = true ∧ (writerStep E s op).2 = .ok) ∨
+      (op.isImage = true ∧ (writerStep E s op).2 = .ok ∧
+        (writerStep E s op).1.imagesWritten = min (s.imagesWritten + 1) (2 ^ 64 - 1))) ∧
+    (s.fctl = none → (writerStep E s op).1.fctl = none) := by
+  cases op with
+  | image d =>
+    simp only [writerStep, Enc.writeImageData]
+    cases hc : imageChecks s d with
+    | error r => exact ⟨Or.inl ⟨rfl, fun hh => absurd hh.2 (imageChecks_error_ne_ok hc)⟩, fun h => h⟩
+    | ok a =>
+      obtain ⟨il, h⟩ := a
+      simp only
+      obtain ⟨a1, a2, a3⟩ := emitImage_count s (chunksOf maxIdatChunkLen (E.encode (bytesPerPixel s.color s.depth) il h d)) (chunksOf maxFdatChunkLen (E.encode (bytesPerPixel s.color s.depth) il h d))
+      refine ⟨?_, a3⟩
+      by_cases hok : (emitImage s (chunksOf maxIdatChunkLen (E.encode (bytesPerPixel s.color s.depth) il h d)) (chunksOf maxFdatChunkLen (E.encode (bytesPerPixel s.color s.depth) il h d))).2 = .ok
+      · exact Or.inr ⟨rfl, hok, a1 hok⟩
+      · exact Or.inl ⟨a2 hok, fun hh => hok hh.2⟩
+  | chunk t d =>
+    simp only [writerStep, writeChunk]
+    split
+    · exact ⟨Or.inl ⟨rfl, by simp [Op.isImage]⟩, fun h => h⟩
+    · have h1 := emit_count s [⟨t, d⟩]
+      have h2 := emit_fctl s [⟨t, d⟩]
+      cases hh : s.emit [⟨t, d⟩] with
+      | mk s' ok => rw [hh] at h1 h2; cases ok <;> exact ⟨Or.inl ⟨h1, by simp [Op.isImage]⟩, fun h => by rw [h2]; exact h⟩
+  | text b =>
+    cases b with
+    | none => exact ⟨Or.inl ⟨rfl, by simp [Op.isImage]⟩, fun h => h⟩
+    | some c =>
+      simp only [writerStep, writeTextChunk]
+      have h1 := emit_count s [c]
+      have h2 := emit_fctl s [c]
+      cases hh : s.emit [c] with
+      | mk s' ok => rw [hh] at h1 h2; cases ok <;> exact ⟨Or.inl ⟨h1, by simp [Op.isImage]⟩, fun h => by rw [h2]; exact h⟩
+  | setDelay n d => obtain ⟨a, b⟩ := withFctl_count s (fun f => ({ s with fctl := some { f with delayNum := n, delayDen := d } }, .ok)) (fun _ _ => rfl); exact ⟨Or.inl ⟨a, by simp [Op.isImage]⟩, b⟩
+  | setBlend b' => obtain ⟨a, b⟩ := withFctl_count s (fun f => ({ s with fctl := some { f with blend := b' } }, .ok)) (fun _ _ => rfl); exact ⟨Or.inl ⟨a, by simp [Op.isImage]⟩, b⟩
+  | setDispose d => obtain ⟨a, b⟩ := withFctl_count s (fun f => ({ s with fctl := some { f with dispose := d } }, .ok)) (fun _ _ => rfl); exact ⟨Or.inl ⟨a, by simp [Op.isImage]⟩, b⟩
+  | resetPos => obtain ⟨a, b⟩ := withFctl_count s (fun f => ({ s with fctl := some { f with x := 0, y := 0 } }, .ok)) (fun _ _ => rfl); exact ⟨Or.inl ⟨a, by simp [Op.isImage]⟩, b⟩
+  | setDim w h =>
+    obtain ⟨a, b⟩ := withFctl_count s (fun f =>
+      if gtCheckedSub w s.width f.x || gtCheckedSub h s.height f.y then (s, .err .outOfBounds)
+      else if w = 0 then (s, .err .zeroWidth)
+      else if h = 0 then (s, .err .zeroHeight)
+      else ({ s with fctl := some { f with w := w, h := h } }, .ok)) (fun f _ => by
+        split; rfl; split; rfl; split; rfl; rfl)
+    exact ⟨Or.inl ⟨a, by simp [Op.isImage]⟩, b⟩
+  | setPos x y =>
+    obtain ⟨a, b⟩ := withFctl_count s (fun f =>
+      if gtCheckedSub x s.width f.w || gtCheckedSub y s.height f.h then (s, .err .outOfBounds)
+      else ({ s with fctl := some { f with x := x, y := y } }, .ok)) (fun f _ => by split; rfl; rfl)
+    exact ⟨Or.inl ⟨a, by simp [Op.isImage]⟩, b⟩
+  | resetDim =>
+    obtain ⟨a, b⟩ := withFctl_count s (fun f =>
+      if s.width < f.x ∨ s.height < f.y then (s, .panic .resetDimUnderflow)
+      else ({ s with fctl := some { f with w := s.width - f.x, h := s.height - f.y } }, .ok)) (fun f _ => by split; rfl; rfl)
+    exact ⟨Or.inl ⟨a, by simp [Op.isImage]⟩, b⟩
+
+/-- while the frame control exists the declared number of images is not reached -/
+theorem Inv.count_lt {imgOk : ImgRule} {s : WState} {seq fctls : Nat} {ph : Phase}
+    (inv : Inv imgOk s seq fctls ph) {f : FC} (hf : s.fctl = some f) : s.imagesWritten < declared s := by
+  obtain ⟨_, _, _, _, ⟨n, p, ha, hlt⟩, h6⟩ := inv.fc f hf
+  simp only [declared, ha]
+  cases hs : s.sepDefImg <;> simp [hs] at h6 ⊢
+  · omega
+  · split at h6 <;> omega
+
+/-- no frame inside the canvas needs more than `usize::MAX` bytes (so that `next_frame_info` is exact) -/
+def Fits (w : WState) : Prop := ∀ fw fh, fw ≤ w.width → fh ≤ w.height → inLenOf w fw * fh < 2 ^ 64
+
+theorem Fits.static {a b : WState} (h : StaticEq a b) (hf : Fits a) : Fits b := by
+  intro fw fh h1 h2
+  have := hf fw fh (by rw [← h.1]; exact h1) (by rw [← h.2.1]; exact h2)
+  simpa [inLenOf, h.2.2.1, h.2.2.2.1] using this
+
+/-- what is known of the `Writer` at any point of a program on a sink that never fails, whether or not
+    the program stays inside the domain of C12: the panic-relevant facts always; the automaton
+    correspondence `Inv` as long as no more than the declared number of images was written; once
+    more were written, there is no frame control any more -/
+structure JW (imgOk : ImgRule) (C D W H : Nat) (V : Bool) (w : WState) : Prop where
+  cd : w.color = C ∧ w.depth = D
+  wh : w.width = W ∧ w.height = H
+  vl : w.validate = V
+  dims : w.width < 2 ^ 32 ∧ w.height < 2 ^ 32
+  good : w.sink.good
+  safe : Safe w
+  iend : w.iendWritten = false
+  att : w.sink.iendAttempts = 0
+  fits : Fits w
+  actlB : ∀ n p, w.actl = some (n, p) → n < 2 ^ 32
+  inv : w.imagesWritten ≤ declared w → ∃ seq fctls ph, Inv imgOk w seq fctls ph
+  over : declared w < w.imagesWritten → w.fctl = none
+  val : w.validate = true → w.imagesWritten ≤ declared w
+
+theorem JW.declared_le {imgOk : ImgRule} {C D W H : Nat} {V : Bool} {w : WState} (h : JW imgOk C D W H V w) : declared w ≤ 2 ^ 32 :=
+  Enc.declared_le w h.actlB
+
+/-- the frame control, if any, is in range, and the next `animation_written += 1` does not overflow -/
+theorem JW.fctl_facts {imgOk : ImgRule} {C D W H : Nat} {V : Bool} {w : WState} (h : JW imgOk C D W H V w) {f : FC} (hf : w.fctl = some f) :
+    f.inRange ∧ RectOk w f ∧ w.animWritten + 1 < 2 ^ 32 ∧ w.imagesWritten < declared w := by
+  have hle : w.imagesWritten ≤ declared w := by
+    apply Nat.le_of_not_lt; intro hlt; rw [h.over hlt] at hf; cases hf
+  obtain ⟨seq, fctls, ph, inv⟩ := h.inv hle
+  obtain ⟨h1, _, h3, _, ⟨n, p, ha, hlt⟩, _⟩ := inv.fc f hf
+  have := inv.actlR n p ha
+  exact ⟨h1, h3, by omega, inv.count_lt hf⟩
+
+/-- any operation of the whole-image API with arguments in range keeps `JW` and does not panic -/
+theorem JW.step {imgOk : ImgRule} {C D W H : Nat} {V : Bool} {E : Codec} {w : WState} (h : JW imgOk C D W H V w)
+    (hE : Codec.Ok imgOk E w.color w.depth) (op : Op) (hr : op.inRange) (hno : op.noIend) :
+    JW imgOk C D W H V (writerStep E w op).1 ∧ (writerStep E w op).2.isPanic = false := by
+  have hev := Evolves.step E w op hno
+  have hdl := h.declared_le
+  have hnp : (writerStep E w op).2.isPanic = false :=
+    step_no_panic E h.safe (fun f hf => (h.fctl_facts hf).2.2.1) op
+  obtain ⟨hcnt, hfn⟩ := writerStep_count' E w op
+  have hd : declared (writerStep E w op).1 = declared w := declared_static hev.static
+  refine ⟨?_, hnp⟩
+  exact {
+    cd := by rw [hev.static.2.2.1, hev.static.2.2.2.1]; exact h.cd
+    wh := by rw [hev.static.1, hev.static.2.1]; exact h.wh
+    vl := by rw [hev.static.2.2.2.2.2.2.2]; exact h.vl
+    dims := by rw [hev.static.1, hev.static.2.1]; exact h.dims
+    good := by
+      have := hev.beh
+      simp only [Sink.good, this]; exact h.good
+    safe := h.safe.evolves hev
+    iend := by rw [hev.iend]; exact h.iend
+    att := by rw [hev.grows.iendAttempts]; exact h.att
+    fits := h.fits.static hev.static
+    actlB := by rw [hev.static.2.2.2.2.1]; exact h.actlB
+    inv := by
+      rw [hd]
+      intro hle
+      rcases hcnt with ⟨hc, hni⟩ | ⟨hi, hok, hc⟩
+      · rw [hc] at hle
+        obtain ⟨seq, fctls, ph, inv⟩ := h.inv hle
+        obtain ⟨s1, f1, p1, i1, _⟩ := inv.step hE op ⟨hr, fun himg => by
+          by_cases hlt : w.imagesWritten < declared w
+          · exact Or.inl hlt
+          · exact Or.inr (fun hok => hni ⟨himg, hok⟩)⟩
+        exact ⟨s1, f1, p1, i1⟩
+      · rw [hc] at hle
+        have hlt : w.imagesWritten < declared w := by omega
+        obtain ⟨seq, fctls, ph, inv⟩ := h.inv (by omega)
+        obtain ⟨s1, f1, p1, i1, _⟩ := inv.step hE op ⟨hr, fun _ => Or.inl hlt⟩
+        exact ⟨s1, f1, p1, i1⟩
+    over := by
+      rw [hd]
+      intro hgt
+      apply hfn
+      rcases hcnt with ⟨hc, _⟩ | ⟨_, _, hc⟩
+      · rw [hc] at hgt; exact h.over hgt
+      · rw [hc] at hgt
+        by_cases hov : declared w < w.imagesWritten
+        · exact h.over hov
+        · -- exactly the declared number was written: the frame control is already gone
+          obtain ⟨seq, fctls, ph, inv⟩ := h.inv (by omega)
+          rcases opt_cases w.fctl with hf | ⟨f, hf⟩
+          · exact hf
+          · have := inv.count_lt hf; omega
+    val := by
+      rw [hd, hev.static.2.2.2.2.2.2.2]
+      intro hv
+      have hle := h.val hv
+      rcases hcnt with ⟨hc, _⟩ | ⟨hi, hok, hc⟩
+      · rw [hc]; exact hle
+      · rw [hc]
+        obtain ⟨seq, fctls, ph, inv⟩ := h.inv hle
+        apply Nat.le_of_not_lt; intro hgt
+        cases op with
+        | image d => exact inv.validate_refuses hv (by omega) d hok
+        | _ => cases hi }
+
+
+
+/-- the stream writer's own copy of the canvas size, filter unit and frame control fits the `Writer` -/
+structure CopyOk (s : SW) (w : WState) : Prop where
+  width : s.width = w.width
+  height : s.height = w.height
+  bpp : s.bpp = bytesPerPixel w.color w.depth
+  pal : ¬ (w.color = 3 ∧ w.hasPalette = false)
+  fc : ∀ f, s.fctl = some f → RectOk w f ∧ f.inRange
+
+theorem CopyOk.static {s : SW} {a b : WState} (h : CopyOk s a) (hst : StaticEq a b) : CopyOk s b := by
+  obtain ⟨a1, a2, a3, a4, a5, a6, a7, a8⟩ := hst
+  exact ⟨by rw [a1]; exact h.width, by rw [a2]; exact h.height, by rw [a3, a4]; exact h.bpp,
+    by rw [a3, a6]; exact h.pal, fun f hf => ⟨by simpa [RectOk, a1, a2] using (h.fc f hf).1, (h.fc f hf).2⟩⟩
+
+theorem CopyOk.same {s s' : SW} {w : WState} (h : CopyOk s w)
+    (hs : s'.fctl = s.fctl ∧ s'.width = s.width ∧ s'.height = s.height ∧ s'.bpp = s.bpp) : CopyOk s' w :=
+  ⟨by rw [hs.2.1]; exact h.width, by rw [hs.2.2.1]; exact h.height, by rw [hs.2.2.2]; exact h.bpp, h.pal,
+    by rw [hs.1]; exact h.fc⟩
+
+/-- the invariant of a stream-writer session on a sink that never fails -/
+inductive SessInv (imgOk : ImgRule) (C D W H : Nat) (V : Bool) (Z : ZCodec) : SW → Prop
+  /-- between two images: the chunk writer is empty and holds a `Writer` in a `JW` state -/
+  | between {s : SW} {w : WState} {cap : Nat} {curr : Ty} :
+      s.wr = .chunk ⟨w, cap, [], curr⟩ → 5 ≤ cap → s.toWrite = 0 → s.index = 0 → s.released = none →
+      JW imgOk C D W H V w → 0 < w.imagesWritten → CopyOk s w → SessInv imgOk C D W H V Z s
+  /-- inside an image that was started on the `Writer` state `wpre` -/
+  | inside {s : SW} {wpre wH : WState} {fd : Bool} :
+      Inside Z wH fd (nextDims wpre).2 s → HeaderRel wpre wH fd → JW imgOk C D W H V wpre → CopyOk s wpre →
+      s.lineLen = inLenOf wpre (nextDims wpre).1 →
+      (∀ f, wpre.fctl = some f → wpre.imagesWritten = 0 → f.x = 0 ∧ f.y = 0 ∧ f.w = wpre.width ∧ f.h = wpre.height) →
+      validateNewImage wpre = none →
+      SessInv imgOk C D W H V Z s
+
+theorem bumpSeq_static (w : WState) (n : Nat) : StaticEq w (bumpSeq w n) := by
+  unfold bumpSeq; cases w.fctl <;> exact ⟨rfl, rfl, rfl, rfl, rfl, rfl, rfl, rfl⟩
+
+/-- the `Writer` after a complete stream image is the `Writer` after `write_image_data` with the same
+    zlib stream cut the same way; hence `JW` again -/
+theorem JW.afterImage {imgOk : ImgRule} {C D W H : Nat} {V : Bool} {Z : ZCodec} {wpre wH : WState} {fd : Bool} (h : JW imgOk C D W H V wpre)
+    (hrel : HeaderRel wpre wH fd) (hZ : ZCodec.Ok imgOk Z wpre.color wpre.depth)
+    (hpal : ¬ (wpre.color = 3 ∧ wpre.hasPalette = false))
+    (h7 : ∀ f, wpre.fctl = some f → wpre.imagesWritten = 0 → f.x = 0 ∧ f.y = 0 ∧ f.w = wpre.width ∧ f.h = wpre.height)
+    (hvn : validateNewImage wpre = none)
+    (ds : List Bytes) (hist : List ZOp) (curs : List Bytes)
+    (hds : ds.flatten = outs Z (hist ++ [ZOp.finish])) (hnf : hist.contains ZOp.finish = false)
+    (hcl : curs.length = (nextDims wpre).2) (hcr : ∀ c ∈ curs, c.length = inLenOf wpre (nextDims wpre).1)
+    (hwr : writtenOf hist = (fedRows Z (bytesPerPixel wpre.color wpre.depth)
+      (List.replicate (inLenOf wpre (nextDims wpre).1) 0) curs).flatten) :
+    JW imgOk C D W H V (incrementImagesWritten { (if fd then bumpSeq wH ds.length else wH) with
+        sink := (wH.sink.emitChunks (dataChunks fd (seq0Of wH) ds)).1 }) ∧
+    0 < (incrementImagesWritten { (if fd then bumpSeq wH ds.length else wH) with
+        sink := (wH.sink.emitChunks (dataChunks fd (seq0Of wH) ds)).1 }).imagesWritten ∧
+    StaticEq wpre (incrementImagesWritten { (if fd then bumpSeq wH ds.length else wH) with
+        sink := (wH.sink.emitChunks (dataChunks fd (seq0Of wH) ds)).1 }) := by
+  have hsim := hrel.sim ds
+  have hst : (emitImage wpre ds ds).1 = incrementImagesWritten { (if fd then bumpSeq wH ds.length else wH) with
+        sink := (wH.sink.emitChunks (dataChunks fd (seq0Of wH) ds)).1 } := by rw [hsim]
+  have hok : (emitImage wpre ds ds).2 = .ok := by rw [hsim]
+  rw [← hst]
+  obtain ⟨hne, himg⟩ := hZ (nextDims wpre).1 (nextDims wpre).2 hist curs hnf hcl hcr hwr
+  have hdne : ds ≠ [] := by intro he; rw [he] at hds; simp at hds; exact hne hds
+  have hev := Evolves.image wpre ds ds
+  obtain ⟨c1, _, c3⟩ := emitImage_count wpre ds ds
+  have hcnt := c1 hok
+  have hdl := h.declared_le
+  have hd : declared (emitImage wpre ds ds).1 = declared wpre := declared_static hev.static
+  refine ⟨?_, by rw [hcnt]; omega, hev.static⟩
+  exact {
+    cd := by rw [hev.static.2.2.1, hev.static.2.2.2.1]; exact h.cd
+    wh := by rw [hev.static.1, hev.static.2.1]; exact h.wh
+    vl := by rw [hev.static.2.2.2.2.2.2.2]; exact h.vl
+    dims := by rw [hev.static.1, hev.static.2.1]; exact h.dims
+    good := by have := hev.beh; simp only [Sink.good, this]; exact h.good
+    safe := h.safe.evolves hev
+    iend := by rw [hev.iend]; exact h.iend
+    att := by rw [hev.grows.iendAttempts]; exact h.att
+    fits := h.fits.static hev.static
+    actlB := by rw [hev.static.2.2.2.2.1]; exact h.actlB
+    inv := by
+      rw [hd, hcnt]
+      intro hle
+      have hlt : wpre.imagesWritten < declared wpre := by omega
+      obtain ⟨seq, fctls, ph, inv⟩ := h.inv (by omega)
+      obtain ⟨s1, f1, p1, i1, _⟩ := inv.emitImage ds ds hdne hdne hpal (by rw [hds]; exact himg) (by rw [hds]; exact himg) h7 (Or.inl hlt)
+      exact ⟨s1, f1, p1, i1⟩
+    over := by
+      rw [hd, hcnt]
+      intro hgt
+      apply c3
+      by_cases hov : declared wpre < wpre.imagesWritten
+      · exact h.over hov
+      · obtain ⟨seq, fctls, ph, inv⟩ := h.inv (by omega)
+        rcases opt_cases wpre.fctl with hf | ⟨f, hf⟩
+        · exact hf
+        · have := inv.count_lt hf; omega
+    val := by
+      rw [hd, hcnt, hev.static.2.2.2.2.2.2.2]
+      intro hv
+      have hlt : wpre.imagesWritten < declared wpre := by
+        unfold validateNewImage at hvn
+        simp only [hv, Bool.not_true, Bool.false_eq_true, if_false] at hvn
+        rcases opt_cases wpre.actl with ha | ⟨⟨n, p⟩, ha⟩
+        · simp only [ha] at hvn
+          by_cases h0 : wpre.imagesWritten = 0
+          · simp only [declared, ha]; omega
+          · simp [h0] at hvn
+        · simp only [ha] at hvn
+          rcases opt_cases wpre.fctl with hf | ⟨f, hf⟩
+          · simp [hf] at hvn
+          · exact (h.fctl_facts hf).2.2.2
+      omega }
+
+theorem chunkKind_eq (w : WState) : chunkKind w = if (chunkKind w == tyFDAT) = true then tyFDAT else tyIDAT := by
+  unfold chunkKind; split <;> simp <;> decide
+
+theorem bumpSeq_zero {w : WState} (h : ∀ f, w.fctl = some f → f.seq < 2 ^ 32) : bumpSeq w 0 = w := by
+  unfold bumpSeq
+  cases hf : w.fctl with
+  | none => rfl
+  | some f =>
+    have := h f hf
+    simp only [seqAfter, Nat.add_zero, Nat.mod_eq_of_lt this]
+    cases w; simp_all
+
+/-- the stream writer at the first byte of an image -/
+theorem Inside.init {Z : ZCodec} {wH : WState} {fd : Bool} {fh : Nat} {s : SW} {cap : Nat} {kind : Ty}
+    (hg : wH.sink.good) (hfdf : fd = true → ∃ f, wH.fctl = some f ∧ f.seq < 2 ^ 32) (hcap : 5 ≤ cap)
+    (hkind : kind = if fd then tyFDAT else tyIDAT)
+    (hwr : s.wr = .zlib { cw := ⟨wH, cap, [], kind⟩ }) (hL : 0 < s.lineLen) (hfh : 0 < fh)
+    (htw : s.toWrite = s.lineLen * fh) (hidx : s.index = 0)
+    (hprev : s.prevBuf = List.replicate s.lineLen 0) (hcur : s.curBuf.length = s.lineLen)
+    (hrel : s.released = none) : Inside Z wH fd fh s := by
+  have hw : wH = { (if fd then bumpSeq wH 0 else wH) with sink := (wH.sink.emitChunks (dataChunks fd (seq0Of wH) [])).1 } := by
+    have hd : dataChunks fd (seq0Of wH) [] = [] := by cases fd <;> simp [dataChunks, fdatChunks]
+    rw [hd]
+    cases fd with
+    | false => simp [Sink.emitChunks]
+    | true =>
+      obtain ⟨f, hf, hlt⟩ := hfdf rfl
+      have : bumpSeq wH 0 = wH := bumpSeq_zero (fun g hg' => by rw [hf] at hg'; cases hg'; exact hlt)
+      simp [this, Sink.emitChunks]
+  have hcwi : CWI wH fd ⟨wH, cap, [], kind⟩ [] :=
+    ⟨⟨hcap, hkind, hfdf, hg, [], [], by simp, by simp, by simp, by simpa using hw⟩, by simp; omega⟩
+  refine ⟨⟨{ cw := ⟨wH, cap, [], kind⟩ }, [], hwr, ⟨[], hcwi, rfl⟩, rfl, ?_, by simp, by simp [writtenOf, fedRows], by simp [hprev]⟩,
+    hcur, hL, by omega, ?_, hrel⟩
+  · simp [hidx, htw]
+  · rw [htw]; exact Nat.mul_pos hL hfh
+
+/-- the geometry of the next image on a `Writer` in a `JW` state -/
+theorem JW.frameInfo {imgOk : ImgRule} {C D W H : Nat} {V : Bool} {w : WState} (h : JW imgOk C D W H V w) (cap : Nat) (buf : Bytes) (curr : Ty) :
+    (CW.nextFrameInfo ⟨w, cap, buf, curr⟩) =
+      (inLenOf w (nextDims w).1, inLenOf w (nextDims w).1 * (nextDims w).2) ∧
+    0 < inLenOf w (nextDims w).1 ∧ 0 < (nextDims w).2 := by
+  have hpos := h.safe.nextDims_pos
+  have hdims : (nextDims w).1 ≤ w.width ∧ (nextDims w).2 ≤ w.height ∧ 0 < (nextDims w).2 := by
+    unfold nextDims
+    rcases opt_cases w.fctl with hf | ⟨f, hf⟩
+    · simp only [hf]; exact ⟨Nat.le_refl _, Nat.le_refl _, h.safe.valid.2.1⟩
+    · simp only [hf]
+      have := h.safe.rect f hf
+      simp only [RectOk] at this; omega
+  have hfit := h.fits _ _ hdims.1 hdims.2.1
+  refine ⟨?_, hpos, hdims.2.2⟩
+  simp only [CW.nextFrameInfo]
+  cases hnd : nextDims w with
+  | mk a b =>
+    rw [hnd] at hfit
+    simp only [hfit, if_true]
+
+/-- `set_fctl` with the stream writer's copy keeps `JW` -/
+theorem JW.setFctl {imgOk : ImgRule} {C D W H : Nat} {V : Bool} {w : WState} (h : JW imgOk C D W H V w) (f : FC) (hr : RectOk w f ∧ f.inRange) :
+    JW imgOk C D W H V (CW.setFctl ⟨w, 0, [], 0⟩ f).w ∧ StaticEq w (CW.setFctl ⟨w, 0, [], 0⟩ f).w ∧
+    (CW.setFctl ⟨w, 0, [], 0⟩ f).w.imagesWritten = w.imagesWritten := by
+  unfold CW.setFctl
+  rcases opt_cases w.fctl with hf | ⟨cur, hf⟩
+  · simp only [hf]; exact ⟨h, StaticEq.refl _, trivial⟩
+  · simp only [hf]
+    obtain ⟨c1, c2, c3, c4⟩ := h.fctl_facts hf
+    refine ⟨?_, ⟨rfl, rfl, rfl, rfl, rfl, rfl, rfl, rfl⟩, trivial⟩
+    have hr' : ({ f with seq := cur.seq } : FC).inRange := by
+      obtain ⟨_, r2, r3, r4, r5, r6, r7, r8, r9⟩ := hr.2
+      exact ⟨c1.1, r2, r3, r4, r5, r6, r7, r8, r9⟩
+    exact {
+      cd := h.cd
+      wh := h.wh
+      vl := h.vl
+      dims := h.dims
+      good := h.good
+      safe := ⟨fun g hg => by simp only [Option.some.injEq] at hg; subst hg; exact hr.1, h.safe.valid⟩
+      iend := h.iend
+      att := h.att
+      fits := h.fits
+      actlB := h.actlB
+      inv := by
+        intro hle
+        obtain ⟨seq, fctls, ph, inv⟩ := h.inv hle
+        exact ⟨seq, fctls, ph, inv.setFctl hf rfl hr' hr.1⟩
+      over := by
+        intro hgt
+        have := h.over hgt; rw [hf] at this; cases this
+      val := h.val }
+
+theorem CW.setFctl_w (w : WState) (cap : Nat) (buf : Bytes) (curr : Ty) (f : FC) :
+    CW.setFctl ⟨w, cap, buf, curr⟩ f = ⟨(CW.setFctl ⟨w, 0, [], 0⟩ f).w, cap, buf, curr⟩ := by
+  unfold CW.setFctl; cases w.fctl <;> rfl
+
+/-- between two images: the next non-empty `write` first starts the next image — or is refused by
+    `validate_new_image`, leaving the writer between the images -/
+theorem SessInv.begin {imgOk : ImgRule} {C D W H : Nat} {V : Bool} {Z : ZCodec} {s : SW} {w : WState} {cap : Nat} {curr : Ty}
+    (hwr : s.wr = .chunk ⟨w, cap, [], curr⟩) (hcap : 5 ≤ cap) (htw : s.toWrite = 0) (hidx : s.index = 0)
+    (hrl : s.released = none) (hj : JW imgOk C D W H V w) (hcnt : 0 < w.imagesWritten) (hco : CopyOk s w) :
+    (∃ e, s.beginIfDone Z = (s, .err e)) ∨
+    (∃ s', s.beginIfDone Z = (s', .ok) ∧ SessInv imgOk C D W H V Z s' ∧ 0 < s'.toWrite ∧ (∃ z, s'.wr = .zlib z) ∧
+      s'.owned = s.owned ∧ s'.fctl = s.fctl ∧ s'.width = s.width ∧ s'.height = s.height ∧ s'.bpp = s.bpp) := by
+  unfold SW.beginIfDone
+  rw [if_pos htw]
+  simp only [hwr, SW.endZlib, SW.newFrame]
+  have hfl : (⟨w, cap, [], curr⟩ : CW).flushInner = (⟨w, cap, [], curr⟩, .ok) := by simp [CW.flushInner]
+  simp only [hfl]
+  cases hv : validateNewImage w with
+  | some e =>
+    left; refine ⟨e, ?_⟩
+    simp only [← hwr]
+  | none =>
+    right
     simp only
-    have : s.toWrite - min data.length (s.lineLen - s.index) + (s.index + min data.length (s.lineLen - s.index)) = s.toWrite + s.index := by omega
-    rw [this]; exact hmult
+    -- the writer the image starts on
+    have key : ∃ wpre, CW.setFctlOpt ⟨w, cap, [], curr⟩ s.fctl = ⟨wpre, cap, [], curr⟩ ∧
+        JW imgOk C D W H V wpre ∧ StaticEq w wpre ∧ wpre.imagesWritten = w.imagesWritten ∧
+        validateNewImage wpre = none := by
+      cases hsf : s.fctl with
+      | none => exact ⟨w, rfl, hj, StaticEq.refl _, rfl, hv⟩
+      | some f =>
+        obtain ⟨j1, j2, j3⟩ := hj.setFctl f (hco.fc f hsf)
+        refine ⟨_, by simp only [CW.setFctlOpt]; exact CW.setFctl_w w cap [] curr f, j1, j2, j3, ?_⟩
+        rw [← hv]
+        unfold CW.setFctl validateNewImage
+        rcases opt_cases w.fctl with hf | ⟨cur, hf⟩ <;> simp only [hf, Option.isSome_some]
+    obtain ⟨wpre, hk, hjp, hstp, hcp, hvp⟩ := key
+    rw [hk]
+    obtain ⟨i1, i2, i3⟩ := hjp.frameInfo cap [] curr
+    obtain ⟨wH, h1, h2, h3, h4, h5⟩ := writeHeader_rel cap curr hjp.good (fun f hf => (hjp.fctl_facts hf).2.2.1)
+    rw [h1]
+    simp only [i1]
+    refine ⟨_, rfl, ?_, ?_, ⟨_, rfl⟩, rfl, rfl, rfl, rfl, rfl⟩
+    · refine SessInv.inside (wpre := wpre) (wH := wH) (fd := (chunkKind wpre == tyFDAT)) ?_ h2 hjp ?_ rfl ?_ hvp
+      · exact Inside.init h2.good h2.fdf hcap (chunkKind_eq wpre) rfl i2 i3 rfl hidx rfl (by simp) hrl
+      · exact (hco.static hstp).same ⟨rfl, rfl, rfl, rfl⟩
+      · intro f _ h0; rw [hcp] at h0; omega
+    · exact Nat.mul_pos i2 i3
 
 
 
-theorem writeAllAux_spec {w0 : WState} {Z : ZCodec} {cap : Nat} (fuel : Nat) :
-    ∀ (s : SW) (d : Bytes), SWInv w0 Z s cap → d.length ≤ s.toWrite → d.length < fuel →
-      ∃ s', SW.writeAllAux Z fuel s d = (s', .ok) ∧ SWInv w0 Z s' cap ∧ s'.toWrite = s.toWrite - d.length := by
+/-- `StreamWriter::new` on a `Writer` in a `JW` state: refused before anything is written, or the
+    stream writer stands at the first byte of an image -/
+theorem SessInv.new {imgOk : ImgRule} {C D W H : Nat} {V : Bool} (Z : ZCodec) {w : WState} (hj : JW imgOk C D W H V w)
+    (owned : Bool) (size : Nat) :
+    (∃ e, SW.new w owned size = (.inr (if owned then dropW w else w), .err e)) ∨
+    (∃ s, SW.new w owned size = (.inl s, .ok) ∧ SessInv imgOk C D W H V Z s ∧ s.owned = owned) := by
+  unfold SW.new
+  cases hc : streamChecks w with
+  | some e => left; exact ⟨e, rfl⟩
+  | none =>
+    right
+    simp only
+    -- the checks that passed
+    have hpal : ¬ (w.color = 3 ∧ w.hasPalette = false) := by
+      intro hp; simp [streamChecks, hp] at hc
+    have hrect : validateFirstImageRect w = none := by
+      unfold streamChecks at hc
+      rw [if_neg hpal] at hc
+      cases hv : validateNewImage w with
+      | some e => simp [hv] at hc
+      | none => simpa [hv] using hc
+    have h7 : ∀ f, w.fctl = some f → w.imagesWritten = 0 → f.x = 0 ∧ f.y = 0 ∧ f.w = w.width ∧ f.h = w.height := by
+      intro f hf h0
+      simp only [validateFirstImageRect, hf, h0, true_and] at hrect
+      by_cases hc' : f.x = 0 ∧ f.y = 0 ∧ f.w = w.width ∧ f.h = w.height
+      · exact hc'
+      · simp [hc'] at hrect
+    have hcap : 5 ≤ max (min chunkCap size) 5 := Nat.le_max_right _ _
+    obtain ⟨i1, i2, i3⟩ := hj.frameInfo (max (min chunkCap size) 5) [] (chunkKind w)
+    obtain ⟨wH, h1, h2, h3, h4, h5⟩ := writeHeader_rel (max (min chunkCap size) 5) (chunkKind w) hj.good
+      (fun f hf => (hj.fctl_facts hf).2.2.1)
+    simp only [CW.new, h1, i1]
+    refine ⟨_, rfl, ?_, rfl⟩
+    have hvn : validateNewImage w = none := by
+      unfold streamChecks at hc
+      rw [if_neg hpal] at hc
+      cases hv : validateNewImage w with
+      | some e => simp [hv] at hc
+      | none => rfl
+    refine SessInv.inside (wpre := w) (wH := wH) (fd := (chunkKind w == tyFDAT)) ?_ h2 hj ?_ rfl h7 hvn
+    · exact Inside.init h2.good h2.fdf hcap (chunkKind_eq w) rfl i2 i3 rfl rfl rfl (by simp) rfl
+    · exact ⟨rfl, rfl, rfl, hpal, fun f hf => by
+        have := hj.fctl_facts (f := f) hf; exact ⟨this.2.1, this.1⟩⟩
+
+/-- the fields of the stream writer that no `write` changes -/
+def SW.sameCopy (s s' : SW) : Prop :=
+  s'.owned = s.owned ∧ s'.fctl = s.fctl ∧ s'.width = s.width ∧ s'.height = s.height ∧ s'.bpp = s.bpp
+
+theorem SW.sameCopy.refl (s : SW) : SW.sameCopy s s := ⟨rfl, rfl, rfl, rfl, rfl⟩
+theorem SW.sameCopy.trans {a b c : SW} (h1 : SW.sameCopy a b) (h2 : SW.sameCopy b c) : SW.sameCopy a c :=
+  ⟨h2.1.trans h1.1, h2.2.1.trans h1.2.1, h2.2.2.1.trans h1.2.2.1, h2.2.2.2.1.trans h1.2.2.2.1, h2.2.2.2.2.trans h1.2.2.2.2⟩
+
+/-- `write` inside an image, with the image-level consequences drawn -/
+theorem SessInv.writeInside {imgOk : ImgRule} {C D W H : Nat} {V : Bool} {Z : ZCodec} (hZ : ZCodec.Ok imgOk Z C D)
+    {s : SW} {wpre wH : WState} {fd : Bool}
+    (hin : Inside Z wH fd (nextDims wpre).2 s) (hrel : HeaderRel wpre wH fd) (hj : JW imgOk C D W H V wpre)
+    (hco : CopyOk s wpre) (hL : s.lineLen = inLenOf wpre (nextDims wpre).1)
+    (h7 : ∀ f, wpre.fctl = some f → wpre.imagesWritten = 0 → f.x = 0 ∧ f.y = 0 ∧ f.w = wpre.width ∧ f.h = wpre.height)
+    (hvn : validateNewImage wpre = none)
+    (data : Bytes) (hd : data ≠ []) :
+    ∃ s' n, s.write Z data = (s', .ok n) ∧ 0 < n ∧ n ≤ data.length ∧ SessInv imgOk C D W H V Z s' ∧ SW.sameCopy s s' := by
+  obtain ⟨s', n, h1, h2, h3, h4, g1, g2, g3, g4, g5, g6⟩ := hin.write data hd
+  refine ⟨s', n, h1, h2, h3, ?_, ⟨g1, g2, g3, g4, g5⟩⟩
+  have hco' : CopyOk s' wpre := hco.same ⟨g2, g3, g4, g5⟩
+  rcases h4 with h4 | h4
+  · exact SessInv.inside h4 hrel hj hco' (by rw [g6]; exact hL) h7 hvn
+  · obtain ⟨cap, curr, ds, hist, curs, c1, c2, c3, c4, c5, c6, c7, c8⟩ := h4.st
+    have hbpp : s.bpp = bytesPerPixel wpre.color wpre.depth := hco.bpp
+    obtain ⟨j1, j2, j3⟩ := hj.afterImage hrel (by rw [hj.cd.1, hj.cd.2]; exact hZ) hco.pal h7 hvn ds hist curs c4 c5 c6
+      (by rw [← hL]; exact c7) (by rw [← hL, ← hbpp]; exact c8)
+    exact SessInv.between c2 c1 h4.tw h4.idx h4.released j1 j2 (hco'.static j3)
+
+theorem write_via_begin {Z : ZCodec} {s s1 : SW} {data : Bytes} (hu : s.wr ≠ .unrecoverable) (hd : data ≠ [])
+    (hb : s.beginIfDone Z = (s1, .ok)) (htw : s1.toWrite ≠ 0) (hu1 : s1.wr ≠ .unrecoverable) :
+    s.write Z data = s1.write Z data := by
+  have hb1 : s1.beginIfDone Z = (s1, .ok) := by unfold SW.beginIfDone; rw [if_neg htw]
+  unfold SW.write
+  rw [if_neg hu, if_neg hd, if_neg hu1, if_neg hd, hb, hb1]
+
+/-- one `write` call of a session on a sink that never fails: a non-empty prefix is taken, or — between
+    two images — the call is refused by `validate_new_image`; never a panic -/
+theorem SessInv.write {imgOk : ImgRule} {C D W H : Nat} {V : Bool} {Z : ZCodec} (hZ : ZCodec.Ok imgOk Z C D) {s : SW}
+    (h : SessInv imgOk C D W H V Z s) (data : Bytes) (hd : data ≠ []) :
+    (∃ e, s.write Z data = (s, .err e)) ∨
+    (∃ s' n, s.write Z data = (s', .ok n) ∧ 0 < n ∧ n ≤ data.length ∧ SessInv imgOk C D W H V Z s' ∧ SW.sameCopy s s') := by
+  cases h with
+  | inside hin hrel hj hco hL h7 hvn => exact Or.inr (SessInv.writeInside hZ hin hrel hj hco hL h7 hvn data hd)
+  | between hwr hcap htw hidx hrl hj hcnt hco =>
+    have hu : s.wr ≠ .unrecoverable := by rw [hwr]; simp
+    rcases SessInv.begin (Z := Z) hwr hcap htw hidx hrl hj hcnt hco with ⟨e, he⟩ | ⟨s1, hb, hs1, htw1, ⟨z, hz⟩, k1, k2, k3, k4, k5⟩
+    · left; refine ⟨e, ?_⟩
+      unfold SW.write; rw [if_neg hu, if_neg hd, he]
+    · right
+      have hu1 : s1.wr ≠ .unrecoverable := by rw [hz]; simp
+      rw [write_via_begin hu hd hb (by omega) hu1]
+      cases hs1 with
+      | between hw1 _ ht1 _ _ _ _ _ => omega
+      | inside hin hrel hj' hco' hL h7 hvn =>
+        obtain ⟨s', n, a1, a2, a3, a4, a5⟩ := SessInv.writeInside hZ hin hrel hj' hco' hL h7 hvn data hd
+        exact ⟨s', n, a1, a2, a3, a4, SW.sameCopy.trans ⟨k1, k2, k3, k4, k5⟩ a5⟩
+
+/-- `write_all`: `Ok`, or the refusal to start another image; never a panic -/
+theorem SessInv.writeAllAux {imgOk : ImgRule} {C D W H : Nat} {V : Bool} {Z : ZCodec} (hZ : ZCodec.Ok imgOk Z C D) (fuel : Nat) :
+    ∀ (s : SW) (d : Bytes), SessInv imgOk C D W H V Z s → d.length < fuel →
+      ∃ s', (SW.writeAllAux Z fuel s d).1 = s' ∧ SessInv imgOk C D W H V Z s' ∧ SW.sameCopy s s' ∧
+        (SW.writeAllAux Z fuel s d).2.isPanic = false := by
   induction fuel with
-  | zero => intro s d _ _ h; omega
+  | zero => intro s d _ h; omega
   | succ k ih =>
-    intro s d hs hle hlt
+    intro s d hs hlt
     simp only [SW.writeAllAux]
     by_cases hd : d = []
-    · rw [if_pos hd]; exact ⟨s, rfl, hs, by simp [hd]⟩
+    · rw [if_pos hd]; exact ⟨s, rfl, hs, SW.sameCopy.refl s, rfl⟩
     · rw [if_neg hd]
-      obtain ⟨s1, n, h1, h2, h3, h4, h5⟩ := hs.write d hd hle
-      rw [h1]
+      rcases hs.write hZ d hd with ⟨e, he⟩ | ⟨s1, n, h1, h2, h3, h4, h5⟩
+      · rw [he]; exact ⟨s, rfl, hs, SW.sameCopy.refl s, rfl⟩
+      · rw [h1]
+        simp only
+        have hn : ¬ n = 0 := by omega
+        rw [if_neg hn]
+        obtain ⟨s2, g1, g2, g3, g4⟩ := ih s1 (d.drop n) h4 (by simp only [List.length_drop]; omega)
+        exact ⟨s2, g1, g2, h5.trans g3, g4⟩
+
+theorem SessInv.writeAll {imgOk : ImgRule} {C D W H : Nat} {V : Bool} {Z : ZCodec} (hZ : ZCodec.Ok imgOk Z C D) {s : SW}
+    (h : SessInv imgOk C D W H V Z s) (d : Bytes) :
+    SessInv imgOk C D W H V Z (s.writeAll Z d).1 ∧ SW.sameCopy s (s.writeAll Z d).1 ∧ (s.writeAll Z d).2.isPanic = false := by
+  obtain ⟨s', h1, h2, h3, h4⟩ := SessInv.writeAllAux hZ (d.length + 1) s d h (Nat.lt_succ_self _)
+  unfold SW.writeAll
+  rw [h1]; exact ⟨h2, h3, h4⟩
+
+
+
+theorem writtenOf_snoc_flush (h : List ZOp) : writtenOf (h ++ [ZOp.flush]) = writtenOf h := by
+  simp [writtenOf]
+
+/-- type invariants of the arguments of the stream writer's setters (`u16` delays, enum discriminants) -/
+def SetOp.inRange : SetOp → Prop
+  | .delay n d => n < 2 ^ 16 ∧ d < 2 ^ 16
+  | .blend b => b ≤ 1
+  | .dispose d => d ≤ 2
+  | _ => True
+
+instance (o : SetOp) : Decidable o.inRange := by
+  cases o <;> simp only [SetOp.inRange] <;> infer_instance
+
+def SOp.inRange : SOp → Prop
+  | .set o => o.inRange
+  | _ => True
+
+instance (o : SOp) : Decidable o.inRange := by
+  cases o <;> simp only [SOp.inRange] <;> infer_instance
+
+/-- the frame setters on a frame control inside a canvas (`cw × ch`, both `< 2^32`): never a panic, and the
+    result is again inside the canvas and in range -/
+theorem setFc_spec (cw ch : Nat) (hcw : cw < 2 ^ 32) (hch : ch < 2 ^ 32) (fc : Option FC) (o : SetOp) (ho : o.inRange)
+    (hfc : ∀ f, fc = some f → (0 < f.w ∧ 0 < f.h ∧ f.x + f.w ≤ cw ∧ f.y + f.h ≤ ch) ∧ f.inRange) :
+    (setFc cw ch fc o).2.isPanic = false ∧
+    ∀ f, (setFc cw ch fc o).1 = some f → (0 < f.w ∧ 0 < f.h ∧ f.x + f.w ≤ cw ∧ f.y + f.h ≤ ch) ∧ f.inRange := by
+  unfold setFc
+  cases hf : fc with
+  | none => exact ⟨rfl, fun f h => by cases h⟩
+  | some f =>
+    obtain ⟨⟨q1, q2, q3, q4⟩, r1, r2, r3, r4, r5, r6, r7, r8, r9⟩ := hfc f hf
+    cases o with
+    | delay n d =>
+      refine ⟨rfl, fun g hg => ?_⟩
+      simp only [Option.some.injEq] at hg; subst hg
+      exact ⟨⟨q1, q2, q3, q4⟩, r1, r2, r3, r4, r5, ho.1, ho.2, r8, r9⟩
+    | blend b =>
+      refine ⟨rfl, fun g hg => ?_⟩
+      simp only [Option.some.injEq] at hg; subst hg
+      exact ⟨⟨q1, q2, q3, q4⟩, r1, r2, r3, r4, r5, r6, r7, r8, ho⟩
+    | dispose d =>
+      refine ⟨rfl, fun g hg => ?_⟩
+      simp only [Option.some.injEq] at hg; subst hg
+      exact ⟨⟨q1, q2, q3, q4⟩, r1, r2, r3, r4, r5, r6, r7, ho, r9⟩
+    | resetPos =>
+      refine ⟨rfl, fun g hg => ?_⟩
+      simp only [Option.some.injEq] at hg; subst hg
+      exact ⟨⟨q1, q2, by dsimp only; omega, by dsimp only; omega⟩, r1, r2, r3, by dsimp only; omega, by dsimp only; omega, r6, r7, r8, r9⟩
+    | resetDim =>
+      have hn : ¬ (cw < f.x ∨ ch < f.y) := by omega
+      simp only [hn, if_false]
+      refine ⟨rfl, fun g hg => ?_⟩
+      simp only [Option.some.injEq] at hg; subst hg
+      exact ⟨⟨by dsimp only; omega, by dsimp only; omega, by dsimp only; omega, by dsimp only; omega⟩,
+        r1, by dsimp only; omega, by dsimp only; omega, r4, r5, r6, r7, r8, r9⟩
+    | dim w h =>
       simp only
-      have hn : ¬ n = 0 := by omega
-      rw [if_neg hn]
-      obtain ⟨s2, g1, g2, g3⟩ := ih s1 (d.drop n) h4 (by simp only [List.length_drop]; omega)
-        (by simp only [List.length_drop]; omega)
-      refine ⟨s2, g1, g2, ?_⟩
-      rw [g3, h5]; simp only [List.length_drop]; omega
+      cases hg : (gtCheckedSub w cw f.x || gtCheckedSub h ch f.y) with
+      | true => simp only [if_true]; exact ⟨rfl, fun g hg' => hfc g (by rw [hf]; exact hg')⟩
+      | false =>
+        simp only [Bool.or_eq_false_iff] at hg
+        obtain ⟨a1, a2⟩ := gtCheckedSub_false hg.1
+        obtain ⟨b1, b2⟩ := gtCheckedSub_false hg.2
+        simp only [Bool.false_eq_true, if_false]
+        by_cases hw : w = 0
+        · simp only [hw, if_true]; exact ⟨rfl, fun g hg' => hfc g (by rw [hf]; exact hg')⟩
+        · by_cases hh : h = 0
+          · simp only [hw, hh, if_true, if_false]; exact ⟨rfl, fun g hg' => hfc g (by rw [hf]; exact hg')⟩
+          · simp only [hw, hh, if_false]
+            refine ⟨rfl, fun g hg' => ?_⟩
+            simp only [Option.some.injEq] at hg'; subst hg'
+            exact ⟨⟨by dsimp only; omega, by dsimp only; omega, by dsimp only; omega, by dsimp only; omega⟩,
+              r1, by dsimp only; omega, by dsimp only; omega, r4, r5, r6, r7, r8, r9⟩
+    | pos x y =>
+      simp only
+      cases hg : (gtCheckedSub x cw f.w || gtCheckedSub y ch f.h) with
+      | true => simp only [if_true]; exact ⟨rfl, fun g hg' => hfc g (by rw [hf]; exact hg')⟩
+      | false =>
+        simp only [Bool.or_eq_false_iff] at hg
+        obtain ⟨a1, a2⟩ := gtCheckedSub_false hg.1
+        obtain ⟨b1, b2⟩ := gtCheckedSub_false hg.2
+        simp only [Bool.false_eq_true, if_false]
+        refine ⟨rfl, fun g hg' => ?_⟩
+        simp only [Option.some.injEq] at hg'; subst hg'
+        exact ⟨⟨q1, q2, by dsimp only; omega, by dsimp only; omega⟩,
+          r1, r2, r3, by dsimp only; omega, by dsimp only; omega, r6, r7, r8, r9⟩
 
-theorem SWInv.writeAll {w0 : WState} {Z : ZCodec} {s : SW} {cap : Nat} (h : SWInv w0 Z s cap) (d : Bytes)
-    (hle : d.length ≤ s.toWrite) :
-    ∃ s', s.writeAll Z d = (s', .ok) ∧ SWInv w0 Z s' cap ∧ s'.toWrite = s.toWrite - d.length :=
-  writeAllAux_spec (d.length + 1) s d h hle (Nat.lt_succ_self _)
 
-/-- `flush`: `Ok`, or `WrittenTooMuch` in the middle of a row; never a panic; the invariant stays -/
-theorem SWInv.flush {w0 : WState} {Z : ZCodec} {s : SW} {cap : Nat} (h : SWInv w0 Z s cap) :
-    ∃ s', (s.flush Z).1 = s' ∧ SWInv w0 Z s' cap ∧ s'.toWrite = s.toWrite ∧ s'.index = s.index ∧
-      (s.flush Z).2 = (if s.index > 0 then .err .writtenTooMuch else .ok) := by
-  obtain ⟨z, hz, hzi, hzf⟩ := h.wr
-  obtain ⟨z', f1, f2, f3, _⟩ := hzi.flush
-  unfold SW.flush
-  simp only [hz, f1]
-  have hzf' : z'.finished = false := by
-    simp only [ZEnc.finished] at hzf ⊢; rw [f3]; exact finished_snoc hzf (by simp)
-  have hinv : SWInv w0 Z { s with wr := .zlib z' } cap :=
-    ⟨⟨z', rfl, f2, hzf'⟩, h.cur, h.prev, h.pos, h.idx, h.mult, h.fctl, h.owned, h.released⟩
-  by_cases hi : s.index > 0
-  · simp only [hi, if_true]; exact ⟨_, rfl, hinv, rfl, rfl, trivial⟩
-  · simp only [hi, if_false]; exact ⟨_, rfl, hinv, rfl, rfl, trivial⟩
 
-def SOp.size : SOp → Nat
-  | .write d => d.length
-  | _ => 0
 
-def totalWritten (ops : List SOp) : Nat := (ops.map SOp.size).sum
+theorem flushInner_empty (w : WState) (cap : Nat) (curr : Ty) :
+    (⟨w, cap, [], curr⟩ : CW).flushInner = (⟨w, cap, [], curr⟩, .ok) := by simp [CW.flushInner]
 
-/-- any sequence of stream operations that does not write more than the image -/
-theorem SWInv.runSOps {w0 : WState} {Z : ZCodec} {cap : Nat} (ops : List SOp) :
-    ∀ {s : SW}, SWInv w0 Z s cap → totalWritten ops ≤ s.toWrite →
-      ∃ s', (Enc.runSOps Z s ops).1 = s' ∧ SWInv w0 Z s' cap ∧ s'.toWrite = s.toWrite - totalWritten ops ∧
-        anyPanic (Enc.runSOps Z s ops).2 = false := by
+theorem SW.wr_eta {s : SW} {x : Wrap} (h : s.wr = x) : { s with wr := x } = s := by
+  cases s; simp only at h; subst h; rfl
+
+theorem Inside.setFctl {Z : ZCodec} {wH : WState} {fd : Bool} {fh : Nat} {s : SW} (h : Inside Z wH fd fh s)
+    (fc : Option FC) : Inside Z wH fd fh { s with fctl := fc } :=
+  ⟨h.st, h.cur, h.pos, h.idx, h.tw, h.released⟩
+
+/-- `flush` of a session on a sink that never fails: `Ok`, or `WrittenTooMuch` in the middle of a row -/
+theorem SessInv.flush {imgOk : ImgRule} {C D W H : Nat} {V : Bool} {Z : ZCodec} {s : SW} (h : SessInv imgOk C D W H V Z s) :
+    SessInv imgOk C D W H V Z (s.flush Z).1 ∧ SW.sameCopy s (s.flush Z).1 ∧ (s.flush Z).2.isPanic = false ∧
+    (s.flush Z).1.toWrite = s.toWrite := by
+  cases h with
+  | between hwr hcap htw hidx hrl hj hcnt hco =>
+    rename_i w cap curr
+    have : s.flush Z = (s, .ok) := by
+      simp only [SW.flush, hwr, flushInner_empty]
+      rw [← hwr]
+      have hi : ¬ s.index > 0 := by omega
+      rw [if_neg hi]
+    rw [this]
+    exact ⟨SessInv.between hwr hcap htw hidx hrl hj hcnt hco, SW.sameCopy.refl s, rfl, rfl⟩
+  | inside hin hrel hj hco hL h7 hvn =>
+    obtain ⟨z, curs, hz, hzi, hnf, hcount, hrows, hwo, hprev⟩ := hin.st
+    obtain ⟨z', f1, f2, f3, f4⟩ := hzi.flush
+    have hin' : Inside Z _ _ _ { s with wr := .zlib z' } :=
+      ⟨⟨z', curs, rfl, f2, by simp only [ZEnc.finished, f3]; exact finished_snoc hnf (by simp), hcount, hrows,
+        by rw [f3, writtenOf_snoc_flush]; exact hwo, hprev⟩, hin.cur, hin.pos, hin.idx, hin.tw, hin.released⟩
+    have hs' : SessInv imgOk C D W H V Z { s with wr := .zlib z' } :=
+      SessInv.inside hin' hrel hj (hco.same ⟨rfl, rfl, rfl, rfl⟩) hL h7 hvn
+    simp only [SW.flush, hz, f1]
+    by_cases hi : s.index > 0
+    · rw [if_pos hi]; exact ⟨hs', ⟨rfl, rfl, rfl, rfl, rfl⟩, rfl, rfl⟩
+    · rw [if_neg hi]; exact ⟨hs', ⟨rfl, rfl, rfl, rfl, rfl⟩, rfl, rfl⟩
+
+/-- a frame setter on the stream writer's copy -/
+theorem SessInv.set {imgOk : ImgRule} {C D W H : Nat} {V : Bool} {Z : ZCodec} {s : SW} (h : SessInv imgOk C D W H V Z s)
+    (o : SetOp) (ho : o.inRange) :
+    SessInv imgOk C D W H V Z { s with fctl := (setFc s.width s.height s.fctl o).1 } ∧
+    (setFc s.width s.height s.fctl o).2.isPanic = false := by
+  have key : ∀ w : WState, JW imgOk C D W H V w → CopyOk s w →
+      CopyOk { s with fctl := (setFc s.width s.height s.fctl o).1 } w ∧
+      (setFc s.width s.height s.fctl o).2.isPanic = false := by
+    intro w hj hco
+    obtain ⟨g1, g2⟩ := setFc_spec s.width s.height (by rw [hco.width]; exact hj.dims.1) (by rw [hco.height]; exact hj.dims.2)
+      s.fctl o ho (fun f hf => by
+        have := hco.fc f hf
+        simp only [RectOk, ← hco.width, ← hco.height] at this; exact this)
+    refine ⟨⟨hco.width, hco.height, hco.bpp, hco.pal, fun f hf => ?_⟩, g1⟩
+    have := g2 f hf
+    simp only [RectOk, ← hco.width, ← hco.height]; exact this
+  cases h with
+  | between hwr hcap htw hidx hrl hj hcnt hco =>
+    obtain ⟨k1, k2⟩ := key _ hj hco
+    exact ⟨SessInv.between hwr hcap htw hidx hrl hj hcnt k1, k2⟩
+  | inside hin hrel hj hco hL h7 hvn =>
+    obtain ⟨k1, k2⟩ := key _ hj hco
+    exact ⟨SessInv.inside (hin.setFctl _) hrel hj k1 hL h7 hvn, k2⟩
+
+/-- one operation of a session -/
+theorem SessInv.step {imgOk : ImgRule} {C D W H : Nat} {V : Bool} {Z : ZCodec} (hZ : ZCodec.Ok imgOk Z C D) {s : SW}
+    (h : SessInv imgOk C D W H V Z s) (op : SOp) (hr : op.inRange) :
+    SessInv imgOk C D W H V Z (streamStep Z s op).1 ∧ (streamStep Z s op).1.owned = s.owned ∧
+    (streamStep Z s op).2.isPanic = false := by
+  cases op with
+  | write d => obtain ⟨a, b, c⟩ := h.writeAll hZ d; exact ⟨a, b.1, c⟩
+  | flush => obtain ⟨a, b, c, _⟩ := h.flush; exact ⟨a, b.1, c⟩
+  | set o => obtain ⟨a, b⟩ := h.set o hr; exact ⟨a, rfl, b⟩
+
+/-- all operations of a session -/
+theorem SessInv.runSOps {imgOk : ImgRule} {C D W H : Nat} {V : Bool} {Z : ZCodec} (hZ : ZCodec.Ok imgOk Z C D) (ops : List SOp) :
+    ∀ {s : SW}, SessInv imgOk C D W H V Z s → (∀ o ∈ ops, o.inRange) →
+      SessInv imgOk C D W H V Z (Enc.runSOps Z s ops).1 ∧ (Enc.runSOps Z s ops).1.owned = s.owned ∧
+      anyPanic (Enc.runSOps Z s ops).2 = false := by
   induction ops with
-  | nil => intro s hs _; exact ⟨s, rfl, hs, by simp [totalWritten], rfl⟩
+  | nil => intro s h _; exact ⟨h, rfl, rfl⟩
   | cons op ops ih =>
-    intro s hs hle
-    simp only [totalWritten, List.map_cons, List.sum_cons] at hle
-    have key : ∃ s1 r, streamStep Z s op = (s1, r) ∧ r.isPanic = false ∧ SWInv w0 Z s1 cap ∧ s1.toWrite = s.toWrite - op.size := by
-      cases op with
-      | write d =>
-        obtain ⟨s1, h1, h2, h3⟩ := hs.writeAll d (by simp only [SOp.size] at hle; omega)
-        exact ⟨s1, .ok, h1, rfl, h2, h3⟩
-      | flush =>
-        obtain ⟨s1, h1, h2, h3, _, h5⟩ := hs.flush
-        refine ⟨s1, (s.flush Z).2, by simp only [streamStep]; rw [← h1], ?_, h2, by simp [SOp.size, h3]⟩
-        rw [h5]; split <;> rfl
-      | set o =>
-        refine ⟨s, .err .notAnimated, ?_, rfl, hs, by simp [SOp.size]⟩
-        simp only [streamStep, setFc, hs.fctl]
-        have := hs.fctl
-        cases s; simp_all
-    obtain ⟨s1, r, k1, k2, k3, k4⟩ := key
-    obtain ⟨s2, g1, g2, g3, g4⟩ := ih k3 (by rw [k4]; simp only [totalWritten]; omega)
-    simp only [Enc.runSOps, k1]
-    cases r with
-    | panic p => cases k2
-    | ok =>
-      simp only
-      refine ⟨s2, g1, g2, ?_, by simpa [anyPanic, Res.isPanic] using g4⟩
-      rw [g3, k4]; simp only [totalWritten, List.map_cons, List.sum_cons]; omega
-    | err e =>
-      simp only
-      refine ⟨s2, g1, g2, ?_, by simpa [anyPanic, Res.isPanic] using g4⟩
-      rw [g3, k4]; simp only [totalWritten, List.map_cons, List.sum_cons]; omega
+    intro s h hr
+    obtain ⟨a, b, c⟩ := h.step hZ op (hr op (by simp))
+    obtain ⟨a2, b2, c2⟩ := ih a (fun o ho => hr o (by simp [ho]))
+    simp only [Enc.runSOps]
+    cases hst : streamStep Z s op with
+    | mk s' r =>
+      rw [hst] at a b c a2 b2 c2
+      cases r with
+      | panic p => cases c
+      | ok => exact ⟨a2, b2.trans b, by simpa [anyPanic, Res.isPanic] using c2⟩
+      | err e => exact ⟨a2, b2.trans b, by simpa [anyPanic, Res.isPanic] using c2⟩
+
+
+/-- a session whose current image is complete stands between two images -/
+theorem SessInv.atEnd {imgOk : ImgRule} {C D W H : Nat} {V : Bool} {Z : ZCodec} {s : SW} (h : SessInv imgOk C D W H V Z s)
+    (htw : s.toWrite = 0) :
+    ∃ w cap curr, s.wr = .chunk ⟨w, cap, [], curr⟩ ∧ JW imgOk C D W H V w ∧ 0 < w.imagesWritten ∧ s.index = 0 := by
+  cases h with
+  | between hwr hcap _ hidx hrl hj hcnt hco => exact ⟨_, _, _, hwr, hj, hcnt, hidx⟩
+  | inside hin _ _ _ _ _ _ => have := hin.tw; omega
+
+theorem flush_between {Z : ZCodec} {s : SW} {w : WState} {cap : Nat} {curr : Ty}
+    (hwr : s.wr = .chunk ⟨w, cap, [], curr⟩) (hidx : s.index = 0) : s.flush Z = (s, .ok) := by
+  simp only [SW.flush, hwr, flushInner_empty]
+  rw [← hwr]
+  have hi : ¬ s.index > 0 := by omega
+  rw [if_neg hi]
+
+/-- dropping a stream writer between two images: nothing is written (but the IEND of an owned `Writer`) -/
+theorem drop_between {Z : ZCodec} {s : SW} {w : WState} {cap : Nat} {curr : Ty}
+    (hwr : s.wr = .chunk ⟨w, cap, [], curr⟩) (hidx : s.index = 0) (fb : WState) :
+    (s.drop Z).2 = .ok ∧ (s.drop Z).1.writerState fb = (if s.owned then dropW w else w) := by
+  simp only [SW.drop, flush_between hwr hidx, hwr, Wrap.drop, CW.drop, flushInner_empty, SW.release, SW.writerState]
+  exact ⟨trivial, trivial⟩
+
+theorem writeIend_good {w : WState} (hg : w.sink.good) :
+    writeIend w = ({ w with iendWritten := true, sink := (w.sink.emitChunks [iendChunk]).1 }, true) ∧
+    (w.sink.emitChunks [iendChunk]).1.good := by
+  obtain ⟨e1, e2⟩ := WState.emit_good_eq (s := { w with iendWritten := true }) hg [iendChunk]
+  exact ⟨by simp only [writeIend, e1], e2⟩
+
+theorem flush_good {k : Sink} (hg : k.good) : (k.flush).2 = true := by simp [Sink.flush, hg.2]
+
+/-- `finish` of a stream writer between two images on a sink that never fails: the sequence check
+    decides; an owned `Writer` is closed (by `finish` itself, or by its drop when the check fails) -/
+theorem finish_between {Z : ZCodec} {s : SW} {w : WState} {cap : Nat} {curr : Ty}
+    (hwr : s.wr = .chunk ⟨w, cap, [], curr⟩) (hidx : s.index = 0) (htw : s.toWrite = 0)
+    (hg : w.sink.good) (hie : w.iendWritten = false) (fb : WState) :
+    (s.finish Z).2 = (match validateSequenceDone w with | some e => .err e | none => .ok) ∧
+    (s.finish Z).1.writerState fb =
+      (if s.owned then
+        (match validateSequenceDone w with
+         | some _ => dropW w
+         | none => { dropW w with sink := ((dropW w).sink.flush).1 })
+       else w) := by
+  have h0 : ¬ s.toWrite > 0 := by omega
+  obtain ⟨wi, wg⟩ := writeIend_good hg
+  have hd : dropW w = { w with iendWritten := true, sink := (w.sink.emitChunks [iendChunk]).1 } := by
+    simp [dropW, hie, wi]
+  rw [hd]
+  simp only [SW.finish, if_neg h0, flush_between hwr hidx, hwr, SW.finishChunk]
+  cases hv : validateSequenceDone w with
+  | some e =>
+    simp only [CW.drop, flushInner_empty, SW.writerState, hd]
+    exact ⟨trivial, trivial⟩
+  | none =>
+    cases ho : s.owned with
+    | false =>
+      simp only [CW.drop, flushInner_empty, SW.writerState, Bool.false_eq_true, if_false]
+      exact ⟨trivial, trivial⟩
+    | true =>
+      simp only [if_true, wi]
+      have hf := flush_good wg
+      cases hfl : (w.sink.emitChunks [iendChunk]).1.flush with
+      | mk k okf =>
+        rw [hfl] at hf; simp only at hf; subst hf
+        simp only [CW.drop, flushInner_empty, SW.writerState, if_true, dropW, ↓reduceIte]
+        exact ⟨trivial, trivial⟩
 
 
 
-/-- what the session needs of the `Writer` it starts on: a still picture, nothing written yet,
-    a sink that never fails, an image whose size fits `usize` -/
-structure StillStart (w : WState) : Prop where
-  pal : ¬ (w.color = 3 ∧ w.hasPalette = false)
-  fctl : w.fctl = none
-  img0 : w.imagesWritten = 0
-  good : w.sink.good
-  valid : 0 < w.width ∧ colorOk w.color = true ∧ depthOk w.depth = true
-  fits : inLenOf w w.width * w.height < 2 ^ 64
 
-theorem SW.new_still {w : WState} (hw : StillStart w) (Z : ZCodec) (size : Nat) (hs : 0 < size) :
-    ∃ s, SW.new w false size = (.inl s, .ok) ∧ SWInv w Z s (min chunkCap size) ∧
-      s.toWrite = inLenOf w w.width * w.height := by
-  have hpos : 0 < inLenOf w w.width := inLen_pos hw.valid.2.1 hw.valid.2.2 hw.valid.1
-  have hnd : nextDims w = (w.width, w.height) := by simp [nextDims, hw.fctl]
-  have hnf : (CW.new w size).nextFrameInfo = (inLenOf w w.width, inLenOf w w.width * w.height) := by
-    simp only [CW.nextFrameInfo, CW.new, hnd]
-    rw [if_pos hw.fits]
-  have hrect : validateFirstImageRect w = none := by simp [validateFirstImageRect, hw.fctl]
-  have hwh : (CW.new w size).writeHeader = (CW.new w size, .ok) := by
-    simp only [CW.writeHeader, CW.new, hw.fctl, hw.img0]
-    simp
-  unfold SW.new
-  rw [if_neg hw.pal]
-  simp only [hrect, hnf, hwh]
-  have hcap : 0 < min chunkCap size := by simp only [chunkCap]; omega
-  refine ⟨_, rfl, ?_, rfl⟩
-  have hcw : CWInv w (CW.new w size) [] :=
-    ⟨rfl, hw.fctl, hw.img0, hw.good, by simp [CW.new, hw.img0], hcap, by simpa [CW.new] using hcap,
-      ⟨[], by simp [CW.new], rfl, by simp⟩⟩
+/-! ### sessions and programs on a sink that never fails -/
+
+theorem inLen_le {color depth w : Nat} (hd : depthOk depth = true) :
+    rawRowLengthFromWidth color depth w - 1 ≤ 8 * w := by
+  have hs : samplesOf color ≤ 4 := by unfold samplesOf; split <;> omega
+  have hws : w * samplesOf color ≤ 4 * w := by rw [Nat.mul_comm 4 w]; exact Nat.mul_le_mul_left w hs
+  simp only [depthOk, Bool.or_eq_true, beq_iff_eq] at hd
+  unfold rawRowLengthFromWidth
+  generalize w * samplesOf color = n at hws
+  rcases hd with (((h | h) | h) | h) | h <;> subst h <;> simp <;> (try split) <;> omega
+
+/-- the canvas is small enough for `usize` arithmetic on whole images (8 bytes per pixel at most) -/
+def Cfg.Small (c : Cfg) : Prop := 8 * c.width * c.height < 2 ^ 64
+
+instance (c : Cfg) : Decidable c.Small := by unfold Cfg.Small; infer_instance
+
+theorem Fits.ofSmall {w : WState} (hd : depthOk w.depth = true) (h : 8 * w.width * w.height < 2 ^ 64) : Fits w := by
+  intro fw fh h1 h2
+  have a : inLenOf w fw ≤ 8 * fw := inLen_le hd
+  have b : inLenOf w fw * fh ≤ (8 * fw) * fh := Nat.mul_le_mul_right fh a
+  have c : (8 * fw) * fh ≤ (8 * w.width) * w.height := Nat.mul_le_mul (Nat.mul_le_mul_left 8 h1) h2
+  omega
+
+/-- the state after a successful `write_header` on a sink that never fails -/
+theorem JW.header (imgOk : ImgRule) (c : Cfg) (hw : c.WellFormed) (hsm : c.Small) {s : WState}
+    (h : writeHeader c {} = (s, .ok)) : JW imgOk c.color c.depth c.width c.height c.validate s := by
+  obtain ⟨inv, hst, _⟩ := header_inv imgOk c hw h
+  obtain ⟨_, _, hatt, _⟩ := (header_spec c {} hw.1 hw.2.1 (fun r hr => by
+    have := hw.2.2.2 r hr
+    intro hi; rw [hi] at this; revert this; decide)).2.1 (by rw [h])
+  rw [h] at hatt
+  have h0 : s.imagesWritten = 0 := inv.phPre.mpr rfl
   exact {
-    wr := ⟨{ cw := CW.new w size }, rfl, ⟨⟨[], hcw, rfl⟩, rfl⟩, rfl⟩
-    cur := by simp
-    prev := by simp
-    pos := hpos
-    idx := hpos
-    mult := by simp
-    fctl := hw.fctl
-    owned := rfl
-    released := rfl }
+    cd := ⟨hst.2.2.1, hst.2.2.2.1⟩
+    wh := ⟨hst.1, hst.2.1⟩
+    vl := hst.2.2.2.2.2.2.2
+    dims := inv.dims
+    good := inv.good
+    safe := ⟨fun f hf => (inv.fc f hf).2.2.1, inv.valid⟩
+    iend := inv.iend
+    att := hatt
+    fits := Fits.ofSmall inv.valid.2.2.2 (by rw [hst.1, hst.2.1]; exact hsm)
+    actlB := inv.actlR
+    inv := fun _ => ⟨0, 0, .pre, inv⟩
+    over := by intro hlt; omega
+    val := by intro _; omega }
 
-/-- the end of the session, `finish()` or drop, after the whole image was written: no error is
-    possible any more; the `Writer` is handed back with only its sink changed, and the sink holds, after
-    the chunks it had, IDAT chunks whose payloads concatenate to everything the compressor produced -/
-theorem SWInv.finish_drop {w0 : WState} {Z : ZCodec} {s : SW} {cap : Nat} (h : SWInv w0 Z s cap)
-    (hdone : s.toWrite = 0) (fin : Final) :
-    ∃ s' k hist, (match fin with | .finish => s.finish Z | .drop => s.drop Z) = (s', .ok) ∧
-      s'.writerState w0 = { w0 with sink := k } ∧ k.good ∧
-      ∃ ds : List Bytes, k.chunks = w0.sink.chunks ++ ds.map mkIdat ∧
-        ds.flatten = outs Z (hist ++ [ZOp.finish]) ∧ ∀ d ∈ ds, d ≠ [] := by
-  have hi0 : s.index = 0 := by
-    have hm := h.mult
-    rw [hdone, Nat.zero_add, Nat.mod_eq_of_lt h.idx] at hm; exact hm
-  obtain ⟨s1, f1, f2, f3, f4, f5⟩ := h.flush
-  rw [hi0] at f5
-  simp only [Nat.lt_irrefl, if_false, gt_iff_lt] at f5
-  obtain ⟨z, hz, hzi, hzf⟩ := f2.wr
-  obtain ⟨k, d1, d2, ds, d3, d4, d5⟩ := hzi.drop hzf
-  have hfl : s.flush Z = (s1, .ok) := by rw [← f1, ← f5]
-  refine ⟨({ s1 with wr := .none }).release (some { w0 with sink := k }), k, z.hist, ?_, ?_, d2, ds, d3, d4, d5⟩
-  · cases fin with
-    | finish =>
-      simp only [SW.finish]
-      have : ¬ s.toWrite > 0 := by omega
-      rw [if_neg this, hfl]
-      simp only [hz, Wrap.drop, d1, f2.owned]
-    | drop =>
-      simp only [SW.drop, hfl, hz, Wrap.drop, d1, f2.owned]
-  · simp [SW.release, SW.writerState]
+/-- the stream-writer session leaves no image unfinished: after the last operation the writer stands
+    between two images (`new` refused: nothing was started) -/
+def SessionComplete (Z : ZCodec) (w : WState) (owned : Bool) (size : Nat) (ops : List SOp) : Prop :=
+  match SW.new w owned size with
+  | (.inl s, _) => (runSOps Z s ops).1.toWrite = 0
+  | _ => True
 
+instance (Z : ZCodec) (w : WState) (owned : Bool) (size : Nat) (ops : List SOp) :
+    Decidable (SessionComplete Z w owned size ops) := by
+  unfold SessionComplete; split <;> infer_instance
 
+/-- the `Writer` with the sink flushed once -/
+def flushedW (w : WState) : WState := { w with sink := (w.sink.flush).1 }
 
-/-- a whole borrowed stream-writer session that writes exactly one still image, in pieces of any
-    size, with any flushes and (refused) setter calls in between -/
-theorem still_session {w : WState} (hw : StillStart w) (Z : ZCodec) (size : Nat) (hs : 0 < size)
-    (ops : List SOp) (htot : totalWritten ops = inLenOf w w.width * w.height) (fin : Final) :
-    anyPanic (streamSession Z w false size ops fin).2 = false ∧
-    (streamSession Z w false size ops fin).2.getLast? = some .ok ∧
-    ∃ k hist, (streamSession Z w false size ops fin).1 = { w with sink := k } ∧ k.good ∧
-      ∃ ds : List Bytes, k.chunks = w.sink.chunks ++ ds.map mkIdat ∧
-        ds.flatten = outs Z (hist ++ [ZOp.finish]) ∧ ∀ d ∈ ds, d ≠ [] := by
-  obtain ⟨s0, n1, n2, n3⟩ := SW.new_still hw Z size hs
-  obtain ⟨s1, r1, r2, r3, r4⟩ := n2.runSOps ops (by rw [n3, htot]; exact Nat.le_refl _)
-  have hdone : s1.toWrite = 0 := by rw [r3, n3, htot]; omega
-  obtain ⟨s2, k, hist, e1, e2, e3, ds, e4, e5, e6⟩ := r2.finish_drop hdone fin
+theorem last_snoc {α : Type} (a : α) (l : List α) (x : α) : (a :: (l ++ [x])).getLast? = some x := by
+  have : a :: (l ++ [x]) = (a :: l) ++ [x] := rfl
+  rw [this, List.getLast?_append]; rfl
+
+/-- one complete session on a `Writer` in a `JW` state, sink that never fails: no panic; a borrowed
+    `Writer` is in a `JW` state again; an owned one is closed — by `finish` (IEND and sink flush)
+    or by the drop (IEND); `finish` returns `Ok` exactly when `new` succeeded and the sequence check passes -/
+theorem session_spec {imgOk : ImgRule} {C D W H : Nat} {V : Bool} {Z : ZCodec} (hZ : ZCodec.Ok imgOk Z C D) {w : WState}
+    (hj : JW imgOk C D W H V w) (owned : Bool) (size : Nat) (ops : List SOp) (fin : Final)
+    (hr : ∀ o ∈ ops, o.inRange) (hc : SessionComplete Z w owned size ops) :
+    anyPanic (streamSession Z w owned size ops fin).2 = false ∧
+    ∃ w', JW imgOk C D W H V w' ∧
+      (owned = false → (streamSession Z w owned size ops fin).1 = w') ∧
+      (owned = true → (streamSession Z w owned size ops fin).1 = dropW w' ∨
+        ((streamSession Z w owned size ops fin).1 = flushedW (dropW w') ∧ fin = .finish ∧ validateSequenceDone w' = none)) ∧
+      ∃ r, (streamSession Z w owned size ops fin).2.getLast? = some r ∧
+        (fin = .finish → (r = .ok ↔ (SW.new w owned size).2 = .ok ∧ validateSequenceDone w' = none)) := by
   unfold streamSession
-  simp only [n1]
-  cases hro : Enc.runSOps Z s0 ops with
-  | mk sA rs =>
-    rw [hro] at r1 r4
-    simp only at r1 r4
-    subst r1
-    simp only [r4, Bool.false_eq_true, if_false]
-    cases fin with
-    | finish =>
-      simp only at e1 ⊢
-      rw [e1]
-      refine ⟨?_, by rw [List.getLast?_append]; simp, k, hist, e2, e3, ds, e4, e5, e6⟩
-      simp only [anyPanic, List.any_cons, List.any_append, Res.isPanic, Bool.false_or, List.any_nil, Bool.or_false]
-      exact r4
-    | drop =>
-      simp only at e1 ⊢
-      rw [e1]
-      refine ⟨?_, by rw [List.getLast?_append]; simp, k, hist, e2, e3, ds, e4, e5, e6⟩
-      simp only [anyPanic, List.any_cons, List.any_append, Res.isPanic, Bool.false_or, List.any_nil, Bool.or_false]
-      exact r4
+  unfold SessionComplete at hc
+  rcases SessInv.new Z hj owned size with ⟨e, he⟩ | ⟨s, hs, hsi, hso⟩
+  · rw [he]
+    simp only
+    refine ⟨rfl, w, hj, fun ho => by simp [ho], fun ho => Or.inl (by simp [ho]), .err e, rfl, fun _ => ?_⟩
+    constructor
+    · intro h; cases h
+    · intro h; cases h.1
+  · rw [hs] at hc ⊢
+    simp only at hc ⊢
+    obtain ⟨a, b, c⟩ := hsi.runSOps hZ ops hr
+    cases hro : Enc.runSOps Z s ops with
+    | mk s1 rs =>
+      rw [hro] at a b c hc
+      simp only at a b c hc ⊢
+      rw [c]
+      simp only [Bool.false_eq_true, if_false]
+      obtain ⟨w', cap, curr, hwr, hj', hcnt, hidx⟩ := a.atEnd hc
+      have hown : s1.owned = owned := b.trans hso
+      refine ⟨?_, w', hj', ?_, ?_, ?_⟩
+      · -- no panic
+        cases fin with
+        | finish =>
+          have := (finish_between (Z := Z) hwr hidx hc hj'.good hj'.iend w).1
+          simp only [anyPanic, List.any_cons, List.any_append, List.any_nil, Bool.or_false, Res.isPanic] at c ⊢
+          rw [c, this]; cases validateSequenceDone w' <;> rfl
+        | drop =>
+          have := (drop_between (Z := Z) hwr hidx w).1
+          simp only [anyPanic, List.any_cons, List.any_append, List.any_nil, Bool.or_false, Res.isPanic] at c ⊢
+          rw [c, this]; rfl
+      · intro ho
+        cases fin with
+        | finish =>
+          have := (finish_between (Z := Z) hwr hidx hc hj'.good hj'.iend w).2
+          simp only [this, hown, ho, Bool.false_eq_true, if_false]
+        | drop =>
+          have := (drop_between (Z := Z) hwr hidx w).2
+          simp only [this, hown, ho, Bool.false_eq_true, if_false]
+      · intro ho
+        cases fin with
+        | finish =>
+          have := (finish_between (Z := Z) hwr hidx hc hj'.good hj'.iend w).2
+          simp only [this, hown, ho, if_true]
+          cases hv : validateSequenceDone w' with
+          | some e => left; rfl
+          | none => right; simp [flushedW]
+        | drop =>
+          have := (drop_between (Z := Z) hwr hidx w).2
+          simp only [this, hown, ho, if_true]
+          left; trivial
+      · cases fin with
+        | finish =>
+          refine ⟨(SW.finish Z s1).2, last_snoc _ _ _, fun _ => ?_⟩
+          rw [(finish_between (Z := Z) hwr hidx hc hj'.good hj'.iend w).1]
+          cases hv : validateSequenceDone w' with
+          | some e => simp
+          | none => simp
+        | drop => exact ⟨(SW.drop Z s1).2, last_snoc _ _ _, fun h => by cases h⟩
 
-/-- the sequencing automaton on `IHDR …header… IDAT⁺ IEND` of a still picture -/
-theorem still_skeleton (imgOk : ImgRule) {s : WState} {seq fctls : Nat} (hactl : s.actl = none)
-    (hp : ¬ (s.color = 3 ∧ s.hasPalette = false)) (ds : List Bytes) (hne : ds ≠ [])
-    (hok : imgOk s.width s.height ds.flatten = .ok ()) :
-    skRunR imgOk (absSk s seq fctls .pre) (ds.map mkIdat ++ [iendChunk]) = .ok (absSk s seq fctls .done) := by
-  cases ds with
-  | nil => exact absurd rfl hne
-  | cons p ps =>
-    have h1 : skRunR imgOk (absSk s seq fctls .pre) ((p :: ps).map mkIdat) = .ok (absSk s seq fctls (.idat (p :: ps).flatten)) := by
-      simp only [List.map_cons, skRunR, summarize_idat, skStep, stepIdat, absSk]
-      simp only [reduceCtorEq, if_false, hp]
-      rw [skRunR_idats imgOk ps _ p rfl]
-      simp
-    have h2 : skRunR imgOk (absSk s seq fctls (.idat (p :: ps).flatten)) [iendChunk] = .ok (absSk s seq fctls .done) := by
-      have hI : ∀ acc, Phase.idat (p :: ps).flatten = .idat acc → imgOk s.width s.height acc = .ok () := by
-        intro acc h; cases h; exact hok
-      have hF : ∀ w h acc, Phase.idat (p :: ps).flatten = .fdat w h acc → imgOk w h acc = .ok () := by
-        intro w h acc hh; cases hh
-      have hnd : (absSk s seq fctls (.idat (p :: ps).flatten)).phase ≠ .done := by simp [absSk]
-      simp only [skRunR, summarize_iend, skStep, hnd, if_false, stepIend, closeRun_abs hI hF, closed]
-      simp [absSk, hactl]
-    exact skRunR_append_ok h1 h2
 
 
 
-theorem runSteps_single (E : Codec) (Z : ZCodec) (s : WState) (size : Nat) (ops : List SOp) (fin : Final) :
-    runSteps E Z s [.stream size ops fin] =
-      ((streamSession Z s false size ops fin).1, [(streamSession Z s false size ops fin).2]) := by
-  simp only [runSteps]
-  split <;> rfl
+theorem Op.noIend_of_inRange {o : Op} (h : o.inRange) : o.noIend := by
+  cases o with
+  | chunk ty d =>
+    simp only [Op.inRange] at h; simp only [Op.noIend]
+    intro he; rw [he] at h; revert h; decide
+  | text b =>
+    cases b with
+    | none => trivial
+    | some c =>
+      simp only [Op.inRange] at h; simp only [Op.noIend]
+      intro he; rw [he] at h; revert h; decide
+  | _ => trivial
 
-/-- C12 for the stream writer on a still picture: header, then one borrowed stream-writer session that
-    writes exactly the image (pieces of any size, any flushes, any chunk buffer size ≥ 1, `finish` or
-    drop), then the `Writer` is dropped.  No call fails or panics; the sink holds the header chunks,
-    then IDAT chunks only — no fcTL, no fdAT, no sequence numbers: the same skeleton as
-    `write_image_data` — whose payloads concatenate to everything the compressor produced up to and
-    including `finish`; and the skeleton is valid whenever that stream satisfies the image rule. -/
-theorem stream_still_valid (imgOk : ImgRule) (E : Codec) (Z : ZCodec) (c : Cfg) (hw : c.WellFormed)
-    (hstill : c.actl = none) (hpal : c.color = 3 → c.palette.isSome = true) (hh : (writeHeader c {}).2 = .ok) (size : Nat) (hs : 0 < size) (ops : List SOp)
-    (hfit : (rawRowLengthFromWidth c.color c.depth c.width - 1) * c.height < 2 ^ 64)
-    (htot : totalWritten ops = (rawRowLengthFromWidth c.color c.depth c.width - 1) * c.height) (fin : Final) :
-    (runProg E Z c {} [.stream size ops fin] .drop).header = .ok ∧
-    (runProg E Z c {} [.stream size ops fin] .drop).results.any anyPanic = false ∧
-    (∀ rs ∈ (runProg E Z c {} [.stream size ops fin] .drop).results, rs.getLast? = some .ok) ∧
-    ∃ (ds : List Bytes) (hist : List ZOp),
-      (runProg E Z c {} [.stream size ops fin] .drop).state.sink.chunks =
-        headerChunks c ++ ds.map mkIdat ++ [iendChunk] ∧
-      ds.flatten = outs Z (hist ++ [ZOp.finish]) ∧ (∀ d ∈ ds, d ≠ []) ∧
-      (ds ≠ [] → imgOk c.width c.height ds.flatten = .ok () →
-        skeletonOfChunks imgOk c.width c.height c.color ((headerChunks c).tail ++ ds.map mkIdat ++ [iendChunk]) = .ok ()) := by
+
+/-- the domain of the stream-writer theorems, step by step along the run: argument types in range and
+    every stream-writer session complete (no image left unfinished: N10) -/
+def StepsOk (E : Codec) (Z : ZCodec) : WState → List Step → Prop
+  | _, [] => True
+  | s, .op o :: rest => o.inRange ∧ StepsOk E Z (writerStep E s o).1 rest
+  | s, .stream size ops fin :: rest =>
+    (∀ o ∈ ops, o.inRange) ∧ SessionComplete Z s false size ops ∧
+    StepsOk E Z (streamSession Z s false size ops fin).1 rest
+
+instance stepsOkDec (E : Codec) (Z : ZCodec) : (s : WState) → (steps : List Step) → Decidable (StepsOk E Z s steps)
+  | _, [] => isTrue trivial
+  | s, .op o :: rest =>
+    have := stepsOkDec E Z (writerStep E s o).1 rest
+    by unfold StepsOk; infer_instance
+  | s, .stream size ops fin :: rest =>
+    have := stepsOkDec E Z (streamSession Z s false size ops fin).1 rest
+    by unfold StepsOk; infer_instance
+
+def FinalOk (Z : ZCodec) (s : WState) : PFinal → Prop
+  | .intoStream size ops _ => (∀ o ∈ ops, o.inRange) ∧ SessionComplete Z s true size ops
+  | _ => True
+
+instance (Z : ZCodec) (s : WState) (fin : PFinal) : Decidable (FinalOk Z s fin) := by
+  cases fin <;> simp only [FinalOk] <;> infer_instance
+
+/-- the program ends with a call of `finish` (of the `Writer` or of the owned stream writer) -/
+def PFinal.isFinish : PFinal → Bool
+  | .finish => true
+  | .intoStream _ _ .finish => true
+  | _ => false
+
+/-- `into_stream_writer` at the end of the program is not refused -/
+def PFinal.newOk (s : WState) : PFinal → Prop
+  | .intoStream size _ _ => (SW.new s true size).2 = .ok
+  | _ => True
+
+instance (s : WState) (fin : PFinal) : Decidable (fin.newOk s) := by
+  cases fin <;> simp only [PFinal.newOk] <;> infer_instance
+
+/-- all steps of a program inside the domain: `JW` at the end, no panic -/
+theorem JW.runSteps {imgOk : ImgRule} {C D W H : Nat} {V : Bool} {E : Codec} {Z : ZCodec}
+    (hE : Codec.Ok imgOk E C D) (hZ : ZCodec.Ok imgOk Z C D) (steps : List Step) :
+    ∀ {w : WState}, JW imgOk C D W H V w → StepsOk E Z w steps →
+      JW imgOk C D W H V (Enc.runSteps E Z w steps).1 ∧ (Enc.runSteps E Z w steps).2.any anyPanic = false := by
+  induction steps with
+  | nil => intro w hj _; exact ⟨hj, rfl⟩
+  | cons st rest ih =>
+    intro w hj hs
+    cases st with
+    | op o =>
+      obtain ⟨hr, hrest⟩ := hs
+      obtain ⟨j1, np⟩ := hj.step (E := E) (by rw [hj.cd.1, hj.cd.2]; exact hE) o hr (Op.noIend_of_inRange hr)
+      obtain ⟨j2, np2⟩ := ih j1 hrest
+      simp only [Enc.runSteps]
+      cases hws : writerStep E w o with
+      | mk s' r =>
+        rw [hws] at np j2 np2
+        cases r with
+        | panic p => cases np
+        | ok => exact ⟨j2, by simpa [anyPanic, Res.isPanic] using np2⟩
+        | err e => exact ⟨j2, by simpa [anyPanic, Res.isPanic] using np2⟩
+    | stream size ops fin =>
+      obtain ⟨hr, hc, hrest⟩ := hs
+      obtain ⟨np, w', hj', hb, _, _⟩ := session_spec hZ hj false size ops fin hr hc
+      have hst := hb rfl
+      obtain ⟨j2, np2⟩ := ih (by rw [hst]; exact hj') hrest
+      simp only [Enc.runSteps]
+      cases hss : streamSession Z w false size ops fin with
+      | mk s' rs =>
+        rw [hss] at np j2 np2
+        simp only at np j2 np2 ⊢
+        rw [np]
+        simp only [Bool.false_eq_true, if_false]
+        exact ⟨j2, by simp only [List.any_cons, np, Bool.false_or]; exact np2⟩
+
+/-- `finish` of the `Writer` on a sink that never fails -/
+theorem finishW_good {w : WState} (hg : w.sink.good) (hie : w.iendWritten = false) :
+    finishW w = (match validateSequenceDone w with
+      | some e => (dropW w, .err e)
+      | none => (flushedW (dropW w), .ok)) := by
+  obtain ⟨wi, wg⟩ := writeIend_good hg
+  have hd : dropW w = { w with iendWritten := true, sink := (w.sink.emitChunks [iendChunk]).1 } := by
+    simp [dropW, hie, wi]
+  rw [hd]
+  unfold finishW
+  cases hv : validateSequenceDone w with
+  | some e => simp only [hd]
+  | none =>
+    simp only [wi]
+    have hf := flush_good wg
+    cases hfl : (w.sink.emitChunks [iendChunk]).1.flush with
+    | mk k okf =>
+      rw [hfl] at hf; simp only at hf; subst hf
+      simp only [flushedW, hfl, dropW, ↓reduceIte]
+
+/-- a whole program inside the domain (sink that never fails): nothing panics; the `Writer` ends closed,
+    from a `JW` state; a final `finish` returns `Ok` exactly when it was reached and the sequence check passes -/
+theorem prog_spec {imgOk : ImgRule} {E : Codec} {Z : ZCodec} (c : Cfg) (hw : c.WellFormed) (hsm : c.Small)
+    (hE : Codec.Ok imgOk E c.color c.depth) (hZ : ZCodec.Ok imgOk Z c.color c.depth)
+    (steps : List Step) (fin : PFinal) (hh : (writeHeader c {}).2 = .ok)
+    (hs : StepsOk E Z (writeHeader c {}).1 steps)
+    (hf : FinalOk Z (Enc.runSteps E Z (writeHeader c {}).1 steps).1 fin) :
+    (runProg E Z c {} steps fin).header = .ok ∧
+    (runProg E Z c {} steps fin).results.any anyPanic = false ∧
+    anyPanic (runProg E Z c {} steps fin).final = false ∧
+    ∃ w', JW imgOk c.color c.depth c.width c.height c.validate w' ∧
+      ((runProg E Z c {} steps fin).state = dropW w' ∨
+        ((runProg E Z c {} steps fin).state = flushedW (dropW w') ∧ fin.isFinish = true ∧
+          validateSequenceDone w' = none)) ∧
+      (fin.isFinish = true →
+        ((runProg E Z c {} steps fin).final.getLast? = some .ok ↔
+          fin.newOk (Enc.runSteps E Z (writeHeader c {}).1 steps).1 ∧ validateSequenceDone w' = none)) := by
   cases hwh : writeHeader c {} with
   | mk s0 r0 =>
-    rw [hwh] at hh; simp only at hh; subst hh
-    obtain ⟨inv0, hst0, hch0⟩ := header_inv imgOk c hw hwh
-    obtain ⟨e1, e2, e3, e4, e5, e6, e7, e8⟩ := hst0
-    have hw0 : s0.width = c.width := e1
-    have hh0 : s0.height = c.height := e2
-    have hc0 : s0.color = c.color := e3
-    have hd0 : s0.depth = c.depth := e4
-    have ha0 : s0.actl = none := by rw [e5]; exact hstill
-    have hp0 : ¬ (s0.color = 3 ∧ s0.hasPalette = false) := by
-      intro ⟨h3, hnp⟩
-      have h1 := hpal (by rw [← hc0]; exact h3)
-      have h2 : s0.hasPalette = c.palette.isSome := e6
-      rw [h2, h1] at hnp; cases hnp
-    have hstart : StillStart s0 :=
-      ⟨hp0, inv0.noActl ha0, inv0.phPre.mpr rfl, inv0.good, ⟨inv0.valid.1, inv0.valid.2.2.1, inv0.valid.2.2.2⟩, by
-        simp only [inLenOf, hw0, hh0, hc0, hd0]; exact hfit⟩
-    obtain ⟨p1, p2, k, hist, p3, p4, ds, p5, p6, p7⟩ := still_session hstart Z size hs ops (by
-      simp only [inLenOf, hw0, hh0, hc0, hd0]; exact htot) fin
+    rw [hwh] at hh hs hf
+    simp only at hh hs hf
+    subst hh
+    have hj0 := JW.header imgOk c hw hsm hwh
+    obtain ⟨hj1, np⟩ := hj0.runSteps hE hZ steps hs
     unfold runProg
     rw [hwh]
-    simp only [runSteps_single, p3]
-    · simp only [p1, Bool.false_eq_true, if_false, List.any_cons, List.any_nil, Bool.or_false]
-      -- the final drop writes the IEND
-      obtain ⟨k2, q1, q2, q3⟩ := WState.emit_good' (s := { s0 with sink := k, iendWritten := true }) p4 [iendChunk]
-      have hdrop : dropW { s0 with sink := k } = { s0 with sink := k2, iendWritten := true } := by
-        simp only [dropW, inv0.iend, Bool.false_eq_true, if_false, writeIend, q1]
-      refine ⟨trivial, trivial, ?_, ds, hist, ?_, p6, p7, ?_⟩
-      · intro rs' hrs; simp only [List.mem_singleton] at hrs; subst hrs; exact p2
-      · simp only [hdrop]; rw [q3]; simp only; rw [p5, hch0]
-      · intro hne hok
-        obtain ⟨rest, r1, r2⟩ := inv0.run
-        have hrest : rest = (headerChunks c).tail := by
-          rw [hch0] at r1; simp only [headerChunks, List.append_assoc, List.cons_append, List.nil_append] at r1 ⊢
-          exact (List.cons.inj r1).2.symm
-        have hp : ¬ (s0.color = 3 ∧ s0.hasPalette = false) := by
-          intro ⟨h3, hnp⟩
-          have h1 := hpal (by rw [← hc0]; exact h3)
-          have h2 : s0.hasPalette = c.palette.isSome := e6
-          rw [h2, h1] at hnp; cases hnp
-        have hsk := still_skeleton imgOk (s := s0) (seq := 0) (fctls := 0) ha0 hp ds hne (by rw [hw0, hh0]; exact hok)
-        have := skRunR_append_ok r2 hsk
-        rw [hw0, hh0, hc0, hrest, ← List.append_assoc] at this
-        exact skeletonOfChunks_of_run this rfl
+    simp only
+    cases hrs : Enc.runSteps E Z s0 steps with
+    | mk s1 rss =>
+      rw [hrs] at hj1 np hf
+      simp only at hj1 np hf ⊢
+      rw [np]
+      simp only [Bool.false_eq_true, if_false]
+      cases fin with
+      | finish =>
+        rw [finishW_good hj1.good hj1.iend]
+        simp only
+        refine ⟨trivial, np, ?_, s1, hj1, ?_, fun _ => ?_⟩
+        · cases validateSequenceDone s1 <;> rfl
+        · cases hv : validateSequenceDone s1 with
+          | some e => left; rfl
+          | none => right; exact ⟨rfl, rfl, rfl⟩
+        · cases hv : validateSequenceDone s1 with
+          | some e => simp [PFinal.newOk]
+          | none => simp [PFinal.newOk]
+      | drop =>
+        simp only
+        exact ⟨trivial, np, rfl, s1, hj1, Or.inl rfl, fun h => by cases h⟩
+      | intoStream size ops f =>
+        obtain ⟨hr, hc⟩ := hf
+        obtain ⟨npf, w', hj', _, ho, r, hlast, hiff⟩ := session_spec hZ hj1 true size ops f hr hc
+        simp only
+        cases hss : streamSession Z s1 true size ops f with
+        | mk s2 rs =>
+          rw [hss] at npf ho hlast
+          simp only at npf ho hlast ⊢
+          refine ⟨trivial, np, npf, w', hj', ?_, fun hfin => ?_⟩
+          · rcases ho trivial with h | ⟨h1, h2, h3⟩
+            · exact Or.inl h
+            · right; refine ⟨h1, ?_, h3⟩; rw [h2]; rfl
+          · have hff : f = .finish := by
+              cases f with
+              | finish => rfl
+              | drop => cases hfin
+            rw [hlast]
+            simp only [Option.some.injEq, PFinal.newOk]
+            exact hiff hff
 
+
+
+
+/-! ### the theorems about programs over both APIs (C12 / C19 for the stream writer) -/
+
+/-- with `validate_sequence`, the sequence check of `finish` passes exactly when the declared number
+    of images has been written -/
+theorem JW.validate_iff {imgOk : ImgRule} {C D W H : Nat} {V : Bool} {w : WState} (h : JW imgOk C D W H V w)
+    (hv : w.validate = true) : validateSequenceDone w = none ↔ w.imagesWritten = declared w := by
+  obtain ⟨seq, fctls, ph, inv⟩ := h.inv (h.val hv)
+  constructor
+  · intro hvd
+    unfold validateSequenceDone at hvd
+    simp only [hv, Bool.not_true, Bool.false_eq_true, if_false] at hvd
+    have hcond : ¬ ((w.actl.isSome = true ∧ w.fctl.isSome = true) ∨ w.imagesWritten = 0) := by
+      intro hc; simp [hc] at hvd
+    have hcnt := inv.cnt
+    rcases opt_cases w.actl with ha | ⟨⟨n, p⟩, ha⟩
+    · have : w.imagesWritten ≠ 0 := fun h => hcond (Or.inr h)
+      simp only [declared, ha] at hcnt ⊢; omega
+    · have hfn : w.fctl = none := by
+        rcases opt_cases w.fctl with hf | ⟨f, hf⟩
+        · exact hf
+        · exact absurd (Or.inl ⟨by simp [ha], by simp [hf]⟩) hcond
+      have := (inv.fin hfn n p ha).2
+      omega
+  · intro hc; exact (inv.finishChunk hc).1
+
+theorem flushedW_chunks (w : WState) : (flushedW w).sink.chunks = w.sink.chunks ∧ (flushedW w).sink.log = w.sink.log ∧
+    (flushedW w).iendWritten = w.iendWritten ∧ (flushedW w).imagesWritten = w.imagesWritten ∧ StaticEq w (flushedW w) :=
+  ⟨rfl, rfl, rfl, rfl, ⟨rfl, rfl, rfl, rfl, rfl, rfl, rfl, rfl⟩⟩
+
+/-- closing a `Writer` in a `JW` state -/
+theorem JW.dropW {imgOk : ImgRule} {C D W H : Nat} {V : Bool} {w : WState} (h : JW imgOk C D W H V w) :
+    (Enc.dropW w).iendWritten = true ∧ (Enc.dropW w).sink.iendAttempts = 1 ∧
+    (Enc.dropW w).imagesWritten = w.imagesWritten ∧ StaticEq w (Enc.dropW w) ∧
+    (∃ pre, (Enc.dropW w).sink.log = pre ++ [⟨.chunk iendChunk, 12⟩]) ∧
+    (w.imagesWritten = declared w → ∃ rest, (Enc.dropW w).sink.chunks = ihdrOf w :: rest ∧
+      skeletonOfChunks imgOk w.width w.height w.color rest = .ok ()) := by
+  have hd : Enc.dropW w = (writeIend w).1 := by simp [Enc.dropW, h.iend]
+  obtain ⟨a1, a2, a3, a4⟩ := writeIend_spec w
+  obtain ⟨wi, _⟩ := writeIend_good h.good
+  rw [hd]
+  refine ⟨a1, by rw [a2, h.att], by rw [wi], a4, a3 (by rw [wi]), fun hc => ?_⟩
+  obtain ⟨seq, fctls, ph, inv⟩ := h.inv (by omega)
+  obtain ⟨_, _, _, _, rest, r1, r2⟩ := inv.finishChunk hc
+  exact ⟨rest, r1, r2⟩
+
+theorem ihdrOf_eq {imgOk : ImgRule} {c : Cfg} {w : WState} (h : JW imgOk c.color c.depth c.width c.height c.validate w) :
+    ihdrOf w = mkIhdr c := by
+  simp [ihdrOf, mkIhdr, h.cd.1, h.cd.2, h.wh.1, h.wh.2]
+
+/-- the domain of C12 for programs over both APIs (decidable for given back-ends): `write_header`
+    succeeds, argument types are in range, every stream-writer session is complete, and at the end
+    exactly the declared images are written -/
+def StreamDomain (E : Codec) (Z : ZCodec) (c : Cfg) (steps : List Step) (fin : PFinal) : Prop :=
+  (writeHeader c {}).2 = .ok ∧ StepsOk E Z (writeHeader c {}).1 steps ∧
+  FinalOk Z (Enc.runSteps E Z (writeHeader c {}).1 steps).1 fin
+
+instance (E : Codec) (Z : ZCodec) (c : Cfg) (steps : List Step) (fin : PFinal) : Decidable (StreamDomain E Z c steps fin) := by
+  unfold StreamDomain; infer_instance
+
+def ProgRun.declaredWritten (r : ProgRun) : Prop := r.state.imagesWritten = declared r.state
+
+instance (r : ProgRun) : Decidable r.declaredWritten := by unfold ProgRun.declaredWritten; infer_instance
+
+/-- C12 for programs that use the stream writer — still pictures and animations, one session or many,
+    borrowed or owned, mixed with `write_image_data`, any chunk buffer size, any way the rows are cut
+    into `write` calls, with flushes and frame setters in between, ended by `finish` or by a drop:
+    inside the domain nothing panics and the chunks in the sink satisfy the sequencing rules -/
+theorem stream_skeleton_valid (imgOk : ImgRule) (E : Codec) (Z : ZCodec) (c : Cfg) (hw : c.WellFormed) (hsm : c.Small)
+    (hE : Codec.Ok imgOk E c.color c.depth) (hZ : ZCodec.Ok imgOk Z c.color c.depth)
+    (steps : List Step) (fin : PFinal) (hdom : StreamDomain E Z c steps fin)
+    (hcount : (runProg E Z c {} steps fin).declaredWritten) :
+    (runProg E Z c {} steps fin).header = .ok ∧
+    (runProg E Z c {} steps fin).results.any anyPanic = false ∧
+    anyPanic (runProg E Z c {} steps fin).final = false ∧
+    ∃ rest, (runProg E Z c {} steps fin).state.sink.chunks = mkIhdr c :: rest ∧
+      skeletonOfChunks imgOk c.width c.height c.color rest = .ok () := by
+  obtain ⟨hh, hs, hf⟩ := hdom
+  obtain ⟨p1, p2, p3, w', hj, hst, _⟩ := prog_spec (imgOk := imgOk) c hw hsm hE hZ steps fin hh hs hf
+  refine ⟨p1, p2, p3, ?_⟩
+  obtain ⟨_, _, d3, d4, _, d6⟩ := hj.dropW
+  unfold ProgRun.declaredWritten at hcount
+  have hcw : w'.imagesWritten = declared w' := by
+    rcases hst with h | ⟨h, _, _⟩
+    · rw [h, d3, declared_static d4] at hcount; exact hcount
+    · rw [h, (flushedW_chunks _).2.2.2.1, declared_static (flushedW_chunks _).2.2.2.2, d3, declared_static d4] at hcount
+      exact hcount
+  obtain ⟨rest, r1, r2⟩ := d6 hcw
+  rw [ihdrOf_eq hj, hj.wh.1, hj.wh.2, hj.cd.1] at *
+  refine ⟨rest, ?_, r2⟩
+  rcases hst with h | ⟨h, _, _⟩
+  · rw [h]; exact r1
+  · rw [h, (flushedW_chunks _).1]; exact r1
+
+/-- C19 for programs that use the stream writer, sink that never fails, inside the domain: no call
+    panics; the `Writer` ends closed with exactly one IEND, the last thing in the log; `Ok` from the
+    final `finish` means the sequence check passed -/
+theorem stream_clean (imgOk : ImgRule) (E : Codec) (Z : ZCodec) (c : Cfg) (hw : c.WellFormed) (hsm : c.Small)
+    (hE : Codec.Ok imgOk E c.color c.depth) (hZ : ZCodec.Ok imgOk Z c.color c.depth)
+    (steps : List Step) (fin : PFinal) (hdom : StreamDomain E Z c steps fin) :
+    (runProg E Z c {} steps fin).header = .ok ∧
+    (runProg E Z c {} steps fin).results.any anyPanic = false ∧
+    anyPanic (runProg E Z c {} steps fin).final = false ∧
+    (runProg E Z c {} steps fin).state.iendWritten = true ∧
+    (runProg E Z c {} steps fin).state.sink.iendAttempts = 1 ∧
+    (∃ pre, (runProg E Z c {} steps fin).state.sink.log = pre ++ [⟨.chunk iendChunk, 12⟩]) := by
+  obtain ⟨hh, hs, hf⟩ := hdom
+  obtain ⟨p1, p2, p3, w', hj, hst, _⟩ := prog_spec (imgOk := imgOk) c hw hsm hE hZ steps fin hh hs hf
+  refine ⟨p1, p2, p3, ?_⟩
+  obtain ⟨d1, d2, _, _, d5, _⟩ := hj.dropW
+  rcases hst with h | ⟨h, _, _⟩
+  · rw [h]; exact ⟨d1, d2, d5⟩
+  · rw [h]
+    obtain ⟨f1, f2, f3, _⟩ := flushedW_chunks (Enc.dropW w')
+    refine ⟨by rw [f3]; exact d1, ?_, by rw [f2]; exact d5⟩
+    simp only [Sink.iendAttempts, f2]; exact d2
+
+/-- C19, sequence validation through the stream writer (sink that never fails, inside the domain, with
+    `validate_sequence`): `Ok` from the final `finish` — of the `Writer` or of an owned stream writer — means
+    that exactly the declared images were written, and then the file is complete; conversely `finish` returns
+    `Ok` when they were (and `into_stream_writer` was not refused) -/
+theorem stream_validation (imgOk : ImgRule) (E : Codec) (Z : ZCodec) (c : Cfg) (hw : c.WellFormed) (hsm : c.Small)
+    (hval : c.validate = true)
+    (hE : Codec.Ok imgOk E c.color c.depth) (hZ : ZCodec.Ok imgOk Z c.color c.depth)
+    (steps : List Step) (fin : PFinal) (hdom : StreamDomain E Z c steps fin) (hfin : fin.isFinish = true) :
+    ((runProg E Z c {} steps fin).final.getLast? = some .ok →
+      (runProg E Z c {} steps fin).declaredWritten ∧
+      ∃ rest, (runProg E Z c {} steps fin).state.sink.chunks = mkIhdr c :: rest ∧
+        skeletonOfChunks imgOk c.width c.height c.color rest = .ok ()) ∧
+    ((runProg E Z c {} steps fin).declaredWritten →
+      fin.newOk (Enc.runSteps E Z (writeHeader c {}).1 steps).1 →
+      (runProg E Z c {} steps fin).final.getLast? = some .ok) := by
+  obtain ⟨hh, hs, hf⟩ := hdom
+  obtain ⟨p1, p2, p3, w', hj, hst, hiff⟩ := prog_spec (imgOk := imgOk) c hw hsm hE hZ steps fin hh hs hf
+  obtain ⟨_, _, d3, d4, _, _⟩ := hj.dropW
+  have hvw : w'.validate = true := by rw [hj.vl]; exact hval
+  have hvi := hj.validate_iff hvw
+  -- the counter of the final state is the one of `w'`
+  have hcnt : (runProg E Z c {} steps fin).declaredWritten ↔ w'.imagesWritten = declared w' := by
+    unfold ProgRun.declaredWritten
+    rcases hst with h | ⟨h, _, _⟩
+    · rw [h, d3, declared_static d4]
+    · rw [h, (flushedW_chunks _).2.2.2.1, declared_static (flushedW_chunks _).2.2.2.2, d3, declared_static d4]
+  have hiff' := hiff hfin
+  constructor
+  · intro hok
+    have hc := hvi.mp (hiff'.mp hok).2
+    have hdw := hcnt.mpr hc
+    exact ⟨hdw, (stream_skeleton_valid imgOk E Z c hw hsm hE hZ steps fin ⟨hh, hs, hf⟩ hdw).2.2.2⟩
+  · intro hdw hn
+    exact hiff'.mpr ⟨hn, hvi.mpr (hcnt.mp hdw)⟩
+
+
+
+
+/-! ### streaming back-ends that satisfy the contract -/
+
+/-- the shape of the stream writer's back-end: every row is filtered against the previous one with some
+    choice of filter type; the compressor may hold everything back until it is finished -/
+def scanZ (compress : Bytes → Bytes) (choose : Bytes → Bytes → FilterType) : ZCodec :=
+  { out := fun hist op => match op with
+      | .finish => compress (writtenOf hist)
+      | _ => []
+    row := fun bpp prev cur => ftByte (choose prev cur) :: filtRow (choose prev cur) bpp prev cur }
+
+theorem scanZ_quiet (compress : Bytes → Bytes) (choose : Bytes → Bytes → FilterType) (h : List ZOp) :
+    ∀ pre, h.contains ZOp.finish = false → outsAux (scanZ compress choose) pre h = [] := by
+  induction h with
+  | nil => intro pre _; rfl
+  | cons o os ih =>
+    intro pre hf
+    simp only [List.contains_cons, Bool.or_eq_false_iff] at hf
+    simp only [outsAux, ih _ hf.2, List.append_nil]
+    cases o with
+    | finish => simp at hf
+    | write d => rfl
+    | flush => rfl
+
+/-- the filter choice as the specification's encoder sees it: the row before the first one is empty there,
+    all zero in the stream writer -/
+def chooseFirst (choose : Bytes → Bytes → FilterType) : Bytes → Bytes → FilterType :=
+  fun prev r => if prev = [] then choose (List.replicate r.length 0) r else choose prev r
+
+theorem chooseFirst_same (choose : Bytes → Bytes → FilterType) (prev r : Bytes) (h : prev.length = r.length) :
+    chooseFirst choose prev r = choose prev r := by
+  unfold chooseFirst
+  by_cases hp : prev = []
+  · rw [if_pos hp]
+    have : r.length = 0 := by rw [← h, hp]; rfl
+    rw [this, hp]; rfl
+  · rw [if_neg hp]
+
+theorem fedRows_scanZ (compress : Bytes → Bytes) (choose : Bytes → Bytes → FilterType) (bpp rl : Nat) :
+    ∀ (curs : List Bytes) (prev : Bytes), prev.length = rl → (∀ c ∈ curs, c.length = rl) →
+      (fedRows (scanZ compress choose) bpp prev curs).flatten = encodeScanlines (chooseFirst choose) bpp prev curs := by
+  intro curs
+  induction curs with
+  | nil => intro prev _ _; rfl
+  | cons c cs ih =>
+    intro prev hp hc
+    have hcl : c.length = rl := hc c (by simp)
+    simp only [fedRows, List.flatten_cons, encodeScanlines, chooseFirst_same choose prev c (by rw [hp, hcl])]
+    rw [ih c hcl (fun x hx => hc x (by simp [hx]))]
+    rfl
+
+theorem fedRows_scanZ_first (compress : Bytes → Bytes) (choose : Bytes → Bytes → FilterType) (bpp rl : Nat)
+    (curs : List Bytes) (hc : ∀ c ∈ curs, c.length = rl) :
+    (fedRows (scanZ compress choose) bpp (List.replicate rl 0) curs).flatten =
+      encodeScanlines (chooseFirst choose) bpp [] curs := by
+  cases curs with
+  | nil => rfl
+  | cons c cs =>
+    have hcl : c.length = rl := hc c (by simp)
+    simp only [fedRows, List.flatten_cons, encodeScanlines, chooseFirst, if_true]
+    rw [fedRows_scanZ compress choose bpp rl cs c hcl (fun x hx => hc x (by simp [hx]))]
+    simp only [scanZ, hcl, filtRow_first]
+
+/-- the contract of `ZCodec` holds for every filter choice and every compressor that the inflater inverts,
+    with the image rule of the specification -/
+theorem scanZ_ok (compress : Bytes → Bytes) (inflate' : Bytes → Option Bytes)
+    (choose : Bytes → Bytes → FilterType) (color depth : Nat)
+    (hic : ∀ x, inflate' (compress x) = some x) (hnil : inflate' [] = none) :
+    ZCodec.Ok (specImgOk inflate' color depth) (scanZ compress choose) color depth := by
+  intro w h hist curs hnf hcl hrows hwr
+  have hout : outs (scanZ compress choose) (hist ++ [ZOp.finish]) = compress (writtenOf hist) := by
+    rw [outs_snoc, outs, scanZ_quiet compress choose hist [] hnf]; rfl
+  rw [hout, hwr, fedRows_scanZ_first compress choose _ _ curs hrows]
+  constructor
+  · intro hz
+    have := hic (encodeScanlines (chooseFirst choose) (bytesPerPixel color depth) [] curs)
+    rw [hz, hnil] at this; cases this
+  · simp only [specImgOk, hic]
+    have hl := encodeScanlines_length (chooseFirst choose) (bytesPerPixel color depth) _ _ hrows []
+    rw [hcl] at hl
+    simp only [hl, ne_eq, not_true_eq_false, if_false]
+    have hdec := decode_encode_scanlines (chooseFirst choose) (bytesPerPixel color depth) _ _ hrows [] []
+    rw [hcl, List.append_nil] at hdec
+    rw [hdec]
+
+theorem toyZ_ok (color depth : Nat) : ZCodec.Ok anyImg toyZ color depth := by
+  intro w h hist curs _ _ _ _
+  refine ⟨?_, rfl⟩
+  rw [outs_snoc]
+  simp [toyZ]
+
+
+
+
+/-! ### concrete programs over both APIs: non-vacuity of the domain, and what stays false (N10) -/
+
+def Step.inRange : Step → Prop
+  | .op o => o.inRange
+  | .stream _ ops _ => ∀ o ∈ ops, o.inRange
+
+instance (s : Step) : Decidable s.inRange := by cases s <;> simp only [Step.inRange] <;> infer_instance
+
+def PFinal.inRange : PFinal → Prop
+  | .intoStream _ ops _ => ∀ o ∈ ops, o.inRange
+  | _ => True
+
+instance (f : PFinal) : Decidable f.inRange := by cases f <;> simp only [PFinal.inRange] <;> infer_instance
+
+/-- four frames on a 2x2 canvas: frame 1 through `write_image_data`; frames 2 and 3 through one borrowed
+    stream writer with a requested chunk buffer of 0 bytes — single-byte writes, a flush between rows, every
+    frame setter between the frames (frame 3 is a 1x1 sub-frame at (1,1)); frame 4 (still 1x1) through an
+    owned stream writer with a 3-byte buffer, closed by `finish` -/
+def cfgAnim4 : Cfg := animatedCfg { width := 2, height := 2 } 4 0
+def stepsMixed : List Step :=
+  [.op (.image [1, 2, 3, 4]),
+   .stream 0 [.write [5], .write [6], .flush, .write [7, 8],
+              .set (.delay 3 4), .set (.dim 1 1), .set (.pos 1 1), .set (.dispose 1), .set (.blend 1),
+              .write [9]] .finish]
+def finMixed : PFinal := .intoStream 3 [.write [10]] .finish
+def runMixed : ProgRun := runProg toyCodec toyZ cfgAnim4 {} stepsMixed finMixed
+
+theorem runMixed_facts :
+    cfgAnim4.WellFormed ∧ cfgAnim4.Small ∧ StreamDomain toyCodec toyZ cfgAnim4 stepsMixed finMixed ∧
+    runMixed.declaredWritten ∧ runMixed.final = [.ok, .ok, .ok] ∧
+    (runMixed.state.sink.chunks.filter (·.ty == tyFCTL)).length = 4 ∧
+    (runMixed.state.sink.chunks.filter (·.ty == tyFDAT)).length = 13 ∧
+    runSkeletonOk cfgAnim4 runMixed.state = true := by decide
+
+/-- a still picture through a borrowed stream writer with a 1-byte buffer request, dropped; the `Writer` finished -/
+def runStill : ProgRun :=
+  runProg toyCodec toyZ { width := 2, height := 2, validate := true } {}
+    [.stream 1 [.write [1, 2, 3], .flush, .write [4]] .drop] .finish
+
+theorem runStill_facts :
+    StreamDomain toyCodec toyZ { width := 2, height := 2, validate := true }
+      [.stream 1 [.write [1, 2, 3], .flush, .write [4]] .drop] .finish ∧
+    runStill.declaredWritten ∧ runStill.final = [.ok] ∧
+    runStill.results = [[.ok, .ok, .err .writtenTooMuch, .ok, .ok]] := by decide
+
+/-- N10 (open) with sequence validation: as `runN10a`; every call returns `Ok`, also `finish` -/
+def runN10v : ProgRun :=
+  runProg toyCodec toyZ { cfgAnim 2 with validate := true } {}
+    [.op (.image [7]), .stream 64 [] .drop, .op (.image [9])] .finish
+
+theorem runN10v_facts :
+    runN10v.results = [[.ok], [.ok, .ok], [.ok]] ∧ runN10v.final = [.ok] ∧ runN10v.declaredWritten ∧
+    runSkeletonOk (cfgAnim 2) runN10v.state = false := by decide
+
+/-- C12 for programs with the stream writer WITHOUT the requirement that every session is complete
+    (false: N10) — stated for the most permissive image rule and the toy back-ends -/
+def stream_abandoned_skeleton_statement : Prop :=
+  ∀ (c : Cfg) (steps : List Step) (fin : PFinal), c.WellFormed → c.Small →
+    (∀ s ∈ steps, s.inRange) → fin.inRange →
+    (runProg toyCodec toyZ c {} steps fin).header = .ok →
+    (runProg toyCodec toyZ c {} steps fin).declaredWritten →
+    runSkeletonOk c (runProg toyCodec toyZ c {} steps fin).state = true
+
+/-- C19 "`Ok` from `finish` means complete" with `validate_sequence`, WITHOUT the requirement that every
+    session is complete (false: N10) -/
+def stream_abandoned_finish_statement : Prop :=
+  ∀ (c : Cfg) (steps : List Step) (fin : PFinal), c.WellFormed → c.Small → c.validate = true →
+    (∀ s ∈ steps, s.inRange) → fin.inRange → fin.isFinish = true →
+    (runProg toyCodec toyZ c {} steps fin).final.getLast? = some .ok →
+    runSkeletonOk c (runProg toyCodec toyZ c {} steps fin).state = true
+
+theorem stream_abandoned_skeleton_counterexample : ¬ stream_abandoned_skeleton_statement := by
+  intro h
+  have := h (cfgAnim 2) [.op (.image [7]), .stream 64 [] .drop, .op (.image [9])] .finish
+    (by decide) (by decide) (by decide) (by decide) (by decide) (by decide)
+  revert this; decide
+
+theorem stream_abandoned_finish_counterexample : ¬ stream_abandoned_finish_statement := by
+  intro h
+  have := h { cfgAnim 2 with validate := true } [.op (.image [7]), .stream 64 [] .drop, .op (.image [9])] .finish
+    (by decide) (by decide) (by decide) (by decide) (by decide) (by decide) (by decide)
+  revert this; decide
+
+
+
+/-- remainder of N11 (open, by design of `Drop`): a session dropped in the middle of an image on a sink that
+    fails (once) during that drop: the error is lost, every call returns `Ok`, the IDAT chunk is missing -/
+def runN11 : ProgRun :=
+  runProg toyCodec toyZ { width := 1, height := 2 } { writeFailAt := some 40, writeOnce := true }
+    [.stream 64 [.write [1]] .drop] .finish
+
+theorem runN11_facts :
+    runN11.results = [[.ok, .ok, .ok]] ∧ runN11.final = [.ok] ∧
+    runN11.state.sink.chunks.map (·.ty) = [tyIHDR, tyIEND] ∧ runN11.state.sink.iendAttempts = 1 := by decide
+
+
+/-- a streaming compressor that answers a sync flush with six bytes at once (flate2 answers with the zlib
+    header, the pending block and the `00 00 FF FF` marker) -/
+def toyZf : ZCodec :=
+  { out := fun hist op => match op with
+      | .finish => 120 :: (hist.map fun o => match o with | .write d => d | _ => []).flatten
+      | .flush => [1, 2, 3, 4, 5, 6]
+      | _ => []
+    row := fun _ _ cur => 0 :: cur }
+
+/-- N12 (open, found by the fault sweep; the model predicts the same results at the same offsets 91..107 as
+    the crate): two frames on a 2x1 canvas through `into_stream_writer_with_size(4)`, the second frame set to
+    1x1.  Half a row, `flush` — the sink fails (once) while the full 5-byte chunk buffer is written: `Err(io)`,
+    the buffer stays full; the rest of the row: `Err(WriteZero)` from the zlib encoder's pending output, but
+    `index = line_len` and `to_write = 0` are already recorded; `flush` again: the chunk goes out,
+    `WrittenTooMuch`; the next `write` starts the narrower frame and slices
+    `curr_buf[..line_len][index..]` with the stale index: panic (encoder.rs:1739). -/
+def runN12 : ProgRun :=
+  runProg toyCodec toyZf (animatedCfg { width := 2, height := 1 } 2 0) { writeFailAt := some 91, writeOnce := true } []
+    (.intoStream 4 [.set (.dim 1 1), .write [1], .flush, .write [2], .flush, .write [3]] .finish)
+
+theorem runN12_facts :
+    runN12.final = [.ok, .ok, .ok, .err .io, .err .writeZero, .err .writtenTooMuch, .panic .rowSlice] := by decide
+
+/-- C19 "no call panics" for programs with the stream writer on EVERY sink, arguments in range (false: N12) -/
+def stream_no_panic_statement : Prop :=
+  ∀ (E : Codec) (Z : ZCodec) (c : Cfg) (beh : SinkBehaviour) (steps : List Step) (fin : PFinal),
+    c.WellFormed → c.Small → (∀ s ∈ steps, s.inRange) → fin.inRange →
+    (runProg E Z c beh steps fin).results.any anyPanic = false ∧ anyPanic (runProg E Z c beh steps fin).final = false
+
+theorem stream_no_panic_counterexample : ¬ stream_no_panic_statement := by
+  intro h
+  have := (h toyCodec toyZf (animatedCfg { width := 2, height := 1 } 2 0) { writeFailAt := some 91, writeOnce := true } []
+    (.intoStream 4 [.set (.dim 1 1), .write [1], .flush, .write [2], .flush, .write [3]] .finish)
+    (by decide) (by decide) (by decide) (by decide)).2
+  revert this; decide
 
 end Png.Enc
